@@ -1,89 +1,411 @@
-import MJ.Proofs.StmtRel
+import MJ.Proofs.ExprSim
+import MJ.Proofs.EvalKeys
+import MJ.Proofs.EvalCoinc
 /-!
-# Statements compile correctly (C03 stage 3)
+# Statements compile correctly (C03)
 
-Simulation between the reference semantics (`exec`, scopes as heap cells) and the model VM (frames)
-for the statements of `simpleStmt`: text, emit, `set`, set/filter blocks, `if`, `with`, `for`,
-`break`, `continue`.  The relation `Rel`
-pairs the visible cells with the frames (`FramesRel`: same answer for every variable, including
-`loop`), the output with the innermost capture buffer.  By induction on the fuel of the reference
-execution, for statements, blocks, `with` bindings and loop iterations together (`sim_stmt_all`);
-`vm_refines_eval_partial` is the resulting theorem about whole templates.
+Simulation between the reference semantics (`exec`, scopes as heap cells, macros close over cells by
+reference) and the model VM (frames, macro objects with copied closures) for the statements of the
+core fragment `wfStmt`: text, emit, `set`, set/filter blocks, `if`, `with`, `for`, `break`,
+`continue`, macro declarations; macro calls (`SimCall`).  The relation `Rel` is `HRel`
+(`MJ/Proofs/SimRel.lean`) plus "the output is the innermost capture buffer".  By induction on the
+fuel of the reference execution, for expressions, statements, blocks, `with` bindings, loop
+iterations and calls together (`sim_everything`); `vm_refines_eval` is the resulting theorem about
+whole templates.
 -/
 namespace MJ.Vm
 open MJ.Eval MJ.Compile MJ.C03
 
-/-- what one frame answers for a variable -/
-def frameLookup (f : Frame) (x : String) : Option Val :=
-  match assocGet x f.locals with
-  | some v => some v
-  | none =>
-    match f.loop with
-    | some l => if l.withLoopVar && x == "loop" then some (loopVal l.info) else none
-    | none => none
+/-- the relation between a state of the reference semantics (cells `loc` of the current context on top
+of the lexical rest `env`) and a VM state -/
+def Rel (K : Cfg) (G : Ghost) (P : Option (List String)) (clo : Option Nat) (σ : State) (loc env : List Nat)
+    (s : VmState) : Prop :=
+  HRel K G P clo σ.heap loc env s ∧ ∃ rest, s.outs = σ.out :: rest
 
-theorem lookupFrames_cons (ctx : Scope) (x : String) (f : Frame) (rest : List Frame) :
-    lookupFrames ctx x (f :: rest) = match frameLookup f x with
-      | some v => v
-      | none => lookupFrames ctx x rest := by
-  simp only [lookupFrames, frameLookup]
-  cases assocGet x f.locals with
-  | some v => rfl
-  | none =>
-    cases f.loop with
-    | none => rfl
-    | some l => by_cases h : (l.withLoopVar && x == "loop") = true <;> simp [h]
+theorem Rel.same {K G P clo σ loc env s} (h : Rel K G P clo σ loc env s) (s' : VmState) (hf : s'.frames = s.frames)
+    (hc : s'.closures = s.closures) (ho : s'.outs = s.outs) : Rel K G P clo σ loc env s' :=
+  ⟨h.1.same s' hf hc, by rw [ho]; exact h.2⟩
 
-/-- frame `i` of the VM and scope cell `stack[i]` of the reference semantics answer alike -/
-def FramesRel (heap : Heap) : List Nat → List Frame → Prop
-  | [], [] => True
-  | id :: ids, f :: fs => (∃ cell, heap[id]? = some cell ∧ ∀ x, assocGet x cell = frameLookup f x) ∧ FramesRel heap ids fs
-  | _, _ => False
+theorem Rel.ext {K G P clo σ loc env s} (h : Rel K G P clo σ loc env s) (s' : VmState) (hf : s'.frames = s.frames)
+    {cls' : List Scope} (hx : Ext s.closures cls') (hc : s'.closures = cls') (ho : s'.outs = s.outs) :
+    Rel K G P clo σ loc env s' := by
+  obtain ⟨extra, rfl⟩ := hx
+  exact ⟨h.1.ext s' hf extra hc, by rw [ho]; exact h.2⟩
 
-theorem FramesRel.envRel {ctx heap} : ∀ {stack frames}, FramesRel heap stack frames → EnvRel ctx heap stack frames := by
-  intro stack
-  induction stack with
-  | nil =>
-    intro frames h x
-    cases frames with
-    | nil => simp [lookupFrames, lookup, lookupIn]
-    | cons f fs => simp [FramesRel] at h
-  | cons id ids ih =>
-    intro frames h x
-    cases frames with
-    | nil => simp [FramesRel] at h
-    | cons f fs =>
-      obtain ⟨⟨cell, hc, hag⟩, hrest⟩ := h
-      have := ih hrest x
-      rw [lookupFrames_cons]
-      simp only [lookup, lookupIn, hc, Option.bind_some, hag x] at this ⊢
-      cases frameLookup f x with
-      | some v => rfl
-      | none => simpa [lookup] using this
+/-- what a run does to the closures that existed before: only the closure the innermost frame owns may
+change (stores are duplicated into it), no key is lost, closures are only added -/
+def ClPres (s s' : VmState) : Prop :=
+  s.closures.length ≤ s'.closures.length ∧ KeysMono s.closures s'.closures ∧
+    ∀ c, c < s.closures.length → topClosure s.frames ≠ some c → s'.closures[c]? = s.closures[c]?
 
-theorem FramesRel.congr {heap heap' : Heap} : ∀ {ids fs}, (∀ id ∈ ids, heap'[id]? = heap[id]?) →
-    FramesRel heap ids fs → FramesRel heap' ids fs := by
-  intro ids
-  induction ids with
-  | nil => intro fs _ h; cases fs <;> simpa [FramesRel] using h
-  | cons id rest ih =>
-    intro fs hh h
-    cases fs with
-    | nil => simp [FramesRel] at h
-    | cons f fs' =>
-      obtain ⟨⟨cell, hc, hag⟩, hrest⟩ := h
-      exact ⟨⟨cell, by rw [hh id (by simp)]; exact hc, hag⟩, ih (fun i hi => hh i (by simp [hi])) hrest⟩
+/-- the closure the innermost frame owns stays, or is created -/
+def HeadClos (s s' : VmState) : Prop :=
+  topClosure s'.frames = topClosure s.frames ∨
+    (topClosure s.frames = none ∧ ∃ c, topClosure s'.frames = some c ∧ s.closures.length ≤ c)
 
-/-- the relation between a state of the reference semantics (in scope `stack`) and a VM state -/
-structure Rel (σ : State) (stack : List Nat) (s : VmState) : Prop where
-  frames : FramesRel σ.heap stack s.frames
-  out : ∃ rest, s.outs = σ.out :: rest
-  bound : ∀ id ∈ stack, id < σ.heap.length
-  nodup : stack.Nodup
-  nonempty : ∃ cell rs, stack = cell :: rs
+theorem ClPres.refl (s : VmState) : ClPres s s := ⟨Nat.le_refl _, KeysMono.refl _, fun _ _ _ => rfl⟩
+theorem HeadClos.refl (s : VmState) : HeadClos s s := Or.inl rfl
 
-theorem Rel.env {ctx σ stack s} (h : Rel σ stack s) : EnvRel ctx σ.heap stack s.frames := h.frames.envRel
+theorem ClPres.of_eq {s s' : VmState} (hc : s'.closures = s.closures) : ClPres s s' := by
+  rw [ClPres, hc]; exact ⟨Nat.le_refl _, KeysMono.refl _, fun _ _ _ => rfl⟩
 
+theorem HeadClos.of_eq {s s' : VmState} (hf : topClosure s'.frames = topClosure s.frames) : HeadClos s s' := Or.inl hf
+
+theorem ClPres.trans {s1 s2 s3 : VmState} (h1 : ClPres s1 s2) (hh : HeadClos s1 s2) (h2 : ClPres s2 s3) : ClPres s1 s3 := by
+  refine ⟨Nat.le_trans h1.1 h2.1, h1.2.1.trans h2.2.1, fun c hc hne => ?_⟩
+  have hc2 : c < s2.closures.length := Nat.lt_of_lt_of_le hc h1.1
+  have hne2 : topClosure s2.frames ≠ some c := by
+    rcases hh with hh | ⟨_, c', hc', hle⟩
+    · rw [hh]; exact hne
+    · rw [hc']; intro e; cases e; omega
+  rw [h2.2.2 c hc2 hne2, h1.2.2 c hc hne]
+
+theorem HeadClos.trans {s1 s2 s3 : VmState} (h1 : HeadClos s1 s2) (hl : s1.closures.length ≤ s2.closures.length)
+    (h2 : HeadClos s2 s3) : HeadClos s1 s3 := by
+  rcases h1 with h1 | ⟨hn, c, hc, hle⟩
+  · rcases h2 with h2 | ⟨hn2, c, hc, hle⟩
+    · exact Or.inl (h2.trans h1)
+    · exact Or.inr ⟨by rw [← h1]; exact hn2, c, hc, Nat.le_trans hl hle⟩
+  · rcases h2 with h2 | ⟨hn2, _, _, _⟩
+    · exact Or.inr ⟨hn, c, by rw [h2]; exact hc, hle⟩
+    · rw [hc] at hn2; cases hn2
+
+/-- appended closures -/
+theorem ClPres.of_ext {s s' : VmState} (hx : Ext s.closures s'.closures) : ClPres s s' := by
+  obtain ⟨extra, he⟩ := hx
+  refine ⟨by rw [he]; simp, by rw [he]; exact KeysMono.append _ _, fun c hc _ => ?_⟩
+  rw [he, List.getElem?_append_left hc]
+
+/-- if the innermost frame owned no closure, the old closures are a prefix of the new ones -/
+theorem ClPres.ext_of_none {s s' : VmState} (h : ClPres s s') (hn : topClosure s.frames = none) :
+    Ext s.closures s'.closures := by
+  refine ⟨s'.closures.drop s.closures.length, ?_⟩
+  apply List.ext_getElem?
+  intro i
+  by_cases hi : i < s.closures.length
+  · rw [List.getElem?_append_left hi]
+    exact h.2.2 i hi (by rw [hn]; simp)
+  · have hle : s.closures.length ≤ i := Nat.le_of_not_lt hi
+    rw [List.getElem?_append_right hle, List.getElem?_drop]
+    congr 1; omega
+
+/-- what never changes in a frame while statements run in it: its loop state changes only at
+`Iterate`, the closure it reads never -/
+def Frame.sig (f : Frame) : Option LoopSt × Option Nat := (f.loop, f.closureCtx)
+
+/-- the static part of the context a statement runs in -/
+structure SC where
+  K : Cfg
+  P : Option (List String)
+  clo : Option Nat
+  env : List Nat
+
+theorem Rel.store {K G P clo σ T locR env s} (h : Rel K G P clo σ (T :: locR) env s) (x : String) (w u : Val)
+    (hv : ValAgree K G s.closures σ.heap.length x w u) (hpw : x ∉ K.M → plain w = true) (s' : VmState)
+    (hf : s'.frames = storeLocal x u s.frames)
+    (hc : s'.closures = storeClosure x u s.frames s.closures) (ho : s'.outs = s.outs) :
+    Rel K G P clo { σ with heap := heapSet σ.heap T x w } (T :: locR) env s' :=
+  ⟨h.1.store x w u hv hpw s' hf hc, by rw [ho]; exact h.2⟩
+
+theorem storeClosure_length (x : String) (u : Val) (frames : List Frame) (cls : List Scope) :
+    (storeClosure x u frames cls).length = cls.length := by
+  unfold storeClosure
+  split
+  · split <;> simp
+  · rfl
+
+theorem topClosure_storeLocal (x : String) (u : Val) (frames : List Frame) :
+    topClosure (storeLocal x u frames) = topClosure frames := by
+  cases frames <;> rfl
+
+theorem ClPres.store {s s' : VmState} (x : String) (u : Val) (hc : s'.closures = storeClosure x u s.frames s.closures) :
+    ClPres s s' := by
+  refine ⟨by rw [hc, storeClosure_length]; exact Nat.le_refl _, by rw [hc]; exact storeClosure_keys _ _ _ _, fun c _ hne => ?_⟩
+  rw [hc]; exact storeClosure_other _ _ _ _ c hne
+
+theorem heapSetAll_append (h : Heap) (c : Nat) (b1 b2 : List (String × Val)) :
+    heapSetAll h c (b1 ++ b2) = heapSetAll (heapSetAll h c b1) c b2 := by
+  induction b1 generalizing h with
+  | nil => rfl
+  | cons p rest ih => obtain ⟨x, v⟩ := p; simp [heapSetAll, ih]
+
+theorem bindTargets_length : ∀ (ts : List Target) (vs : List Val) (bs), bindTargets ts vs = .ok bs →
+    vs.length = ts.length
+  | [], [], _, _ => rfl
+  | [], _ :: _, _, h => by simp [bindTargets] at h
+  | _ :: _, [], _, h => by simp [bindTargets] at h
+  | t :: ts, v :: vs, bs, h => by
+    simp only [bindTargets] at h
+    split at h
+    · split at h
+      · rename_i bs' hbs; simp [bindTargets_length ts vs bs' hbs]
+      · simp at h
+    · simp at h
+
+/-- what executing a piece of code achieves on the VM side, relative to the reference state `σ'` -/
+def Done (X : SC) (loc : List Nat) (σ' : State) (s : VmState) (endPc : Nat) : Prop :=
+  ∃ s' G', Reach X.K.ctx X.K.C s s' ∧ s'.pc = endPc ∧ s'.stack = s.stack ∧ Rel X.K G' X.P X.clo σ' loc X.env s' ∧
+    s'.outs.tail = s.outs.tail ∧ s'.frames.tail = s.frames.tail ∧
+    s'.frames.head?.map Frame.sig = s.frames.head?.map Frame.sig ∧ ClPres s s' ∧ HeadClos s s'
+
+/-- the same, when the code consumes the top of the operand stack (`v :: st` before, `st` after) -/
+def Stored (X : SC) (loc : List Nat) (σ' : State) (s : VmState) (st : List Val) (endPc : Nat) : Prop :=
+  ∃ s' G', Reach X.K.ctx X.K.C s s' ∧ s'.pc = endPc ∧ s'.stack = st ∧ Rel X.K G' X.P X.clo σ' loc X.env s' ∧
+    s'.outs = s.outs ∧ s'.frames.tail = s.frames.tail ∧
+    s'.frames.head?.map Frame.sig = s.frames.head?.map Frame.sig ∧ ClPres s s' ∧ HeadClos s s'
+
+theorem storeLocal_tail (x : String) (v : Val) (fs : List Frame) : (storeLocal x v fs).tail = fs.tail := by
+  cases fs <;> rfl
+
+theorem storeLocal_headLoop (x : String) (v : Val) (fs : List Frame) :
+    (storeLocal x v fs).head?.map Frame.sig = fs.head?.map Frame.sig := by
+  cases fs <;> rfl
+
+mutual
+/-- `compile_assignment` against `bindTarget`: the value on top of the operand stack is stored /
+unpacked into the innermost frame exactly as the reference semantics writes the innermost cell -/
+theorem sim_target (X : SC) : ∀ (t : Target) (v : Val) (bs : List (String × Val)), bindTarget t v = .ok bs →
+    targetOk X.K.M t = true → plain v = true →
+    ∀ (G : Ghost) (base : Nat) (s : VmState) (st : List Val) (σ : State) (cell : Nat) (rs : List Nat),
+      At X.K.C base (relTarget t) → s.pc = base → s.stack = v :: st → Rel X.K G X.P X.clo σ (cell :: rs) X.env s →
+      Stored X (cell :: rs) { σ with heap := heapSetAll σ.heap cell bs } s st (base + (relTarget t).length)
+  | .var x, v, bs, hb, hok, hpv, G, base, s, st, σ, cell, rs, hAt, hpc, hst, hrel => by
+    simp [bindTarget] at hb; subst hb
+    have hxM : ¬ x ∈ X.K.M := by simpa [targetOk, targetNames] using hok
+    simp only [relTarget] at hAt ⊢
+    let s1 : VmState := { s with pc := base + 1, stack := st, frames := storeLocal x v s.frames,
+                                 closures := storeClosure x v s.frames s.closures }
+    refine ⟨s1, G, Reach.one (i := .storeLocal x) (by rw [hpc]; exact hAt.head) (by simp [MJ.Vm.step, hst, hpc, s1]),
+      rfl, rfl, ?_, rfl, storeLocal_tail _ _ _, storeLocal_headLoop _ _ _, ClPres.store x v rfl,
+      HeadClos.of_eq (topClosure_storeLocal _ _ _)⟩
+    have := hrel.store x v v (by simp [ValAgree, hxM]) (fun _ => hpv) s1 rfl rfl rfl
+    simpa [heapSetAll] using this
+  | .tuple ts, v, bs, hb, hok, hpv, G, base, s, st, σ, cell, rs, hAt, hpc, hst, hrel => by
+    simp only [relTarget] at hAt ⊢
+    have hok' : ∀ t ∈ ts, targetOk X.K.M t = true := by
+      intro t ht
+      simp only [targetOk, targetNames, List.all_eq_true] at hok ⊢
+      intro y hy
+      refine hok y ?_
+      clear hok hb hAt
+      induction ts with
+      | nil => simp at ht
+      | cons t0 rest ih =>
+        simp only [targetsNames, List.mem_append]
+        rcases List.mem_cons.1 ht with rfl | h
+        · exact Or.inl hy
+        · exact Or.inr (ih h)
+    -- the items that are unpacked
+    have hitems : ∃ xs, bindTargets ts xs = .ok bs ∧ (∀ x, x ∈ xs → plain x = true) ∧
+        MJ.Vm.step X.K.ctx (.unpackList ts.length) s = .ok { s with pc := s.pc + 1, stack := xs ++ st } := by
+      cases v
+      case list xs =>
+        simp only [bindTarget] at hb
+        refine ⟨xs, hb, (plainL_iff xs).1 (by simpa [plain] using hpv), ?_⟩
+        simp [MJ.Vm.step, hst, bindTargets_length ts xs bs hb]
+      case map kvs =>
+        simp only [bindTarget] at hb
+        refine ⟨_, hb, (plainL_iff _).1 (plain_str_map (fun kv : String × Val => kv.1) kvs), ?_⟩
+        have := bindTargets_length ts _ bs hb
+        simp [MJ.Vm.step, hst] at this ⊢
+        simp [this]
+      all_goals simp [bindTarget] at hb
+    obtain ⟨xs, hbs, hpxs, hstep⟩ := hitems
+    have r1 : Reach X.K.ctx X.K.C s { s with pc := s.pc + 1, stack := xs ++ st } :=
+      Reach.one (i := .unpackList ts.length) (by rw [hpc]; exact hAt.head) hstep
+    obtain ⟨s2, G2, r2, hpc2, hst2, hrel2, hout2, htl2, hhd2, hcp2, hhc2⟩ :=
+      sim_targets X ts xs bs hbs hok' hpxs G (base + 1) { s with pc := s.pc + 1, stack := xs ++ st } st σ cell rs
+        hAt.tail (by simp [hpc]) rfl (hrel.same _ rfl rfl rfl)
+    exact ⟨s2, G2, r1.trans r2, by simp [hpc2, Nat.add_assoc, Nat.add_comm], hst2, hrel2, hout2, htl2, hhd2, hcp2, hhc2⟩
+theorem sim_targets (X : SC) : ∀ (ts : List Target) (vs : List Val) (bs : List (String × Val)), bindTargets ts vs = .ok bs →
+    (∀ t ∈ ts, targetOk X.K.M t = true) → (∀ v, v ∈ vs → plain v = true) →
+    ∀ (G : Ghost) (base : Nat) (s : VmState) (st : List Val) (σ : State) (cell : Nat) (rs : List Nat),
+      At X.K.C base (relTargets ts) → s.pc = base → s.stack = vs ++ st → Rel X.K G X.P X.clo σ (cell :: rs) X.env s →
+      Stored X (cell :: rs) { σ with heap := heapSetAll σ.heap cell bs } s st (base + (relTargets ts).length)
+  | [], [], bs, hb, hok, _, G, base, s, st, σ, cell, rs, hAt, hpc, hst, hrel => by
+    simp [bindTargets] at hb; subst hb
+    exact ⟨s, G, Reach.refl _, by simp [relTargets, hpc], by simpa using hst, by simpa [heapSetAll] using hrel, rfl, rfl, rfl,
+      ClPres.refl _, HeadClos.refl _⟩
+  | [], _ :: _, bs, hb, _, _, _, _, _, _, _, _, _, _, _, _, _ => by simp [bindTargets] at hb
+  | _ :: _, [], bs, hb, _, _, _, _, _, _, _, _, _, _, _, _, _ => by simp [bindTargets] at hb
+  | t :: ts, v :: vs, bs, hb, hok, hpvs, G, base, s, st, σ, cell, rs, hAt, hpc, hst, hrel => by
+    simp only [bindTargets] at hb
+    split at hb
+    · rename_i b1 hb1
+      split at hb
+      · rename_i b2 hb2
+        simp at hb; subst hb
+        simp only [relTargets] at hAt ⊢
+        obtain ⟨s1, G1, r1, hpc1, hst1, hrel1, hout1, htl1, hhd1, hcp1, hhc1⟩ :=
+          sim_target X t v b1 hb1 (hok t (by simp)) (hpvs v (by simp)) G base s (vs ++ st) σ cell rs hAt.left hpc (by simpa using hst) hrel
+        obtain ⟨s2, G2, r2, hpc2, hst2, hrel2, hout2, htl2, hhd2, hcp2, hhc2⟩ :=
+          sim_targets X ts vs b2 hb2 (fun t' ht' => hok t' (by simp [ht'])) (fun x hx => hpvs x (by simp [hx])) G1 (base + (relTarget t).length) s1 st _ cell rs
+            hAt.right hpc1 hst1 hrel1
+        refine ⟨s2, G2, r1.trans r2, by simp [hpc2, Nat.add_assoc], hst2, ?_, hout2.trans hout1, htl2.trans htl1,
+          hhd2.trans hhd1, hcp1.trans hhc1 hcp2, hhc1.trans hcp1.1 hhc2⟩
+        simpa [heapSetAll_append] using hrel2
+      · simp at hb
+    · simp at hb
+end
+
+/-! ## `break` / `continue`: what a statement that leaves the loop body early achieves -/
+
+def nWith : List ScopeKind → Nat
+  | [] => 0
+  | .with_ :: r => nWith r + 1
+  | .capture :: r => nWith r
+
+def nCap : List ScopeKind → Nat
+  | [] => 0
+  | .with_ :: r => nCap r
+  | .capture :: r => nCap r + 1
+
+/-- the VM jumped to `tgt` after leaving the scopes `sc` (opened inside the loop body): their
+frames and capture buffers are gone, the operand stack is as before -/
+def Unw (X : SC) (σ' : State) (s : VmState) (tgt : Nat) (sc : List ScopeKind) : Prop :=
+  ∃ s', Reach X.K.ctx X.K.C s s' ∧ s'.pc = tgt ∧ s'.stack = s.stack ∧
+    s'.frames.tail = (s.frames.drop (nWith sc)).tail ∧
+    s'.frames.head?.map Frame.sig = (s.frames.drop (nWith sc)).head?.map Frame.sig ∧
+    s'.outs = (σ'.out :: s.outs.tail).drop (nCap sc) ∧ s.closures.length ≤ s'.closures.length ∧
+    (∀ c, c < s.closures.length → (∀ f ∈ s.frames.take (nWith sc + 1), f.closure ≠ some c) →
+      s'.closures[c]? = s.closures[c]?)
+
+def jumpTarget : Flow → LoopCtx → Nat
+  | .brk, l => l.exit
+  | _, l => l.iter
+
+/-- the postcondition of a statement: it ends normally behind its code (`Done`), or it jumps to the
+`Iterate` / behind the innermost loop -/
+def Post (X : SC) (loc : List Nat) (σ' : State) (fl : Flow) (s : VmState) (endPc : Nat)
+    (lc : Option LoopCtx) : Prop :=
+  if fl = .normal then Done X loc σ' s endPc
+  else ∃ l, lc = some l ∧ Unw X σ' s (jumpTarget fl l) l.scopes
+
+theorem drop_frames_eq {fs1 fs : List Frame} (ht : fs1.tail = fs.tail)
+    (hh : fs1.head?.map Frame.sig = fs.head?.map Frame.sig) (k : Nat) :
+    (fs1.drop k).tail = (fs.drop k).tail ∧ (fs1.drop k).head?.map Frame.sig = (fs.drop k).head?.map Frame.sig := by
+  cases k with
+  | zero => exact ⟨ht, hh⟩
+  | succ k =>
+    have e1 : fs1.drop (k + 1) = fs1.tail.drop k := by cases fs1 <;> simp
+    have e2 : fs.drop (k + 1) = fs.tail.drop k := by cases fs <;> simp
+    rw [e1, e2, ht]; exact ⟨rfl, rfl⟩
+
+theorem topClosure_ne_of_take {fs : List Frame} {c k : Nat} (h : ∀ f ∈ fs.take (k + 1), f.closure ≠ some c) :
+    topClosure fs ≠ some c := by
+  cases fs with
+  | nil => simp [topClosure]
+  | cons f rest => simp only [topClosure]; exact h f (by simp)
+
+/-- prefix a run that keeps operand stack, frame structure and the outer capture buffers -/
+theorem Unw.prefix {X σ' s s1 tgt sc} (r : Reach X.K.ctx X.K.C s s1) (hst : s1.stack = s.stack)
+    (ht : s1.frames.tail = s.frames.tail) (hh : s1.frames.head?.map Frame.sig = s.frames.head?.map Frame.sig)
+    (ho : s1.outs.tail = s.outs.tail) (hcp : ClPres s s1) (hhc : HeadClos s s1)
+    (h : Unw X σ' s1 tgt sc) : Unw X σ' s tgt sc := by
+  obtain ⟨s', r', hpc, hst', htl, hhd, hout, hlen, hun⟩ := h
+  have := drop_frames_eq ht hh (nWith sc)
+  refine ⟨s', r.trans r', hpc, hst'.trans hst, htl.trans this.1, hhd.trans this.2, by rw [hout, ho],
+    Nat.le_trans hcp.1 hlen, fun c hc hu => ?_⟩
+  have hc1 : c < s1.closures.length := Nat.lt_of_lt_of_le hc hcp.1
+  have hu1 : ∀ f ∈ s1.frames.take (nWith sc + 1), f.closure ≠ some c := by
+    intro f hf
+    cases hf1 : s1.frames with
+    | nil => rw [hf1] at hf; simp at hf
+    | cons g rest =>
+      rw [hf1] at hf
+      simp only [List.take_succ_cons] at hf
+      rcases List.mem_cons.1 hf with rfl | hmem
+      · -- the head frame: its closure is the old one or a new one
+        have htop : topClosure s1.frames = f.closure := by rw [hf1]; rfl
+        rcases hhc with hh' | ⟨_, c', hc', hle⟩
+        · rw [← htop, hh']; exact topClosure_ne_of_take hu
+        · rw [← htop, hc']; intro e; cases e; omega
+      · have hrest : rest = s.frames.tail := by rw [← ht, hf1]; rfl
+        refine hu f ?_
+        cases hs : s.frames with
+        | nil => rw [hs] at hrest; rw [hrest] at hmem; simp at hmem
+        | cons g0 rest0 =>
+          rw [hs] at hrest; simp at hrest; subst hrest
+          simp only [List.take_succ_cons]
+          exact List.mem_cons_of_mem _ hmem
+  rw [hun c hc1 hu1, hcp.2.2 c hc (topClosure_ne_of_take hu)]
+
+/-- the simulation statement for one statement `st` at fuel `n` -/
+def StmtGoal (n : Nat) (X : SC) (st : Stmt) : Prop :=
+  ∀ G σ loc σ' fl, exec n X.K.ctx (loc ++ X.env) σ st = .ok (σ', fl) →
+    ∀ A lc, wfStmt X.K.M X.P A lc.isSome st = true → ABound σ.heap loc A → loc ≠ [] →
+    ∀ base a s, At X.K.C base (relStmt st base a lc).1.1 → (relStmt st base a lc).1.2.oof = false → s.pc = base →
+      Rel X.K G X.P X.clo σ loc X.env s → (∀ l, lc = some l → nCap l.scopes < s.outs.length) →
+      Post X loc σ' fl s (base + (relStmt st base a lc).1.1.length) lc
+
+def SimStmt (n : Nat) : Prop := ∀ (X : SC) st, StmtGoal n X st
+
+def SimBlock (n : Nat) : Prop :=
+  ∀ (X : SC) ss G σ loc σ' fl, execBlock n X.K.ctx (loc ++ X.env) σ ss = .ok (σ', fl) →
+    ∀ A lc, wfBlock X.K.M X.P A lc.isSome ss = true → ABound σ.heap loc A → loc ≠ [] →
+    ∀ base a s, At X.K.C base (relBlock ss base a lc).1.1 → (relBlock ss base a lc).1.2.oof = false → s.pc = base →
+      Rel X.K G X.P X.clo σ loc X.env s → (∀ l, lc = some l → nCap l.scopes < s.outs.length) →
+      Post X loc σ' fl s (base + (relBlock ss base a lc).1.1.length) lc
+
+def SimBinds (n : Nat) : Prop :=
+  ∀ (X : SC) binds G heap loc heap' out, bindWith n X.K.ctx heap (loc ++ X.env) binds = .ok heap' →
+    ∀ A, wfBinds X.K.M X.P A binds = true → ABound heap loc A → loc ≠ [] →
+    ∀ base a s, At X.K.C base (relBinds binds base a).1 → (relBinds binds base a).2.oof = false → s.pc = base →
+      Rel X.K G X.P X.clo { heap := heap, out := out } loc X.env s →
+      Done X loc { heap := heap', out := out } s (base + (relBinds binds base a).1.length)
+
+theorem Done.refl {X : SC} {G loc σ s} (h : Rel X.K G X.P X.clo σ loc X.env s) : Done X loc σ s s.pc :=
+  ⟨s, G, Reach.refl _, rfl, rfl, h, rfl, rfl, rfl, ClPres.refl _, HeadClos.refl _⟩
+
+/-- the expression context of a statement -/
+def SC.ectx (X : SC) (G : Ghost) (heap : Heap) (loc : List Nat) (A : List String) : ECtx :=
+  { K := X.K, G := G, P := X.P, clo := X.clo, heap := heap, loc := loc, env := X.env, A := A }
+
+theorem Rel.eok {X : SC} {G σ loc s A} (h : Rel X.K G X.P X.clo σ loc X.env s) (hA : ABound σ.heap loc A)
+    (hne : loc ≠ []) : (X.ectx G σ.heap loc A).ok s := ⟨h.1, hA, hne⟩
+
+theorem ABound.mono {heap heap' : Heap} {loc : List Nat} {A : List String} (h : ABound heap loc A) (hle : HeapLe heap heap') :
+    ABound heap' loc A := by
+  intro x hx
+  obtain ⟨id, hid, cell, hc, hb⟩ := h x hx
+  obtain ⟨cell', hc', hb'⟩ := hle id x ⟨cell, hc, hb⟩
+  exact ⟨id, hid, cell', hc', hb'⟩
+
+theorem ABound.append {heap : Heap} {loc : List Nat} {A B : List String} (h1 : ABound heap loc A) (h2 : ABound heap loc B) :
+    ABound heap loc (A ++ B) := by
+  intro x hx
+  rcases List.mem_append.1 hx with h | h
+  · exact h1 x h
+  · exact h2 x h
+
+theorem ABound.push {heap : Heap} {loc : List Nat} {A : List String} (h : ABound heap loc A) (cell : Scope)
+    (hb : ∀ id ∈ loc, id < heap.length) : ABound (heap ++ [cell]) (heap.length :: loc) A := by
+  intro x hx
+  obtain ⟨id, hid, c, hc, hx'⟩ := h x hx
+  exact ⟨id, by simp [hid], c, by rw [List.getElem?_append_left (hb id hid)]; exact hc, hx'⟩
+
+/-- evaluate `e`, then assign to the target: `set t = e` and one `with` binding -/
+theorem sim_assign {n} (ihE : SimExpr n) {X : SC} {G cell rs σ e v t bs A}
+    (hv : evalExpr n X.K.ctx σ.heap ((cell :: rs) ++ X.env) e = .ok v)
+    (hb : bindTarget t v = .ok bs) (hse : wfExpr X.K.M X.P A e = true) (hto : targetOk X.K.M t = true)
+    (hA : ABound σ.heap (cell :: rs) A) {base a s}
+    (hAt : At X.K.C base ((relExpr e base a).1 ++ relTarget t)) (hoof : (relExpr e base a).2.oof = false)
+    (hpc : s.pc = base) (hrel : Rel X.K G X.P X.clo σ (cell :: rs) X.env s) :
+    Done X (cell :: rs) { σ with heap := heapSetAll σ.heap cell bs } s
+      (base + (relExpr e base a).1.length + (relTarget t).length) := by
+  obtain ⟨c1, x1, r1⟩ := ihE (X.ectx G σ.heap (cell :: rs) A) e v hv hse base a s hAt.left hoof hpc (hrel.eok hA (by simp))
+  have hrel1 : Rel X.K G X.P X.clo σ (cell :: rs) X.env
+      { s with pc := base + (relExpr e base a).1.length, stack := v :: s.stack, closures := c1 } :=
+    hrel.ext _ rfl x1 rfl rfl
+  obtain ⟨s2, G2, r2, hpc2, hst2, hrel2, hout2, htl2, hhd2, hcp2, hhc2⟩ :=
+    sim_target X t v bs hb hto (evalExpr_plain hrel.1.plain n e v hse hv) G (base + (relExpr e base a).1.length)
+      { s with pc := base + (relExpr e base a).1.length, stack := v :: s.stack, closures := c1 } s.stack σ cell rs
+      hAt.right rfl rfl hrel1
+  have hcp1 : ClPres s { s with pc := base + (relExpr e base a).1.length, stack := v :: s.stack, closures := c1 } :=
+    ClPres.of_ext x1
+  have hhc1 : HeadClos s { s with pc := base + (relExpr e base a).1.length, stack := v :: s.stack, closures := c1 } :=
+    HeadClos.of_eq rfl
+  exact ⟨s2, G2, r1.trans r2, hpc2, hst2, hrel2, by rw [hout2], htl2, hhd2, hcp1.trans hhc1 hcp2, hhc1.trans hcp1.1 hhc2⟩
 
 theorem relBinds_oof_mono : ∀ (binds : List (Target × Expr)) (b : Nat) (a : Aux), a.oof = true →
     (relBinds binds b a).2.oof = true
@@ -103,6 +425,13 @@ theorem relForIter_oof_mono (t : Target) (iter : Expr) (flt : Option Expr) (b : 
   cases flt with
   | none => exact relExpr_oof_mono iter b a h
   | some c => simp only [relForIter]; exact relExpr_oof_mono c _ _ (relExpr_oof_mono iter _ a h)
+
+theorem relPrologue_oof_mono : ∀ (pds : List (String × Option Expr)) (b : Nat) (a : Aux), a.oof = true →
+    (relPrologue pds b a).2.oof = true
+  | [], b, a, h => by simp [relPrologue, h]
+  | (p, none) :: rest, b, a, h => by simp only [relPrologue]; exact relPrologue_oof_mono rest _ a h
+  | (p, some d) :: rest, b, a, h => by
+    simp only [relPrologue]; exact relPrologue_oof_mono rest _ _ (relExpr_oof_mono d _ a h)
 
 mutual
 theorem relStmt_oof_mono : ∀ (st : Stmt) (b : Nat) (a : Aux) (lc : Option LoopCtx), a.oof = true →
@@ -126,8 +455,15 @@ theorem relStmt_oof_mono : ∀ (st : Stmt) (b : Nat) (a : Aux) (lc : Option Loop
     simp only [relStmt]; exact relFilters_oof_mono fs _ _ (relBlock_oof_mono body _ a _ h)
   | .filterBlock fs body, b, a, lc, h => by
     simp only [relStmt]; exact relFilters_oof_mono fs _ _ (relBlock_oof_mono body _ a _ h)
-  | .macroS .., b, a, lc, h => by simp [relStmt]
-  | .callBlock .., b, a, lc, h => by simp [relStmt]
+  | .macroS name params defaults body uc, b, a, lc, h => by
+    simp only [relStmt]; exact relBlock_oof_mono body _ _ _ (relPrologue_oof_mono _ _ a h)
+  | .callBlock f args params defaults body uc, b, a, lc, h => by
+    cases f with
+    | var x =>
+      simp only [relStmt]
+      exact relBlock_oof_mono body _ _ _ (relPrologue_oof_mono _ _ _
+        (relKwArgs_oof_mono args _ _ (relPosArgs_oof_mono args b a h)))
+    | _ => simp [relStmt]
   | .breakS, b, a, none, h => by simp [relStmt]
   | .breakS, b, a, some l, h => by simp [relStmt, h]
   | .continueS, b, a, none, h => by simp [relStmt]
@@ -139,12 +475,6 @@ theorem relBlock_oof_mono : ∀ (ss : List Stmt) (b : Nat) (a : Aux) (lc : Optio
     simp only [relBlock]; exact relBlock_oof_mono rest _ _ _ (relStmt_oof_mono s b a lc h)
 end
 
-theorem oof_false_of_relBlock {ss b a lc} (h : (relBlock ss b a lc).1.2.oof = false) : a.oof = false := by
-  cases ha : a.oof with
-  | false => rfl
-  | true => rw [relBlock_oof_mono ss b a lc ha] at h; cases h
-
-
 theorem oof_false_of_relBinds {bs b a} (h : (relBinds bs b a).2.oof = false) : a.oof = false := by
   cases ha : a.oof with
   | false => rfl
@@ -155,253 +485,22 @@ theorem oof_false_of_relFilters {fs b a} (h : (relFilters fs b a).2.oof = false)
   | false => rfl
   | true => rw [relFilters_oof_mono fs b a ha] at h; cases h
 
-theorem Rel.store {σ : State} {cell : Nat} {rs : List Nat} {s : VmState} (h : Rel σ (cell :: rs) s)
-    (x : String) (v : Val) (s' : VmState) (hf : s'.frames = storeLocal x v s.frames) (ho : s'.outs = s.outs) :
-    Rel { σ with heap := heapSet σ.heap cell x v } (cell :: rs) s' := by
-  have hcell : cell < σ.heap.length := h.bound cell (by simp)
-  cases hfr : s.frames with
-  | nil => have := h.frames; rw [hfr] at this; simp [FramesRel] at this
-  | cons f fs =>
-    have hF := h.frames
-    rw [hfr] at hF
-    obtain ⟨⟨c, hc, hag⟩, hrest⟩ := hF
-    refine ⟨?_, by rw [ho]; exact h.out, ?_, h.nodup, h.nonempty⟩
-    · rw [hf, hfr]
-      simp only [storeLocal]
-      refine ⟨⟨assocSet x v c, ?_, ?_⟩, ?_⟩
-      · have := heapSet_getElem?_same σ.heap cell x v hcell
-        rw [List.getElem?_eq_getElem hcell] at hc
-        simp at hc; subst hc; exact this
-      · intro y
-        by_cases hy : y = x
-        · subst hy; simp [frameLookup, assocGet_assocSet_same]
-        · have := hag y
-          simp only [frameLookup, assocGet_assocSet_other x y v _ hy] at this ⊢
-          exact this
-      · refine FramesRel.congr (fun id hid => heapSet_getElem?_ne _ _ _ _ _ ?_) hrest
-        intro e; subst e
-        have := h.nodup; simp at this; exact this.1 hid
-    · intro id hid; simpa [heapSet_length] using h.bound id hid
+theorem oof_false_of_relBlock {ss b a lc} (h : (relBlock ss b a lc).1.2.oof = false) : a.oof = false := by
+  cases ha : a.oof with
+  | false => rfl
+  | true => rw [relBlock_oof_mono ss b a lc ha] at h; cases h
 
-/-- pushing a fresh cell / frame -/
-theorem Rel.push {σ : State} {stack : List Nat} {s : VmState} (h : Rel σ stack s) (cellv : Scope) (f : Frame)
-    (hag : ∀ x, assocGet x cellv = frameLookup f x) (s' : VmState) (hf : s'.frames = f :: s.frames)
-    (ho : s'.outs = s.outs) :
-    Rel { σ with heap := σ.heap ++ [cellv] } (σ.heap.length :: stack) s' := by
-  refine ⟨?_, by rw [ho]; exact h.out, ?_, ?_, ⟨_, _, rfl⟩⟩
-  · rw [hf]
-    refine ⟨⟨cellv, by simp, hag⟩, FramesRel.congr (fun id hid => ?_) h.frames⟩
-    simp [List.getElem?_append_left (h.bound id hid)]
-  · intro id hid
-    simp at hid ⊢
-    rcases hid with rfl | hid
-    · omega
-    · have := h.bound id hid; omega
-  · simp only [List.nodup_cons]
-    refine ⟨fun hmem => ?_, h.nodup⟩
-    have := h.bound _ hmem; omega
+theorem Rel.bound0 {K G P clo σ T locR env s} (h : Rel K G P clo σ (T :: locR) env s) : T < σ.heap.length :=
+  h.1.bound T (by simp)
 
+theorem ABound.of_cell {heap : Heap} {T : Nat} {locR : List Nat} {B : List String}
+    (h : ∀ x, x ∈ B → BoundCell heap T x) : ABound heap (T :: locR) B := by
+  intro x hx
+  obtain ⟨c, hc, hb⟩ := h x hx
+  exact ⟨T, by simp, c, hc, hb⟩
 
-
-theorem heapSetAll_append (h : Heap) (c : Nat) (b1 b2 : List (String × Val)) :
-    heapSetAll h c (b1 ++ b2) = heapSetAll (heapSetAll h c b1) c b2 := by
-  induction b1 generalizing h with
-  | nil => rfl
-  | cons p rest ih => obtain ⟨x, v⟩ := p; simp [heapSetAll, ih]
-
-theorem bindTargets_length : ∀ (ts : List Target) (vs : List Val) (bs), bindTargets ts vs = .ok bs →
-    vs.length = ts.length
-  | [], [], _, _ => rfl
-  | [], _ :: _, _, h => by simp [bindTargets] at h
-  | _ :: _, [], _, h => by simp [bindTargets] at h
-  | t :: ts, v :: vs, bs, h => by
-    simp only [bindTargets] at h
-    split at h
-    · split at h
-      · rename_i bs' hbs; simp [bindTargets_length ts vs bs' hbs]
-      · simp at h
-    · simp at h
-
-/-- change only pc / operand stack of the VM state -/
-theorem Rel.same {σ stack s} (h : Rel σ stack s) (s' : VmState) (hf : s'.frames = s.frames) (ho : s'.outs = s.outs) :
-    Rel σ stack s' :=
-  ⟨by rw [hf]; exact h.frames, by rw [ho]; exact h.out, h.bound, h.nodup, h.nonempty⟩
-
-/-- what executing a piece of code achieves on the VM side, relative to the reference state `σ'` -/
-def Done (ctx : Scope) (C : List Instr) (stack : List Nat) (σ' : State) (s : VmState) (endPc : Nat) : Prop :=
-  ∃ s', Reach ctx C s s' ∧ s'.pc = endPc ∧ s'.stack = s.stack ∧ Rel σ' stack s' ∧
-    s'.outs.tail = s.outs.tail ∧ s'.frames.tail = s.frames.tail ∧
-    s'.frames.head?.map (·.loop) = s.frames.head?.map (·.loop)
-
-/-- the same, when the code consumes the top of the operand stack (`v :: st` before, `st` after) -/
-def Stored (ctx : Scope) (C : List Instr) (stack : List Nat) (σ' : State) (s : VmState) (st : List Val)
-    (endPc : Nat) : Prop :=
-  ∃ s', Reach ctx C s s' ∧ s'.pc = endPc ∧ s'.stack = st ∧ Rel σ' stack s' ∧
-    s'.outs = s.outs ∧ s'.frames.tail = s.frames.tail ∧
-    s'.frames.head?.map (·.loop) = s.frames.head?.map (·.loop)
-
-theorem storeLocal_tail (x : String) (v : Val) (fs : List Frame) : (storeLocal x v fs).tail = fs.tail := by
-  cases fs <;> rfl
-
-theorem storeLocal_headLoop (x : String) (v : Val) (fs : List Frame) :
-    (storeLocal x v fs).head?.map (·.loop) = fs.head?.map (·.loop) := by
-  cases fs <;> rfl
-
-mutual
-/-- `compile_assignment` against `bindTarget`: the value on top of the operand stack is stored /
-unpacked into the innermost frame exactly as the reference semantics writes the innermost cell -/
-theorem sim_target : ∀ (t : Target) (v : Val) (bs : List (String × Val)), bindTarget t v = .ok bs →
-    ∀ (ctx : Scope) (C : List Instr) (base : Nat) (s : VmState) (st : List Val) (σ : State) (cell : Nat) (rs : List Nat),
-      At C base (relTarget t) → s.pc = base → s.stack = v :: st → Rel σ (cell :: rs) s →
-      Stored ctx C (cell :: rs) { σ with heap := heapSetAll σ.heap cell bs } s st (base + (relTarget t).length)
-  | .var x, v, bs, hb, ctx, C, base, s, st, σ, cell, rs, hAt, hpc, hst, hrel => by
-    simp [bindTarget] at hb; subst hb
-    simp only [relTarget] at hAt ⊢
-    refine ⟨{ s with pc := base + 1, stack := st, frames := storeLocal x v s.frames },
-      Reach.one (i := .storeLocal x) (by rw [hpc]; exact hAt.head) (by simp [MJ.Vm.step, hst, hpc]),
-      rfl, rfl, ?_, rfl, storeLocal_tail _ _ _, storeLocal_headLoop _ _ _⟩
-    simpa [heapSetAll] using hrel.store x v { s with pc := base + 1, stack := st, frames := storeLocal x v s.frames } rfl rfl
-  | .tuple ts, v, bs, hb, ctx, C, base, s, st, σ, cell, rs, hAt, hpc, hst, hrel => by
-    simp only [relTarget] at hAt ⊢
-    -- the items that are unpacked
-    have hitems : ∃ xs, bindTargets ts xs = .ok bs ∧
-        MJ.Vm.step ctx (.unpackList ts.length) s = .ok { s with pc := s.pc + 1, stack := xs ++ st } := by
-      cases v
-      case list xs =>
-        simp only [bindTarget] at hb
-        refine ⟨xs, hb, ?_⟩
-        simp [MJ.Vm.step, hst, bindTargets_length ts xs bs hb]
-      case map kvs =>
-        simp only [bindTarget] at hb
-        refine ⟨_, hb, ?_⟩
-        have := bindTargets_length ts _ bs hb
-        simp [MJ.Vm.step, hst] at this ⊢
-        simp [this]
-      all_goals simp [bindTarget] at hb
-    obtain ⟨xs, hbs, hstep⟩ := hitems
-    have r1 : Reach ctx C s { s with pc := s.pc + 1, stack := xs ++ st } :=
-      Reach.one (i := .unpackList ts.length) (by rw [hpc]; exact hAt.head) hstep
-    obtain ⟨s2, r2, hpc2, hst2, hrel2, hout2, htl2, hhd2⟩ :=
-      sim_targets ts xs bs hbs ctx C (base + 1) { s with pc := s.pc + 1, stack := xs ++ st } st σ cell rs
-        hAt.tail (by simp [hpc]) rfl (hrel.same _ rfl rfl)
-    exact ⟨s2, r1.trans r2, by simp [hpc2, Nat.add_assoc, Nat.add_comm], hst2, hrel2, hout2, htl2, hhd2⟩
-theorem sim_targets : ∀ (ts : List Target) (vs : List Val) (bs : List (String × Val)), bindTargets ts vs = .ok bs →
-    ∀ (ctx : Scope) (C : List Instr) (base : Nat) (s : VmState) (st : List Val) (σ : State) (cell : Nat) (rs : List Nat),
-      At C base (relTargets ts) → s.pc = base → s.stack = vs ++ st → Rel σ (cell :: rs) s →
-      Stored ctx C (cell :: rs) { σ with heap := heapSetAll σ.heap cell bs } s st (base + (relTargets ts).length)
-  | [], [], bs, hb, ctx, C, base, s, st, σ, cell, rs, hAt, hpc, hst, hrel => by
-    simp [bindTargets] at hb; subst hb
-    exact ⟨s, Reach.refl _, by simp [relTargets, hpc], by simpa using hst, by simpa [heapSetAll] using hrel, rfl, rfl, rfl⟩
-  | [], _ :: _, bs, hb, _, _, _, _, _, _, _, _, _, _, _, _ => by simp [bindTargets] at hb
-  | _ :: _, [], bs, hb, _, _, _, _, _, _, _, _, _, _, _, _ => by simp [bindTargets] at hb
-  | t :: ts, v :: vs, bs, hb, ctx, C, base, s, st, σ, cell, rs, hAt, hpc, hst, hrel => by
-    simp only [bindTargets] at hb
-    split at hb
-    · rename_i b1 hb1
-      split at hb
-      · rename_i b2 hb2
-        simp at hb; subst hb
-        simp only [relTargets] at hAt ⊢
-        obtain ⟨s1, r1, hpc1, hst1, hrel1, hout1, htl1, hhd1⟩ :=
-          sim_target t v b1 hb1 ctx C base s (vs ++ st) σ cell rs hAt.left hpc (by simpa using hst) hrel
-        obtain ⟨s2, r2, hpc2, hst2, hrel2, hout2, htl2, hhd2⟩ :=
-          sim_targets ts vs b2 hb2 ctx C (base + (relTarget t).length) s1 st _ cell rs hAt.right hpc1 hst1 hrel1
-        refine ⟨s2, r1.trans r2, by simp [hpc2, Nat.add_assoc], hst2, ?_, hout2.trans hout1, htl2.trans htl1, hhd2.trans hhd1⟩
-        simpa [heapSetAll_append] using hrel2
-      · simp at hb
-    · simp at hb
-end
-
-
-
-/-! ## `break` / `continue`: what a statement that leaves the loop body early achieves -/
-
-def nWith : List ScopeKind → Nat
-  | [] => 0
-  | .with_ :: r => nWith r + 1
-  | .capture :: r => nWith r
-
-def nCap : List ScopeKind → Nat
-  | [] => 0
-  | .with_ :: r => nCap r
-  | .capture :: r => nCap r + 1
-
-/-- the VM jumped to `tgt` after leaving the scopes `sc` (opened inside the loop body): their
-frames and capture buffers are gone, the operand stack is as before -/
-def Unw (ctx : Scope) (C : List Instr) (σ' : State) (s : VmState) (tgt : Nat) (sc : List ScopeKind) : Prop :=
-  ∃ s', Reach ctx C s s' ∧ s'.pc = tgt ∧ s'.stack = s.stack ∧
-    s'.frames.tail = (s.frames.drop (nWith sc)).tail ∧
-    s'.frames.head?.map (·.loop) = (s.frames.drop (nWith sc)).head?.map (·.loop) ∧
-    s'.outs = (σ'.out :: s.outs.tail).drop (nCap sc)
-
-def jumpTarget : Flow → LoopCtx → Nat
-  | .brk, l => l.exit
-  | _, l => l.iter
-
-/-- the postcondition of a statement: it ends normally behind its code (`Done`), or it jumps to the
-`Iterate` / behind the innermost loop -/
-def Post (ctx : Scope) (C : List Instr) (stack : List Nat) (σ' : State) (fl : Flow) (s : VmState) (endPc : Nat)
-    (lc : Option LoopCtx) : Prop :=
-  if fl = .normal then Done ctx C stack σ' s endPc
-  else ∃ l, lc = some l ∧ Unw ctx C σ' s (jumpTarget fl l) l.scopes
-
-theorem drop_frames_eq {fs1 fs : List Frame} (ht : fs1.tail = fs.tail)
-    (hh : fs1.head?.map (·.loop) = fs.head?.map (·.loop)) (k : Nat) :
-    (fs1.drop k).tail = (fs.drop k).tail ∧ (fs1.drop k).head?.map (·.loop) = (fs.drop k).head?.map (·.loop) := by
-  cases k with
-  | zero => exact ⟨ht, hh⟩
-  | succ k =>
-    have e1 : fs1.drop (k + 1) = fs1.tail.drop k := by cases fs1 <;> simp
-    have e2 : fs.drop (k + 1) = fs.tail.drop k := by cases fs <;> simp
-    rw [e1, e2, ht]; exact ⟨rfl, rfl⟩
-
-/-- prefix a run that keeps operand stack, frame structure and the outer capture buffers -/
-theorem Unw.prefix {ctx C σ' s s1 tgt sc} (r : Reach ctx C s s1) (hst : s1.stack = s.stack)
-    (ht : s1.frames.tail = s.frames.tail) (hh : s1.frames.head?.map (·.loop) = s.frames.head?.map (·.loop))
-    (ho : s1.outs.tail = s.outs.tail) (h : Unw ctx C σ' s1 tgt sc) : Unw ctx C σ' s tgt sc := by
-  obtain ⟨s', r', hpc, hst', htl, hhd, hout⟩ := h
-  have := drop_frames_eq ht hh (nWith sc)
-  exact ⟨s', r.trans r', hpc, hst'.trans hst, htl.trans this.1, hhd.trans this.2, by rw [hout, ho]⟩
-
-def SimStmt (n : Nat) : Prop :=
-  ∀ st ctx stack σ σ' fl, exec n ctx stack σ st = .ok (σ', fl) →
-    ∀ lc, simpleStmt lc.isSome st = true →
-    ∀ C base a s, At C base (relStmt st base a lc).1.1 → (relStmt st base a lc).1.2.oof = false → s.pc = base →
-      Rel σ stack s → (∀ l, lc = some l → nCap l.scopes < s.outs.length) →
-      Post ctx C stack σ' fl s (base + (relStmt st base a lc).1.1.length) lc
-
-def SimBlock (n : Nat) : Prop :=
-  ∀ ss ctx stack σ σ' fl, execBlock n ctx stack σ ss = .ok (σ', fl) →
-    ∀ lc, simpleBlock lc.isSome ss = true →
-    ∀ C base a s, At C base (relBlock ss base a lc).1.1 → (relBlock ss base a lc).1.2.oof = false → s.pc = base →
-      Rel σ stack s → (∀ l, lc = some l → nCap l.scopes < s.outs.length) →
-      Post ctx C stack σ' fl s (base + (relBlock ss base a lc).1.1.length) lc
-
-def SimBinds (n : Nat) : Prop :=
-  ∀ binds ctx stack heap heap' out, bindWith n ctx heap stack binds = .ok heap' → simpleBinds binds = true →
-    ∀ C base a s, At C base (relBinds binds base a).1 → (relBinds binds base a).2.oof = false → s.pc = base →
-      Rel { heap := heap, out := out } stack s →
-      Done ctx C stack { heap := heap', out := out } s (base + (relBinds binds base a).1.length)
-
-theorem Done.refl {ctx C stack σ s} (h : Rel σ stack s) : Done ctx C stack σ s s.pc :=
-  ⟨s, Reach.refl _, rfl, rfl, h, rfl, rfl, rfl⟩
-
-/-- evaluate `e`, then assign to the target: `set t = e` and one `with` binding -/
-theorem sim_assign {n ctx cell rs σ e v t bs} (hv : evalExpr n ctx σ.heap (cell :: rs) e = .ok v)
-    (hb : bindTarget t v = .ok bs) (hse : simpleExpr e = true) {C base a s}
-    (hAt : At C base ((relExpr e base a).1 ++ relTarget t)) (hoof : (relExpr e base a).2.oof = false)
-    (hpc : s.pc = base) (hrel : Rel σ (cell :: rs) s) :
-    Done ctx C (cell :: rs) { σ with heap := heapSetAll σ.heap cell bs } s
-      (base + (relExpr e base a).1.length + (relTarget t).length) := by
-  have r1 := relExpr_correct hv hse hAt.left hoof hpc hrel.env
-  obtain ⟨s2, r2, hpc2, hst2, hrel2, hout2, htl2, hhd2⟩ :=
-    sim_target t v bs hb ctx C (base + (relExpr e base a).1.length)
-      { s with pc := base + (relExpr e base a).1.length, stack := v :: s.stack } s.stack σ cell rs
-      hAt.right rfl rfl (hrel.same _ rfl rfl)
-  exact ⟨s2, r1.trans r2, hpc2, hst2, hrel2, by rw [hout2], htl2, hhd2⟩
-
-theorem sim_binds_step {n} (ihW : SimBinds n) : SimBinds (n + 1) := by
-  intro binds ctx stack heap heap' out hev hs C base a s hAt hoof hpc hrel
+theorem sim_binds_step {n} (ihE : SimExpr n) (ihW : SimBinds n) : SimBinds (n + 1) := by
+  intro X binds G heap loc heap' out hev A hs hA hne base a s hAt hoof hpc hrel
   cases binds with
   | nil =>
     simp [bindWith] at hev; subst hev
@@ -409,38 +508,45 @@ theorem sim_binds_step {n} (ihW : SimBinds n) : SimBinds (n + 1) := by
     rw [← hpc]; exact Done.refl hrel
   | cons b rest =>
     obtain ⟨t, e⟩ := b
-    have hs' : simpleExpr e = true ∧ simpleBinds rest = true := by simpa [simpleBinds] using hs
-    obtain ⟨cell, rs, hstack⟩ := hrel.nonempty
-    subst hstack
-    simp only [bindWith, topCell] at hev
-    split at hev
-    · simp at hev
-    · rename_i v hv
+    have hs' : (targetOk X.K.M t = true ∧ wfExpr X.K.M X.P A e = true) ∧ wfBinds X.K.M X.P (A ++ targetNames t) rest = true := by
+      simpa [wfBinds] using hs
+    cases loc with
+    | nil => exact absurd rfl hne
+    | cons cell rs =>
+      simp only [bindWith, List.cons_append, topCell] at hev
       split at hev
       · simp at hev
-      · rename_i bs hbs
-        simp only [relBinds] at hAt hoof ⊢
-        have ho1 := oof_false_of_relBinds hoof
-        obtain ⟨s1, r1, hpc1, hst1, hrel1, hout1, htl1, hhd1⟩ :=
-          sim_assign (σ := { heap := heap, out := out }) hv hbs hs'.1 hAt.left ho1 hpc hrel
-        obtain ⟨s2, r2, hpc2, hst2, hrel2, hout2, htl2, hhd2⟩ :=
-          ihW rest ctx (cell :: rs) _ heap' out hev hs'.2 C
-            (base + (relExpr e base a).1.length + (relTarget t).length) (relExpr e base a).2 s1
-            (At.cast hAt.right (by simp [Nat.add_assoc])) hoof hpc1 hrel1
-        exact ⟨s2, r1.trans r2,
-          by rw [hpc2]; simp only [List.length_append]; omega, hst2.trans hst1, hrel2,
-          hout2.trans hout1, htl2.trans htl1, hhd2.trans hhd1⟩
+      · rename_i v hv
+        split at hev
+        · simp at hev
+        · rename_i bs hbs
+          simp only [relBinds] at hAt hoof ⊢
+          have ho1 := oof_false_of_relBinds hoof
+          obtain ⟨s1, G1, r1, hpc1, hst1, hrel1, hout1, htl1, hhd1, hcp1, hhc1⟩ :=
+            sim_assign ihE (X := X) (G := G) (σ := { heap := heap, out := out }) (A := A) hv hbs hs'.1.2 hs'.1.1 hA hAt.left ho1 hpc hrel
+          have hT : cell < heap.length := hrel.bound0
+          have hA1 : ABound (heapSetAll heap cell bs) (cell :: rs) (A ++ targetNames t) :=
+            (hA.mono (HeapLe.heapSetAll _ _ _)).append (ABound.of_cell (fun x hx =>
+              heapSetAll_bound bs heap cell hT x (by rw [bindTarget_names t v bs hbs]; exact hx)))
+          obtain ⟨s2, G2, r2, hpc2, hst2, hrel2, hout2, htl2, hhd2, hcp2, hhc2⟩ :=
+            ihW X rest G1 _ (cell :: rs) heap' out hev (A ++ targetNames t) hs'.2 hA1 (by simp)
+              (base + (relExpr e base a).1.length + (relTarget t).length) (relExpr e base a).2 s1
+              (At.cast hAt.right (by simp [Nat.add_assoc])) hoof hpc1 hrel1
+          exact ⟨s2, G2, r1.trans r2,
+            by rw [hpc2]; simp only [List.length_append]; omega, hst2.trans hst1, hrel2,
+            hout2.trans hout1, htl2.trans htl1, hhd2.trans hhd1, hcp1.trans hhc1 hcp2, hhc1.trans hcp1.1 hhc2⟩
 
-theorem outs_length_of_tail {s1 s : VmState} {σ1 σ : State} {st1 st : List Nat} (h1 : Rel σ1 st1 s1) (h : Rel σ st s)
+theorem outs_length_of_tail {K G1 G P clo clo1 P1 env env1} {s1 s : VmState} {σ1 σ : State} {st1 st : List Nat}
+    (h1 : Rel K G1 P1 clo1 σ1 st1 env1 s1) (h : Rel K G P clo σ st env s)
     (ht : s1.outs.tail = s.outs.tail) : s1.outs.length = s.outs.length := by
-  obtain ⟨r1, e1⟩ := h1.out
-  obtain ⟨r, e⟩ := h.out
+  obtain ⟨r1, e1⟩ := h1.2
+  obtain ⟨r, e⟩ := h.2
   rw [e1, e] at ht
   simp at ht
   rw [e1, e, ht]; rfl
 
 theorem sim_block_step {n} (ihS : SimStmt n) (ihB : SimBlock n) : SimBlock (n + 1) := by
-  intro ss ctx stack σ σ' fl hev lc hs C base a s hAt hoof hpc hrel hcap
+  intro X ss G σ loc σ' fl hev A lc hs hA hne base a s hAt hoof hpc hrel hcap
   cases ss with
   | nil =>
     simp [execBlock] at hev
@@ -448,60 +554,66 @@ theorem sim_block_step {n} (ihS : SimStmt n) (ihB : SimBlock n) : SimBlock (n + 
     simp only [Post, if_true, relBlock, List.length_nil, Nat.add_zero]
     rw [← hpc]; exact Done.refl hrel
   | cons st rest =>
-    have hs' : simpleStmt lc.isSome st = true ∧ simpleBlock lc.isSome rest = true := by simpa [simpleBlock] using hs
+    have hs' : wfStmt X.K.M X.P A lc.isSome st = true ∧ wfBlock X.K.M X.P (A ++ assignedBy st) lc.isSome rest = true := by
+      simpa [wfBlock] using hs
     simp only [relBlock] at hAt hoof ⊢
     have ho1 := oof_false_of_relBlock hoof
     simp only [execBlock] at hev
     split at hev
     · simp at hev
     · rename_i σ1 h1
-      have p1 := ihS st ctx stack σ σ1 .normal h1 lc hs'.1 C base a s hAt.left ho1 hpc hrel hcap
+      have p1 := ihS X st G σ loc σ1 .normal h1 A lc hs'.1 hA hne base a s hAt.left ho1 hpc hrel hcap
       simp only [Post, if_true] at p1
-      obtain ⟨s1, r1, hpc1, hst1, hrel1, hout1, htl1, hhd1⟩ := p1
+      obtain ⟨s1, G1, r1, hpc1, hst1, hrel1, hout1, htl1, hhd1, hcp1, hhc1⟩ := p1
       have hlen1 := outs_length_of_tail hrel1 hrel hout1
-      have p2 := ihB rest ctx stack σ1 σ' fl hev lc hs'.2 C (base + (relStmt st base a lc).1.1.length)
+      have hA1 : ABound σ1.heap loc (A ++ assignedBy st) := by
+        cases loc with
+        | nil => exact absurd rfl hne
+        | cons T r =>
+          exact (hA.mono (exec_keys h1)).append (ABound.of_cell (exec_assigned_bound h1 hrel.bound0))
+      have p2 := ihB X rest G1 σ1 loc σ' fl hev (A ++ assignedBy st) lc hs'.2 hA1 hne (base + (relStmt st base a lc).1.1.length)
           (relStmt st base a lc).1.2 s1 hAt.right hoof hpc1 hrel1 (by intro l hl; rw [hlen1]; exact hcap l hl)
       by_cases hfl : fl = .normal
       · subst hfl
         simp only [Post, if_true] at p2 ⊢
-        obtain ⟨s2, r2, hpc2, hst2, hrel2, hout2, htl2, hhd2⟩ := p2
-        exact ⟨s2, r1.trans r2, by rw [hpc2]; simp [Nat.add_assoc], hst2.trans hst1, hrel2,
-          hout2.trans hout1, htl2.trans htl1, hhd2.trans hhd1⟩
+        obtain ⟨s2, G2, r2, hpc2, hst2, hrel2, hout2, htl2, hhd2, hcp2, hhc2⟩ := p2
+        exact ⟨s2, G2, r1.trans r2, by rw [hpc2]; simp [Nat.add_assoc], hst2.trans hst1, hrel2,
+          hout2.trans hout1, htl2.trans htl1, hhd2.trans hhd1, hcp1.trans hhc1 hcp2, hhc1.trans hcp1.1 hhc2⟩
       · simp only [Post, hfl, if_false] at p2 ⊢
         obtain ⟨l, hl, hu⟩ := p2
-        exact ⟨l, hl, hu.prefix r1 hst1 htl1 hhd1 hout1⟩
-    · rename_i σ1 fl1 hne h1
+        exact ⟨l, hl, hu.prefix r1 hst1 htl1 hhd1 hout1 hcp1 hhc1⟩
+    · rename_i σ1 fl1 hne' h1
       simp at hev
       obtain ⟨rfl, rfl⟩ := hev
-      have p1 := ihS st ctx stack σ σ1 fl1 h1 lc hs'.1 C base a s hAt.left ho1 hpc hrel hcap
-      have hfl : ¬ fl1 = .normal := fun h => hne (by rw [h])
+      have p1 := ihS X st G σ loc σ1 fl1 h1 A lc hs'.1 hA hne base a s hAt.left ho1 hpc hrel hcap
+      have hfl : ¬ fl1 = .normal := fun h => hne' (by rw [h])
       simp only [Post, hfl, if_false] at p1 ⊢
       exact p1
 
-theorem Rel.appendOut {σ stack s} (h : Rel σ stack s) (t : String) (s' : VmState)
-    (hf : s'.frames = s.frames) (ho : s'.outs = MJ.Vm.appendOut t s.outs) :
-    Rel { σ with out := σ.out ++ t } stack s' ∧ s'.outs.tail = s.outs.tail := by
-  obtain ⟨rest, hr⟩ := h.out
-  refine ⟨⟨by rw [hf]; exact h.frames, ⟨rest, by rw [ho, hr]; rfl⟩, h.bound, h.nodup, h.nonempty⟩, ?_⟩
+theorem Rel.appendOut {K G P clo σ loc env s} (h : Rel K G P clo σ loc env s) (t : String) (s' : VmState)
+    (hf : s'.frames = s.frames) (hc : s'.closures = s.closures) (ho : s'.outs = MJ.Vm.appendOut t s.outs) :
+    Rel K G P clo { σ with out := σ.out ++ t } loc env s' ∧ s'.outs.tail = s.outs.tail := by
+  obtain ⟨rest, hr⟩ := h.2
+  refine ⟨⟨h.1.same s' hf hc, ⟨rest, by rw [ho, hr]; rfl⟩⟩, ?_⟩
   rw [ho, hr]; rfl
 
 /-- a chain of block filters applied to the value on top of the operand stack -/
 def SimFilters (n : Nat) : Prop :=
-  ∀ fs ctx heap stack v v', applyFilters n ctx heap stack v fs = .ok v' → simpleFilters fs = true →
-    ∀ C base a (s : VmState) (st : List Val), At C base (relFilters fs base a).1 → (relFilters fs base a).2.oof = false →
-      s.pc = base → s.stack = v :: st → EnvRel ctx heap stack s.frames →
-      Reach ctx C s { s with pc := base + (relFilters fs base a).1.length, stack := v' :: st }
+  ∀ (E : ECtx) fs v v', applyFilters n E.K.ctx E.heap (E.loc ++ E.env) v fs = .ok v' → wfFilters E.K.M E.P E.A fs = true →
+    ∀ base a (s : VmState) (st : List Val), At E.K.C base (relFilters fs base a).1 → (relFilters fs base a).2.oof = false →
+      s.pc = base → s.stack = v :: st → E.ok s →
+      Pushed E s (base + (relFilters fs base a).1.length) (v' :: st)
 
-theorem sim_filters_step {n} (ihF : SimFilters n) : SimFilters (n + 1) := by
-  intro fs ctx heap stack v v' hev hs C base a s st hAt hoof hpc hst henv
+theorem sim_filters_step {n} (ihA : SimArgs n) (ihF : SimFilters n) : SimFilters (n + 1) := by
+  intro E fs v v' hev hs base a s st hAt hoof hpc hst hok
   cases fs with
   | nil =>
     simp [applyFilters] at hev; subst hev
     simp only [relFilters, List.length_nil, Nat.add_zero]
-    exact (Reach.refl s).cast rfl (by cases s; simp_all)
+    exact (Pushed.refl E s).cast hpc hst
   | cons f rest =>
     obtain ⟨name, args⟩ := f
-    have hs' : simpleArgs args = true ∧ simpleFilters rest = true := by simpa [simpleFilters] using hs
+    have hs' : wfArgs E.K.M E.P E.A args = true ∧ wfFilters E.K.M E.P E.A rest = true := by simpa [wfFilters] using hs
     simp only [applyFilters, bind, Except.bind] at hev
     split at hev
     · simp at hev
@@ -516,54 +628,53 @@ theorem sim_filters_step {n} (ihF : SimFilters n) : SimFilters (n + 1) := by
         simp only [relFilters] at hAt hoof ⊢
         have hoA : (relArgs args base a).2.oof = false := by
           have := oof_false_of_relFilters hoof; simpa using this
-        have r1 := (sim_all n).2.2.1 args ctx heap stack as has hs'.1 C base a s hAt.left.left hoA hpc henv
+        have r1 := ihA E args as has hs'.1 base a s hAt.left.left hoA hpc hok
         have hlen : 1 + args.length = (v :: as.map (·.2)).length := by
           simp [evalArgs_length args as has]; omega
         have hpop : popN (1 + args.length) ((as.map (·.2)).reverse ++ v :: st) = some (v :: as.map (·.2), st) := by
           rw [hlen]
           have := popN_append (v :: as.map (·.2)) st
           simpa using this
-        have r2 : Reach ctx C { s with pc := base + (relArgs args base a).1.length, stack := (as.map (·.2)).reverse ++ s.stack }
-            { s with pc := base + (relArgs args base a).1.length + 1, stack := v1 :: st } :=
-          Reach.one' (i := .applyFilter _ _ _) _ hAt.left.right.head rfl
-            (by simp [MJ.Vm.step, hst, hpop, hv1, Except.map])
-        have r3 := ihF rest ctx heap stack v1 v' hev hs'.2 C (base + (relArgs args base a).1.length + 1)
+        have r2 := r1.step (i := .applyFilter _ _ _) (p2 := base + (relArgs args base a).1.length + 1) (st2 := v1 :: st)
+          hAt.left.right.head (fun cls1 => by simp [MJ.Vm.step, hst, hpop, hv1, Except.map])
+        refine r2.trans (fun c2 x2 => ?_)
+        have r3 := ihF E rest v1 v' hev hs'.2 (base + (relArgs args base a).1.length + 1)
           ((relArgs args base a).2.filterId name).2
-          { s with pc := base + (relArgs args base a).1.length + 1, stack := v1 :: st } st
-          (At.cast hAt.right (by simp [Nat.add_assoc])) hoof rfl rfl henv
-        refine (r1.trans (r2.trans r3)).cast rfl ?_
+          { s with pc := base + (relArgs args base a).1.length + 1, stack := v1 :: st, closures := c2 } st
+          (At.cast hAt.right (by simp [Nat.add_assoc])) hoof rfl rfl (hok.next x2 _ _)
+        refine r3.cast ?_ rfl
         simp only [List.length_append, List.length_cons, List.length_nil]
-        congr 1; omega
+        omega
 
+theorem MacroRel_of_data {K G cls hl} {w : Val} (h : ∀ n p d b u e, w ≠ Val.macro n p d b u e) : MacroRel K G cls hl w w := by
+  cases w <;> first | trivial | exact absurd rfl (h _ _ _ _ _ _)
 
-/-- the iterations of a `for` loop: the VM is at the `Iterate` instruction -/
-def SimIters (n : Nat) : Prop :=
-  ∀ ctx stack σ σ' t body xs len idx prev,
-    execIters n ctx stack σ t body (xs.zip (loopInfosFrom len idx prev xs)) = .ok σ' →
-    simpleBlock true body = true →
-    ∀ C iterPc endPc a (s : VmState) (l : LoopSt) (loc : Scope) (fs : List Frame),
-      C[iterPc]? = some (.iterate endPc) → At C (iterPc + 1) (relTarget t) →
-      At C (iterPc + 1 + (relTarget t).length)
-        (relBlock body (iterPc + 1 + (relTarget t).length) a (some ⟨iterPc, endPc, []⟩)).1.1 →
-      (relBlock body (iterPc + 1 + (relTarget t).length) a (some ⟨iterPc, endPc, []⟩)).1.2.oof = false →
-      C[iterPc + 1 + (relTarget t).length +
-        (relBlock body (iterPc + 1 + (relTarget t).length) a (some ⟨iterPc, endPc, []⟩)).1.1.length]? = some (.jump iterPc) →
-      s.pc = iterPc → s.frames = { locals := loc, loop := some l } :: fs →
-      l.withLoopVar = true → l.len = len → l.calls = idx → l.cur = prev → l.rest = xs →
-      FramesRel σ.heap stack fs → (∃ rest, s.outs = σ.out :: rest) →
-      (∀ id ∈ stack, id < σ.heap.length) → stack.Nodup → (∃ c rs, stack = c :: rs) →
-      ∃ s', Reach ctx C s s' ∧ s'.pc = endPc ∧ s'.stack = s.stack ∧ s'.frames.tail = fs ∧
-        (∃ rest, s'.outs = σ'.out :: rest) ∧ s'.outs.tail = s.outs.tail ∧
-        (∃ lf locf, s'.frames.head? = some { locals := locf, loop := some lf } ∧
-          lf.iterated = (l.iterated || !xs.isEmpty))
+/-- equal data on both sides -/
+theorem OptAgree_same {K G cls hl x} {e : Option Val} (h : ∀ w, e = Option.some w → ∀ n p d b u env, w ≠ Val.macro n p d b u env) :
+    OptAgree K G cls hl x e e := by
+  unfold OptAgree
+  split
+  · exact ⟨rfl, fun w u hw hu => by rw [hw] at hu; cases hu; exact MacroRel_of_data (h w hw)⟩
+  · rfl
 
-theorem loop_cell0_agrees (l' : LoopSt) (info : LoopInfo) (hw : l'.withLoopVar = true) (hi : l'.info = info) :
-    ∀ z, assocGet z [("loop", loopVal info)] = frameLookup { locals := [], loop := some l' } z := by
+theorem loopVal_not_macro (info : LoopInfo) : ∀ n p d b u env, loopVal info ≠ .macro n p d b u env := by
+  intro n p d b u env h; simp [loopVal] at h
+
+/-- the cell of a fresh iteration against the loop frame after `Iterate` -/
+theorem loop_cell0_agrees (K : Cfg) (G : Ghost) (cls : List Scope) (hb : Nat) (f : Frame) (l' : LoopSt) (info : LoopInfo)
+    (hloc : f.locals = []) (hl : f.loop = some l') (hw : l'.withLoopVar = true) (hi : l'.info = info) :
+    ∀ z, OptAgree K G cls hb z (assocGet z [("loop", loopVal info)]) (frameLocal f z) := by
   intro z
-  by_cases hz : z = "loop"
-  · subst hz; simp [assocGet, frameLookup, hw, hi]
-  · have h1 : ¬ ("loop" = z) := fun h => hz h.symm
-    simp [assocGet, frameLookup, h1, hw, hz]
+  have : frameLocal f z = assocGet z [("loop", loopVal info)] := by
+    by_cases hz : z = "loop"
+    · subst hz; simp [assocGet, frameLocal, hloc, hl, hw, hi]
+    · have h1 : ¬ ("loop" = z) := fun h => hz h.symm
+      simp [assocGet, frameLocal, hloc, hl, h1, hw, hz]
+  rw [this]
+  refine OptAgree_same (fun w hw' => ?_)
+  by_cases hz : "loop" = z
+  · simp [assocGet, hz] at hw'; subst hw'; exact loopVal_not_macro info
+  · simp [assocGet, hz] at hw'
 
 theorem heapSetAll_last (h : Heap) (c : Scope) (bs : List (String × Val)) :
     heapSetAll (h ++ [c]) h.length bs = h ++ [setAll c bs] := by
@@ -576,15 +687,62 @@ theorem heapSetAll_last (h : Heap) (c : Scope) (bs : List (String × Val)) :
       simp [heapSet]
     rw [this, ih]
 
+theorem Rel.push {K G P clo σ loc env s} (h : Rel K G P clo σ loc env s) (hne : loc ≠ []) (cell : Scope) (f : Frame)
+    (hcl : f.closure = none) (hcc : f.closureCtx = none)
+    (hag : ∀ x, OptAgree K G s.closures (σ.heap.length + 1) x (assocGet x cell) (frameLocal f x))
+    (hpl : ∀ x v, x ∉ K.M → assocGet x cell = some v → plain v = true) (s' : VmState)
+    (hf : s'.frames = f :: s.frames) (hc : s'.closures = s.closures) (ho : s'.outs = s.outs) :
+    Rel K G P clo { σ with heap := σ.heap ++ [cell] } (σ.heap.length :: loc) env s' :=
+  ⟨h.1.push hne cell f hcl hcc hag hpl s' hf hc, by rw [ho]; exact h.2⟩
+
+/-- the bound names of `setAll` -/
+theorem setAll_bound : ∀ (bs : List (String × Val)) (c : Scope) (x : String),
+    ((assocGet x c).isSome = true ∨ x ∈ bs.map (·.1)) → (assocGet x (setAll c bs)).isSome = true
+  | [], c, x, h => by
+    rcases h with h | h
+    · exact h
+    · simp at h
+  | (y, v) :: rest, c, x, h => by
+    simp only [setAll]
+    refine setAll_bound rest _ x ?_
+    rcases h with h | h
+    · exact Or.inl (isSome_assocSet y x v c h)
+    · simp only [List.map_cons, List.mem_cons] at h
+      rcases h with rfl | h
+      · exact Or.inl (by simp [assocGet_assocSet_same])
+      · exact Or.inr h
+
+/-- the iterations of a `for` loop: the VM is at the `Iterate` instruction; `σ` / `G` describe the
+scopes *outside* the loop (the frames below the loop frame) -/
+def SimIters (n : Nat) : Prop :=
+  ∀ (X : SC) G σ loc σ' t body xs len idx prev,
+    execIters n X.K.ctx (loc ++ X.env) σ t body (xs.zip (loopInfosFrom len idx prev xs)) = .ok σ' →
+    ∀ A, wfBlock X.K.M X.P (A ++ targetNames t ++ ["loop"]) true body = true → targetOk X.K.M t = true →
+    ABound σ.heap loc A → loc ≠ [] → (∀ x, x ∈ xs → plain x = true) → (∀ v, prev = some v → plain v = true) →
+    ∀ iterPc endPc a (s : VmState) (l : LoopSt) (f0 : Frame) (fs : List Frame),
+      X.K.C[iterPc]? = some (.iterate endPc) → At X.K.C (iterPc + 1) (relTarget t) →
+      At X.K.C (iterPc + 1 + (relTarget t).length)
+        (relBlock body (iterPc + 1 + (relTarget t).length) a (some ⟨iterPc, endPc, []⟩)).1.1 →
+      (relBlock body (iterPc + 1 + (relTarget t).length) a (some ⟨iterPc, endPc, []⟩)).1.2.oof = false →
+      X.K.C[iterPc + 1 + (relTarget t).length +
+        (relBlock body (iterPc + 1 + (relTarget t).length) a (some ⟨iterPc, endPc, []⟩)).1.1.length]? = some (.jump iterPc) →
+      s.pc = iterPc → s.frames = f0 :: fs → f0.loop = some l → f0.closureCtx = none →
+      l.withLoopVar = true → l.len = len → l.calls = idx → l.cur = prev → l.rest = xs →
+      Rel X.K G X.P X.clo σ loc X.env { s with frames := fs } →
+      ∃ s', Reach X.K.ctx X.K.C s s' ∧ s'.pc = endPc ∧ s'.stack = s.stack ∧ s'.frames.tail = fs ∧
+        (∃ rest, s'.outs = σ'.out :: rest) ∧ s'.outs.tail = s.outs.tail ∧
+        (∃ lf f', s'.frames.head? = some f' ∧ f'.loop = some lf ∧
+          lf.iterated = (l.iterated || !xs.isEmpty)) ∧ Ext s.closures s'.closures
+
 theorem sim_iters_step {n} (ihB : SimBlock n) (ihI : SimIters n) : SimIters (n + 1) := by
-  intro ctx stack σ σ' t body xs len idx prev hev hsb C iterPc endPc a s l loc fs hIt hTg hAt hoof hJ
-    hpc hfr hwl hlen hcalls hcur hrest hFR hout hbound hnodup hne
+  intro X G σ loc σ' t body xs len idx prev hev A hsb hto hA hne hpx hpp iterPc endPc a s l f0 fs hIt hTg hAt hoof hJ
+    hpc hfr hl0 hcc0 hwl hlen hcalls hcur hrest hrel
   cases xs with
   | nil =>
     simp [loopInfosFrom, execIters] at hev; subst hev
     refine ⟨{ s with pc := endPc }, Reach.one (i := .iterate endPc) (by rw [hpc]; exact hIt) ?_, rfl, rfl,
-      by simp [hfr], hout, rfl, ⟨l, loc, by simp [hfr], by simp⟩⟩
-    simp [MJ.Vm.step, hfr, nextLoopItem, hrest]
+      by simp [hfr], hrel.2, rfl, ⟨l, f0, by simp [hfr], hl0, by simp⟩, Ext.refl _⟩
+    simp [MJ.Vm.step, hfr, nextLoopItem, hl0, hrest]
   | cons y ys =>
     simp only [loopInfosFrom, List.zip_cons_cons, execIters] at hev
     split at hev
@@ -595,59 +753,108 @@ theorem sim_iters_step {n} (ihB : SimBlock n) (ihI : SimIters n) : SimIters (n +
       · rename_i σ2 fl hbody
         let l' : LoopSt := { l with calls := l.calls + 1, iterated := true, prev := l.cur, cur := some y, rest := ys }
         let info : LoopInfo := { index0 := idx, length := len, prev := prev, next := ys.head? }
-        -- Iterate: the item is pushed, the frame's locals are cleared
-        let s1 : VmState := { s with pc := iterPc + 1, stack := y :: s.stack, frames := { locals := [], loop := some l' } :: fs }
-        have hreach1 : Reach ctx C s s1 :=
-          Reach.one (i := .iterate endPc) (by rw [hpc]; exact hIt) (by simp [MJ.Vm.step, hfr, nextLoopItem, hrest, hpc, s1, l'])
+        let f1 : Frame := { f0 with locals := [], loop := some l', closure := none }
+        -- Iterate: the item is pushed, the frame's locals are cleared, its closure is dropped
+        let s1 : VmState := { s with pc := iterPc + 1, stack := y :: s.stack, frames := f1 :: fs }
+        have hreach1 : Reach X.K.ctx X.K.C s s1 :=
+          Reach.one (i := .iterate endPc) (by rw [hpc]; exact hIt)
+            (by simp [MJ.Vm.step, hfr, nextLoopItem, hl0, hrest, hpc, s1, l', f1])
         have hinfo : l'.info = info := by simp [LoopSt.info, l', info, hcalls, hlen, hcur]
-        obtain ⟨c0, rs0, hstack⟩ := hne
-        have hrel0 : Rel σ stack { s with frames := fs } := ⟨hFR, hout, hbound, hnodup, ⟨c0, rs0, hstack⟩⟩
-        have hrel1 : Rel { σ with heap := σ.heap ++ [[("loop", loopVal info)]] } (σ.heap.length :: stack) s1 :=
-          hrel0.push _ { locals := [], loop := some l' } (loop_cell0_agrees l' info hwl hinfo) s1 rfl rfl
+        have hrel1 : Rel X.K G X.P X.clo { σ with heap := σ.heap ++ [[("loop", loopVal info)]] } (σ.heap.length :: loc) X.env s1 :=
+          hrel.push hne _ f1 rfl hcc0
+            (loop_cell0_agrees X.K G _ _ f1 l' info rfl rfl hwl hinfo)
+            (by intro z v _ hz
+                simp only [assocGet] at hz
+                split at hz
+                · cases hz
+                  exact loopVal_plain info hpp (fun v hv => hpx v (List.mem_cons_of_mem _ (List.mem_of_mem_head? hv)))
+                · cases hz) s1 rfl rfl rfl
         -- the target(s)
-        obtain ⟨s2, r2, hpc2, hst2, hrel2, hout2, htl2, hhd2⟩ :=
-          sim_target t y bs hbs ctx C (iterPc + 1) s1 s.stack _ σ.heap.length stack hTg rfl rfl hrel1
+        obtain ⟨s2, G2, r2, hpc2, hst2, hrel2, hout2, htl2, hhd2, hcp2, hhc2⟩ :=
+          sim_target X t y bs hbs hto (hpx y (by simp)) G (iterPc + 1) s1 s.stack _ σ.heap.length loc hTg rfl rfl hrel1
         have hheap2 : heapSetAll (σ.heap ++ [[("loop", loopVal info)]]) σ.heap.length bs =
             σ.heap ++ [setAll [("loop", loopVal info)] bs] := heapSetAll_last _ _ _
         simp only [hheap2] at hrel2
+        -- the names of the body's scope are bound
+        have hA2 : ABound (σ.heap ++ [setAll [("loop", loopVal info)] bs]) (σ.heap.length :: loc) (A ++ targetNames t ++ ["loop"]) := by
+          refine ((hA.push _ (fun id hid => hrel.1.bound id (by simp [hid]))).append ?_).append ?_
+          · refine ABound.of_cell (fun x hx => ⟨setAll [("loop", loopVal info)] bs, by simp, setAll_bound bs _ x (Or.inr ?_)⟩)
+            rw [bindTarget_names t y bs hbs]; exact hx
+          · refine ABound.of_cell (fun x hx => ⟨setAll [("loop", loopVal info)] bs, by simp, setAll_bound bs _ x (Or.inl ?_)⟩)
+            simp at hx; subst hx; simp [assocGet]
         -- the body
         have hcap2 : ∀ l0, (some ⟨iterPc, endPc, []⟩ : Option LoopCtx) = some l0 → nCap l0.scopes < s2.outs.length := by
-          intro l0 hl0
-          cases hl0
-          obtain ⟨r, hr⟩ := hrel2.out
+          intro l0 hl0'
+          cases hl0'
+          obtain ⟨r, hr⟩ := hrel2.2
           simp [nCap, hr]
-        have pb := ihB body ctx (σ.heap.length :: stack) _ σ2 fl hbody (some ⟨iterPc, endPc, []⟩) hsb C
-          (iterPc + 1 + (relTarget t).length) a s2 hAt hoof hpc2 hrel2 hcap2
+        have pb := ihB X body G2 _ (σ.heap.length :: loc) σ2 fl hbody (A ++ targetNames t ++ ["loop"])
+          (some ⟨iterPc, endPc, []⟩) hsb hA2 (by simp) (iterPc + 1 + (relTarget t).length) a s2 hAt hoof hpc2 hrel2 hcap2
         have htake : σ2.heap.take σ.heap.length = σ.heap := take_of_frame _ _ _ _ (execBlock_frame hbody)
         -- the state of the VM after the body: at the `Iterate` again, or behind the loop
-        have hafter : ∃ s3, Reach ctx C s2 s3 ∧ s3.pc = (if fl = .brk then endPc else iterPc) ∧ s3.stack = s2.stack ∧
-            s3.frames.tail = s2.frames.tail ∧ s3.frames.head?.map (·.loop) = s2.frames.head?.map (·.loop) ∧
-            s3.outs = σ2.out :: s2.outs.tail := by
+        have hafter : ∃ s3, Reach X.K.ctx X.K.C s2 s3 ∧ s3.pc = (if fl = .brk then endPc else iterPc) ∧ s3.stack = s2.stack ∧
+            s3.frames.tail = s2.frames.tail ∧ s3.frames.head?.map Frame.sig = s2.frames.head?.map Frame.sig ∧
+            s3.outs = σ2.out :: s2.outs.tail ∧ s2.closures.length ≤ s3.closures.length ∧
+            (∀ c, c < s2.closures.length → topClosure s2.frames ≠ some c → s3.closures[c]? = s2.closures[c]?) := by
           by_cases hfl : fl = .normal
           · subst hfl
             simp only [Post, if_true] at pb
-            obtain ⟨s3, r3, hpc3, hst3, hrel3, hout3, htl3, hhd3⟩ := pb
-            obtain ⟨r3out, hr3⟩ := hrel3.out
+            obtain ⟨s3, G3, r3, hpc3, hst3, hrel3, hout3, htl3, hhd3, hcp3, hhc3⟩ := pb
+            obtain ⟨r3out, hr3⟩ := hrel3.2
             refine ⟨{ s3 with pc := iterPc }, r3.trans (Reach.one' (i := .jump iterPc) _ hJ hpc3 (by simp [MJ.Vm.step])),
-              by simp, hst3, htl3, hhd3, ?_⟩
+              by simp, hst3, htl3, hhd3, ?_, hcp3.1, hcp3.2.2⟩
             simp only [← hout3, hr3]; rfl
           · simp only [Post, hfl, if_false] at pb
-            obtain ⟨l0, hl0, s3, r3, hpc3, hst3, htl3, hhd3, hout3⟩ := pb
-            cases hl0
-            refine ⟨s3, r3, ?_, hst3, by simpa [nWith] using htl3, by simpa [nWith] using hhd3, by simpa [nCap] using hout3⟩
-            rw [hpc3]
-            cases fl <;> simp [jumpTarget] at hfl ⊢
-        obtain ⟨s3, r3, hpc3, hst3, htl3, hhd3, hout3⟩ := hafter
-        have hf3 : ∃ loc3, s3.frames = { locals := loc3, loop := some l' } :: fs := by
+            obtain ⟨l0, hl0', s3, r3, hpc3, hst3, htl3, hhd3, hout3, hlen3, hun3⟩ := pb
+            cases hl0'
+            refine ⟨s3, r3, ?_, hst3, by simpa [nWith] using htl3, by simpa [nWith] using hhd3, by simpa [nCap] using hout3,
+              hlen3, fun c hc hne' => hun3 c hc ?_⟩
+            · rw [hpc3]
+              cases fl <;> simp [jumpTarget] at hfl ⊢
+            · intro f hf
+              simp only [nWith, Nat.zero_add] at hf
+              cases hs2 : s2.frames with
+              | nil => rw [hs2] at hf; simp at hf
+              | cons g rest =>
+                rw [hs2] at hf hne'
+                simp at hf; subst hf
+                simpa [topClosure] using hne'
+        obtain ⟨s3, r3, hpc3, hst3, htl3, hhd3, hout3, hlen3, hun3⟩ := hafter
+        -- the old closures are untouched: the loop frame owned none when the iteration started
+        have hx12 : Ext s.closures s2.closures := by
+          have : Ext s1.closures s2.closures := hcp2.ext_of_none (by simp [s1, topClosure, f1])
+          simpa [s1] using this
+        have htop2 : topClosure s2.frames = none ∨ ∃ c, topClosure s2.frames = some c ∧ s.closures.length ≤ c := by
+          rcases hhc2 with h | ⟨_, c, hc, hle⟩
+          · left; rw [h]; simp [s1, topClosure, f1]
+          · right; exact ⟨c, hc, by simpa [s1] using hle⟩
+        have hx13 : Ext s.closures s3.closures := by
+          obtain ⟨e12, he12⟩ := hx12
+          refine ⟨s3.closures.drop s.closures.length, ?_⟩
+          apply List.ext_getElem?
+          intro i
+          by_cases hi : i < s.closures.length
+          · rw [List.getElem?_append_left hi]
+            have hi2 : i < s2.closures.length := by rw [he12]; simp; omega
+            have hne2 : topClosure s2.frames ≠ some i := by
+              rcases htop2 with h | ⟨c, hc, hle⟩
+              · rw [h]; simp
+              · rw [hc]; intro e; cases e; omega
+            rw [hun3 i hi2 hne2, he12, List.getElem?_append_left hi]
+          · have hle : s.closures.length ≤ i := Nat.le_of_not_lt hi
+            rw [List.getElem?_append_right hle, List.getElem?_drop]
+            congr 1; omega
+        have hf3 : ∃ f3, s3.frames = f3 :: fs ∧ f3.loop = some l' ∧ f3.closureCtx = none := by
           have ht : s3.frames.tail = fs := by rw [htl3, htl2]; rfl
-          have hh : s3.frames.head?.map (·.loop) = some (some l') := by rw [hhd3, hhd2]; rfl
+          have hh : s3.frames.head?.map Frame.sig = some (some l', none) := by
+            rw [hhd3, hhd2]; simp [s1, f1, Frame.sig, hcc0]
           cases hf : s3.frames with
           | nil => rw [hf] at hh; simp at hh
           | cons f3 fs3 =>
             rw [hf] at ht hh
-            simp at ht hh
-            exact ⟨f3.locals, by cases f3; simp_all⟩
-        obtain ⟨loc3, hf3⟩ := hf3
+            simp [Frame.sig] at ht hh
+            exact ⟨f3, by rw [ht], hh.1, hh.2⟩
+        obtain ⟨f3, hf3, hl3, hcc3⟩ := hf3
         by_cases hbrk : fl = .brk
         · -- `break`: the walk ends here
           subst hbrk
@@ -655,19 +862,23 @@ theorem sim_iters_step {n} (ihB : SimBlock n) (ihI : SimIters n) : SimIters (n +
           simp at hev
           subst hev
           simp only [if_true] at hpc3
-          refine ⟨s3, hreach1.trans (r2.trans r3), hpc3, ?_, by rw [hf3]; rfl, ⟨_, hout3⟩, ?_, ⟨l', loc3, by rw [hf3]; rfl, by simp [l']⟩⟩
+          refine ⟨s3, hreach1.trans (r2.trans r3), hpc3, ?_, by rw [hf3]; rfl, ⟨_, hout3⟩, ?_,
+            ⟨l', f3, by rw [hf3]; rfl, hl3, by simp [l']⟩, hx13⟩
           · rw [hst3, hst2]
           · rw [hout3]; simp only [List.tail_cons]; rw [hout2]
-        · have hev' : execIters n ctx stack { heap := σ.heap, out := σ2.out } t body
+        · have hev' : execIters n X.K.ctx (loc ++ X.env) { heap := σ.heap, out := σ2.out } t body
               (ys.zip (loopInfosFrom len (idx + 1) (some y) ys)) = .ok σ' := by
             rw [← htake]
             cases fl <;> first | exact hev | exact absurd rfl hbrk
           simp only [hbrk, if_false] at hpc3
-          obtain ⟨s', r5, hpc5, hst5, htl5, hout5, houtt5, lf, locf, hlf, hit⟩ :=
-            ihI ctx stack { heap := σ.heap, out := σ2.out } σ' t body ys len (idx + 1) (some y) hev' hsb
-              C iterPc endPc a s3 l' loc3 fs hIt hTg hAt hoof hJ hpc3 hf3 hwl (by simp [l', hlen]) (by simp [l', hcalls])
-              (by simp [l']) (by simp [l']) hFR ⟨_, hout3⟩ hbound hnodup ⟨c0, rs0, hstack⟩
-          refine ⟨s', hreach1.trans (r2.trans (r3.trans r5)), hpc5, ?_, htl5, hout5, ?_, ⟨lf, locf, hlf, ?_⟩⟩
+          have hrel3 : Rel X.K G X.P X.clo { heap := σ.heap, out := σ2.out } loc X.env { s3 with frames := fs } :=
+            ⟨(hrel.1.ext { s3 with frames := fs } rfl _ hx13.choose_spec), ⟨_, hout3⟩⟩
+          obtain ⟨s', r5, hpc5, hst5, htl5, hout5, houtt5, ⟨lf, f', hlf, hlf', hit⟩, hx5⟩ :=
+            ihI X G { heap := σ.heap, out := σ2.out } loc σ' t body ys len (idx + 1) (some y) hev' A hsb hto hA hne
+              (fun x hx => hpx x (by simp [hx])) (fun v hv => by cases hv; exact hpx _ (by simp))
+              iterPc endPc a s3 l' f3 fs hIt hTg hAt hoof hJ hpc3 hf3 hl3 hcc3 hwl (by simp [l', hlen]) (by simp [l', hcalls])
+              (by simp [l']) (by simp [l']) hrel3
+          refine ⟨s', hreach1.trans (r2.trans (r3.trans r5)), hpc5, ?_, htl5, hout5, ?_, ⟨lf, f', hlf, hlf', ?_⟩, hx13.trans hx5⟩
           · rw [hst5, hst3, hst2]
           · rw [houtt5, hout3]; simp only [List.tail_cons]; rw [hout2]
           · simp [hit, l']
@@ -681,35 +892,61 @@ theorem chkInt_succ (k : Nat) (h : (k : Int) + 1 ≤ i128Max) : chkInt ((k : Int
     omega
   simp [chkInt, h1, h]
 
+theorem setAll_nil_bound (bs : List (String × Val)) (x : String) (hx : x ∈ bs.map (·.1)) :
+    (assocGet x (setAll [] bs)).isSome = true := setAll_bound bs [] x (Or.inr hx)
+
 /-- the filter pre-pass of `for … if cond`: the VM is at the `Iterate` of the first loop, the
 operand stack holds the number of the items kept so far on top of these items -/
-theorem sim_filter_iters : ∀ (xs : List Val) (n : Nat) (ctx : Scope) (σ : State) (stack : List Nat) (t : Target)
-    (c : Expr) (kept : List Val),
-    filterItems n ctx σ.heap stack t c xs = .ok kept → simpleExpr c = true →
-    ∀ (C : List Instr) (iterPc cb p : Nat) (a : Aux) (s : VmState) (l : LoopSt) (loc : Scope) (fs : List Frame)
+theorem filterItems_sub : ∀ (n : Nat) (ctx : Scope) (heap : Heap) (st : List Nat) (t : Target) (c : Expr) (xs kept : List Val),
+    filterItems n ctx heap st t c xs = .ok kept → ∀ x, x ∈ kept → x ∈ xs
+  | 0, _, _, _, _, _, _, _, h => by simp [filterItems] at h
+  | _ + 1, _, _, _, _, _, [], kept, h => by simp [filterItems] at h; subst h; simp
+  | n + 1, ctx, heap, st, t, c, y :: ys, kept, h => by
+    simp only [filterItems] at h
+    split at h
+    · cases h
+    · split at h
+      · cases h
+      · split at h
+        · cases h
+        · rename_i rest hrest
+          cases h
+          intro x hx
+          have ih := filterItems_sub n ctx heap st t c ys rest hrest
+          split at hx
+          · rcases List.mem_cons.1 hx with rfl | hx
+            · simp
+            · exact List.mem_cons_of_mem _ (ih x hx)
+          · exact List.mem_cons_of_mem _ (ih x hx)
+
+theorem sim_filter_iters (X : SC) : ∀ (xs : List Val) (n : Nat), (∀ m, m < n → SimExpr m) →
+    ∀ (G : Ghost) (σ : State) (loc : List Nat) (t : Target) (c : Expr) (kept : List Val) (A : List String),
+    filterItems n X.K.ctx σ.heap (loc ++ X.env) t c xs = .ok kept → wfExpr X.K.M X.P (A ++ targetNames t) c = true →
+    targetOk X.K.M t = true → ABound σ.heap loc A → loc ≠ [] → (∀ x, x ∈ xs → plain x = true) →
+    ∀ (iterPc cb p : Nat) (a : Aux) (s : VmState) (l : LoopSt) (f0 : Frame) (fs : List Frame)
       (acc st : List Val),
       cb = iterPc + 2 + (relTarget t).length → p = cb + (relExpr c cb a).1.length →
-      C[iterPc]? = some (.iterate (p + 7)) → C[iterPc + 1]? = some .dupTop → At C (iterPc + 2) (relTarget t) →
-      At C cb (relExpr c cb a).1 → (relExpr c cb a).2.oof = false →
-      At C p [.jumpIfFalse (p + 5), .swap, .loadConst (.int 1), .add, .jump (p + 6), .discardTop, .jump iterPc] →
-      s.pc = iterPc → s.frames = { locals := loc, loop := some l } :: fs → l.withLoopVar = false → l.rest = xs →
+      X.K.C[iterPc]? = some (.iterate (p + 7)) → X.K.C[iterPc + 1]? = some .dupTop → At X.K.C (iterPc + 2) (relTarget t) →
+      At X.K.C cb (relExpr c cb a).1 → (relExpr c cb a).2.oof = false →
+      At X.K.C p [.jumpIfFalse (p + 5), .swap, .loadConst (.int 1), .add, .jump (p + 6), .discardTop, .jump iterPc] →
+      s.pc = iterPc → s.frames = f0 :: fs → f0.loop = some l → f0.closureCtx = none →
+      l.withLoopVar = false → l.rest = xs →
       s.stack = .int acc.length :: (acc.reverse ++ st) → ((acc ++ kept).length : Int) ≤ i128Max →
-      FramesRel σ.heap stack fs → (∃ rest, s.outs = σ.out :: rest) →
-      (∀ id ∈ stack, id < σ.heap.length) → stack.Nodup → (∃ c rs, stack = c :: rs) →
-      ∃ s', Reach ctx C s s' ∧ s'.pc = p + 7 ∧
+      Rel X.K G X.P X.clo σ loc X.env { s with frames := fs } →
+      ∃ s', Reach X.K.ctx X.K.C s s' ∧ s'.pc = p + 7 ∧
         s'.stack = .int (acc ++ kept).length :: ((acc ++ kept).reverse ++ st) ∧ s'.frames.tail = fs ∧
-        s'.outs = s.outs
-  | [], n, ctx, σ, stack, t, c, kept, hev, hsc, C, iterPc, cb, p, a, s, l, loc, fs, acc, st, hcb, hp, hIt, hDup, hTg, hAtc,
-      hoofc, hAtP, hpc, hfr, hwl, hrest, hstk, h128, hFR, hout, hbound, hnodup, hne => by
+        s'.outs = s.outs ∧ Ext s.closures s'.closures
+  | [], n, hE, G, σ, loc, t, c, kept, A, hev, hsc, hto, hA, hne, _, iterPc, cb, p, a, s, l, f0, fs, acc, st, hcb, hp, hIt, hDup, hTg, hAtc,
+      hoofc, hAtP, hpc, hfr, hl0, hcc0, hwl, hrest, hstk, h128, hrel => by
     cases n with
     | zero => simp [filterItems] at hev
     | succ m =>
       simp [filterItems] at hev; subst hev
       refine ⟨{ s with pc := p + 7 }, Reach.one (i := .iterate (p + 7)) (by rw [hpc]; exact hIt) ?_, rfl,
-        by simpa using hstk, by simp [hfr], rfl⟩
-      simp [MJ.Vm.step, hfr, nextLoopItem, hrest]
-  | x :: xs, n, ctx, σ, stack, t, c, kept, hev, hsc, C, iterPc, cb, p, a, s, l, loc, fs, acc, st, hcb, hp, hIt, hDup, hTg, hAtc,
-      hoofc, hAtP, hpc, hfr, hwl, hrest, hstk, h128, hFR, hout, hbound, hnodup, hne => by
+        by simpa using hstk, by simp [hfr], rfl, Ext.refl _⟩
+      simp [MJ.Vm.step, hfr, nextLoopItem, hl0, hrest]
+  | x :: xs, n, hE, G, σ, loc, t, c, kept, A, hev, hsc, hto, hA, hne, hpx, iterPc, cb, p, a, s, l, f0, fs, acc, st, hcb, hp, hIt, hDup, hTg, hAtc,
+      hoofc, hAtP, hpc, hfr, hl0, hcc0, hwl, hrest, hstk, h128, hrel => by
     cases n with
     | zero => simp [filterItems] at hev
     | succ m =>
@@ -725,36 +962,58 @@ theorem sim_filter_iters : ∀ (xs : List Val) (n : Nat) (ctx : Scope) (σ : Sta
           · rename_i rest hrec
             simp at hev
             let l' : LoopSt := { l with calls := l.calls + 1, iterated := true, prev := l.cur, cur := some x, rest := xs }
-            let s1 : VmState := { s with pc := iterPc + 1, stack := x :: s.stack, frames := { locals := [], loop := some l' } :: fs }
-            have hreach1 : Reach ctx C s s1 :=
+            let f1 : Frame := { f0 with locals := [], loop := some l', closure := none }
+            let s1 : VmState := { s with pc := iterPc + 1, stack := x :: s.stack, frames := f1 :: fs }
+            have hreach1 : Reach X.K.ctx X.K.C s s1 :=
               Reach.one (i := .iterate (p + 7)) (by rw [hpc]; exact hIt)
-                (by simp [MJ.Vm.step, hfr, nextLoopItem, hrest, hpc, s1, l'])
+                (by simp [MJ.Vm.step, hfr, nextLoopItem, hl0, hrest, hpc, s1, l', f1])
             let s1' : VmState := { s1 with pc := iterPc + 2, stack := x :: x :: s.stack }
-            have hreach1' : Reach ctx C s1 s1' :=
+            have hreach1' : Reach X.K.ctx X.K.C s1 s1' :=
               Reach.one' (i := .dupTop) _ hDup rfl (by simp [MJ.Vm.step, s1, s1'])
-            obtain ⟨c0, rs0, hstack⟩ := hne
-            have hrel0 : Rel σ stack { s with frames := fs } := ⟨hFR, hout, hbound, hnodup, ⟨c0, rs0, hstack⟩⟩
-            have hrel1 : Rel { σ with heap := σ.heap ++ [[]] } (σ.heap.length :: stack) s1' :=
-              hrel0.push [] { locals := [], loop := some l' }
-                (by intro z; simp [assocGet, frameLookup, l', hwl]) s1' rfl rfl
-            obtain ⟨s2, r2, hpc2, hst2, hrel2, hout2, htl2, hhd2⟩ :=
-              sim_target t x bs hbs ctx C (iterPc + 2) s1' (x :: s.stack) _ σ.heap.length stack hTg rfl rfl hrel1
+            have hrel1 : Rel X.K G X.P X.clo { σ with heap := σ.heap ++ [[]] } (σ.heap.length :: loc) X.env s1' :=
+              hrel.push hne [] f1 rfl hcc0
+                (by intro z
+                    have : frameLocal f1 z = none := by simp [frameLocal, f1, l', hwl, assocGet]
+                    rw [this]; simp only [assocGet]; exact OptAgree.none _ _ _ _ _)
+                (by intro z v _ hz; simp [assocGet] at hz) s1' rfl rfl rfl
+            obtain ⟨s2, G2, r2, hpc2, hst2, hrel2, hout2, htl2, hhd2, hcp2, hhc2⟩ :=
+              sim_target X t x bs hbs hto (hpx x (by simp)) G (iterPc + 2) s1' (x :: s.stack) _ σ.heap.length loc hTg rfl rfl hrel1
             have hheap2 : heapSetAll (σ.heap ++ [[]]) σ.heap.length bs = σ.heap ++ [setAll [] bs] :=
               heapSetAll_last _ _ _
             simp only [hheap2] at hrel2
             have hpc2' : s2.pc = cb := by rw [hpc2, hcb]
-            have r3 := relExpr_correct hcv hsc hAtc hoofc hpc2' hrel2.env
-            have hf2 : ∃ loc2, s2.frames = { locals := loc2, loop := some l' } :: fs := by
+            have hA2 : ABound (σ.heap ++ [setAll [] bs]) (σ.heap.length :: loc) (A ++ targetNames t) := by
+              refine (hA.push _ (fun id hid => hrel.1.bound id (by simp [hid]))).append ?_
+              refine ABound.of_cell (fun y hy => ⟨setAll [] bs, by simp, setAll_nil_bound bs y ?_⟩)
+              rw [bindTarget_names t x bs hbs]; exact hy
+            -- the stores went into a frame without closure: the closures are as before
+            have hx12 : Ext s.closures s2.closures := by
+              have : Ext s1'.closures s2.closures := hcp2.ext_of_none (by simp [s1', s1, topClosure, f1])
+              simpa [s1', s1] using this
+            have hok2 : (X.ectx G2 (σ.heap ++ [setAll [] bs]) (σ.heap.length :: loc) (A ++ targetNames t)).ok s2 :=
+              hrel2.eok hA2 (by simp)
+            obtain ⟨c3, x3, r3⟩ := hE m (Nat.lt_succ_self m) (X.ectx G2 (σ.heap ++ [setAll [] bs]) (σ.heap.length :: loc) (A ++ targetNames t))
+              c cv hcv hsc cb a s2 hAtc hoofc hpc2' hok2
+            have hf2 : ∃ f2, s2.frames = f2 :: fs ∧ f2.loop = some l' ∧ f2.closureCtx = none := by
               have ht : s2.frames.tail = fs := by rw [htl2]; rfl
-              have hh : s2.frames.head?.map (·.loop) = some (some l') := by rw [hhd2]; rfl
+              have hh : s2.frames.head?.map Frame.sig = some (some l', none) := by
+                rw [hhd2]; simp [s1', s1, f1, Frame.sig, hcc0]
               cases hf : s2.frames with
               | nil => rw [hf] at hh; simp at hh
               | cons f3 fs3 =>
                 rw [hf] at ht hh
-                simp at ht hh
-                exact ⟨f3.locals, by cases f3; simp_all⟩
-            obtain ⟨loc2, hf2⟩ := hf2
+                simp [Frame.sig] at ht hh
+                exact ⟨f3, by rw [ht], hh.1, hh.2⟩
+            obtain ⟨f2, hf2, hl2, hcc2⟩ := hf2
             have hs2st : s2.stack = x :: .int acc.length :: (acc.reverse ++ st) := by rw [hst2, hstk]
+            have hx13 : Ext s.closures c3 := hx12.trans x3
+            -- the relation of the scopes outside the loop, for the next round
+            have hrelN : ∀ (pc' : Nat) (st' : List Val), Rel X.K G X.P X.clo σ loc X.env
+                { s2 with pc := pc', stack := st', closures := c3, frames := fs } := by
+              intro pc' st'
+              obtain ⟨e13, he13⟩ := hx13
+              exact ⟨hrel.1.ext _ rfl e13 he13, by
+                have := hrel.2; simpa [hout2, s1', s1] using this⟩
             by_cases htr : truthy cv = true
             · -- the item is kept
               simp only [htr, if_true] at hev
@@ -764,18 +1023,19 @@ theorem sim_filter_iters : ∀ (xs : List Val) (n : Nat) (ctx : Scope) (σ : Sta
                 have : ((acc ++ [x]).length : Int) ≤ ((acc ++ x :: rest).length : Int) := by
                   simp only [List.length_append, List.length_cons, List.length_nil]; omega
                 exact Int.le_trans this h128
-              let s4 : VmState := { s2 with pc := p + 1 }
-              have r4 : Reach ctx C { s2 with pc := cb + (relExpr c cb a).1.length, stack := cv :: s2.stack } s4 :=
-                Reach.one' (i := .jumpIfFalse (p + 5)) _ hAtP.head (by simp [hp])
-                  (by simp [MJ.Vm.step, htr, s4, hp])
-              let s5 : VmState := { s2 with pc := p + 2, stack := .int acc.length :: x :: (acc.reverse ++ st) }
-              have r5 : Reach ctx C s4 s5 :=
-                Reach.one' (i := .swap) _ hAtP.tail.head rfl (by simp [MJ.Vm.step, s4, s5, hs2st])
-              let s6 : VmState := { s2 with pc := p + 3, stack := .int 1 :: .int acc.length :: x :: (acc.reverse ++ st) }
-              have r6 : Reach ctx C s5 s6 :=
+              let s3 : VmState := { s2 with pc := cb + (relExpr c cb a).1.length, stack := cv :: s2.stack, closures := c3 }
+              let s4 : VmState := { s3 with pc := p + 1, stack := s2.stack }
+              have r4 : Reach X.K.ctx X.K.C s3 s4 :=
+                Reach.one' (i := .jumpIfFalse (p + 5)) _ hAtP.head (by simp [s3, hp])
+                  (by simp [MJ.Vm.step, htr, s4, s3, hp])
+              let s5 : VmState := { s3 with pc := p + 2, stack := .int acc.length :: x :: (acc.reverse ++ st) }
+              have r5 : Reach X.K.ctx X.K.C s4 s5 :=
+                Reach.one' (i := .swap) _ hAtP.tail.head rfl (by simp [MJ.Vm.step, s4, s5, s3, hs2st])
+              let s6 : VmState := { s3 with pc := p + 3, stack := .int 1 :: .int acc.length :: x :: (acc.reverse ++ st) }
+              have r6 : Reach X.K.ctx X.K.C s5 s6 :=
                 Reach.one' (i := .loadConst (.int 1)) _ hAtP.tail.tail.head rfl (by simp [MJ.Vm.step, s5, s6])
-              let s7 : VmState := { s2 with pc := p + 4, stack := .int (acc ++ [x]).length :: x :: (acc.reverse ++ st) }
-              have r7 : Reach ctx C s6 s7 :=
+              let s7 : VmState := { s3 with pc := p + 4, stack := .int (acc ++ [x]).length :: x :: (acc.reverse ++ st) }
+              have r7 : Reach X.K.ctx X.K.C s6 s7 :=
                 Reach.one' (i := .add) _ hAtP.tail.tail.tail.head rfl
                   (by
                     have h2 : (acc.length : Int) + 1 ≤ i128Max := by rw [hlen]; exact hle
@@ -784,130 +1044,142 @@ theorem sim_filter_iters : ∀ (xs : List Val) (n : Nat) (ctx : Scope) (σ : Sta
                     rw [h3]
                     simp [s7, Except.map])
               let s8 : VmState := { s7 with pc := p + 6 }
-              have r8 : Reach ctx C s7 s8 :=
+              have r8 : Reach X.K.ctx X.K.C s7 s8 :=
                 Reach.one' (i := .jump (p + 6)) _ hAtP.tail.tail.tail.tail.head rfl (by simp [MJ.Vm.step, s7, s8])
               let s9 : VmState := { s7 with pc := iterPc }
-              have r9 : Reach ctx C s8 s9 :=
+              have r9 : Reach X.K.ctx X.K.C s8 s9 :=
                 Reach.one' (i := .jump iterPc) _ hAtP.tail.tail.tail.tail.tail.tail.head rfl (by simp [MJ.Vm.step, s8, s9])
-              obtain ⟨s', r10, hpc10, hst10, htl10, hout10⟩ :=
-                sim_filter_iters xs m ctx σ stack t c rest hrec hsc C iterPc cb p a s9 l' loc2 fs (acc ++ [x]) st hcb hp
-                  hIt hDup hTg hAtc hoofc hAtP rfl (by simpa [s9, s7] using hf2) hwl rfl
-                  (by simp [s9, s7]) (by simpa using h128) hFR (by simpa [s9, s7, hout2, s1', s1] using hout)
-                  hbound hnodup ⟨c0, rs0, hstack⟩
+              obtain ⟨s', r10, hpc10, hst10, htl10, hout10, hx10⟩ :=
+                sim_filter_iters X xs m (fun k hk => hE k (Nat.lt_succ_of_lt hk)) G σ loc t c rest A hrec hsc hto hA hne
+                  (fun z hz => hpx z (by simp [hz]))
+                  iterPc cb p a s9 l' f2 fs (acc ++ [x]) st hcb hp
+                  hIt hDup hTg hAtc hoofc hAtP rfl (by simpa [s9, s7, s3] using hf2) hl2 hcc2 hwl rfl
+                  (by simp [s9, s7]) (by simpa using h128)
+                  (by have := hrelN iterPc (.int (acc ++ [x]).length :: x :: (acc.reverse ++ st)); simpa [s9, s7, s3] using this)
               refine ⟨s', hreach1.trans (hreach1'.trans (r2.trans (r3.trans (r4.trans (r5.trans (r6.trans (r7.trans (r8.trans (r9.trans r10))))))))),
-                hpc10, by simpa using hst10, htl10, ?_⟩
-              rw [hout10]; simp [s9, s7, hout2, s1', s1]
+                hpc10, by simpa using hst10, htl10, ?_, ?_⟩
+              · rw [hout10]; simp [s9, s7, s3, hout2, s1', s1]
+              · exact hx13.trans (by simpa [s9, s7, s3] using hx10)
             · -- the item is dropped
               simp only [htr] at hev
               simp at hev
               subst hev
-              let s4 : VmState := { s2 with pc := p + 5 }
-              have r4 : Reach ctx C { s2 with pc := cb + (relExpr c cb a).1.length, stack := cv :: s2.stack } s4 :=
-                Reach.one' (i := .jumpIfFalse (p + 5)) _ hAtP.head (by simp [hp])
-                  (by simp [MJ.Vm.step, htr, s4])
-              let s5 : VmState := { s2 with pc := p + 6, stack := .int acc.length :: (acc.reverse ++ st) }
-              have r5 : Reach ctx C s4 s5 :=
-                Reach.one' (i := .discardTop) _ hAtP.tail.tail.tail.tail.tail.head rfl (by simp [MJ.Vm.step, s4, s5, hs2st])
+              let s3 : VmState := { s2 with pc := cb + (relExpr c cb a).1.length, stack := cv :: s2.stack, closures := c3 }
+              let s4 : VmState := { s3 with pc := p + 5, stack := s2.stack }
+              have r4 : Reach X.K.ctx X.K.C s3 s4 :=
+                Reach.one' (i := .jumpIfFalse (p + 5)) _ hAtP.head (by simp [s3, hp])
+                  (by simp [MJ.Vm.step, htr, s4, s3])
+              let s5 : VmState := { s3 with pc := p + 6, stack := .int acc.length :: (acc.reverse ++ st) }
+              have r5 : Reach X.K.ctx X.K.C s4 s5 :=
+                Reach.one' (i := .discardTop) _ hAtP.tail.tail.tail.tail.tail.head rfl (by simp [MJ.Vm.step, s4, s5, s3, hs2st])
               let s9 : VmState := { s5 with pc := iterPc }
-              have r9 : Reach ctx C s5 s9 :=
+              have r9 : Reach X.K.ctx X.K.C s5 s9 :=
                 Reach.one' (i := .jump iterPc) _ hAtP.tail.tail.tail.tail.tail.tail.head rfl (by simp [MJ.Vm.step, s5, s9])
-              obtain ⟨s', r10, hpc10, hst10, htl10, hout10⟩ :=
-                sim_filter_iters xs m ctx σ stack t c rest hrec hsc C iterPc cb p a s9 l' loc2 fs acc st hcb hp
-                  hIt hDup hTg hAtc hoofc hAtP rfl (by simpa [s9, s5] using hf2) hwl rfl
-                  (by simp [s9, s5]) h128 hFR (by simpa [s9, s5, hout2, s1', s1] using hout)
-                  hbound hnodup ⟨c0, rs0, hstack⟩
+              obtain ⟨s', r10, hpc10, hst10, htl10, hout10, hx10⟩ :=
+                sim_filter_iters X xs m (fun k hk => hE k (Nat.lt_succ_of_lt hk)) G σ loc t c rest A hrec hsc hto hA hne
+                  (fun z hz => hpx z (by simp [hz]))
+                  iterPc cb p a s9 l' f2 fs acc st hcb hp
+                  hIt hDup hTg hAtc hoofc hAtP rfl (by simpa [s9, s5, s3] using hf2) hl2 hcc2 hwl rfl
+                  (by simp [s9, s5]) h128
+                  (by have := hrelN iterPc (.int acc.length :: (acc.reverse ++ st)); simpa [s9, s5, s3] using this)
               refine ⟨s', hreach1.trans (hreach1'.trans (r2.trans (r3.trans (r4.trans (r5.trans (r9.trans r10)))))),
-                hpc10, hst10, htl10, ?_⟩
-              rw [hout10]; simp [s9, s5, hout2, s1', s1]
+                hpc10, hst10, htl10, ?_, ?_⟩
+              · rw [hout10]; simp [s9, s5, s3, hout2, s1', s1]
+              · exact hx13.trans (by simpa [s9, s5, s3] using hx10)
 
 /-- the code in front of the main loop of a `for` leaves a value on the operand stack that iterates
 to the items the reference semantics walks: the iterable, or the list of the items that pass the filter -/
-theorem sim_for_iter {n : Nat} {ctx : Scope} {stack : List Nat} {σ : State} {target : Target} {iter : Expr}
-    {flt : Option Expr} {v : Val} {xs0 xs : List Val} {sized : Bool}
-    (hv : evalExpr n ctx σ.heap stack iter = .ok v) (hxs : iterate v = .ok xs0)
+theorem sim_for_iter {n : Nat} (hE : ∀ m, m ≤ n → SimExpr m) {X : SC} {G : Ghost} {loc : List Nat} {σ : State} {target : Target}
+    {iter : Expr} {flt : Option Expr} {v : Val} {xs0 xs : List Val} {sized : Bool} {A : List String}
+    (hv : evalExpr n X.K.ctx σ.heap (loc ++ X.env) iter = .ok v) (hxs : iterate v = .ok xs0)
     (hflt : (flt = none ∧ xs = xs0 ∧ sized = isSized v) ∨
-      (∃ c, flt = some c ∧ filterItems n ctx σ.heap stack target c xs0 = .ok xs ∧
+      (∃ c, flt = some c ∧ filterItems n X.K.ctx σ.heap (loc ++ X.env) target c xs0 = .ok xs ∧
         ((xs.length : Int) ≤ i128Max) ∧ sized = true))
-    (hsi : simpleExpr iter = true) (hsc : ∀ c, flt = some c → simpleExpr c = true)
-    {C : List Instr} {base : Nat} {a : Aux} {s : VmState}
-    (hAt : At C base (relForIter target iter flt base a).1) (hoof : (relForIter target iter flt base a).2.oof = false)
-    (hpc : s.pc = base) (hrel : Rel σ stack s) :
-    ∃ w, Reach ctx C s { s with pc := base + (relForIter target iter flt base a).1.length, stack := w :: s.stack } ∧
+    (hsi : wfExpr X.K.M X.P A iter = true) (hsc : ∀ c, flt = some c → wfExpr X.K.M X.P (A ++ targetNames target) c = true)
+    (hto : targetOk X.K.M target = true) (hA : ABound σ.heap loc A) (hne : loc ≠ [])
+    {base : Nat} {a : Aux} {s : VmState}
+    (hAt : At X.K.C base (relForIter target iter flt base a).1) (hoof : (relForIter target iter flt base a).2.oof = false)
+    (hpc : s.pc = base) (hrel : Rel X.K G X.P X.clo σ loc X.env s) :
+    ∃ w cls', Ext s.closures cls' ∧
+      Reach X.K.ctx X.K.C s { s with pc := base + (relForIter target iter flt base a).1.length, stack := w :: s.stack, closures := cls' } ∧
       iterate w = .ok xs ∧ isSized w = sized := by
   rcases hflt with ⟨rfl, rfl, rfl⟩ | ⟨c, rfl, hfi, h128, rfl⟩
-  · exact ⟨v, relExpr_correct hv hsi hAt hoof hpc hrel.env, hxs, rfl⟩
+  · obtain ⟨c1, x1, r1⟩ := hE n (Nat.le_refl n) (X.ectx G σ.heap loc A) iter v hv hsi base a s hAt hoof hpc (hrel.eok hA hne)
+    exact ⟨v, c1, x1, r1, hxs, rfl⟩
   · have hscc := hsc c rfl
     simp only [relForIter] at hAt hoof ⊢
     have ho1 : (relExpr iter (base + 1) a).2.oof = false := by
       cases ha : (relExpr iter (base + 1) a).2.oof with
       | false => rfl
       | true => rw [relExpr_oof_mono c _ _ ha] at hoof; cases hoof
-    obtain ⟨P, hP⟩ : ∃ P, P = base + 1 + (relExpr iter (base + 1) a).1.length + 3 + (relTarget target).length +
+    obtain ⟨Pp, hP⟩ : ∃ Pp, Pp = base + 1 + (relExpr iter (base + 1) a).1.length + 3 + (relTarget target).length +
           (relExpr c (base + 1 + (relExpr iter (base + 1) a).1.length + 3 + (relTarget target).length)
             (relExpr iter (base + 1) a).2).1.length := ⟨_, rfl⟩
     rw [← hP] at hAt
     -- LoadConst 0
     let s0 : VmState := { s with pc := base + 1, stack := .int 0 :: s.stack }
-    have r0 : Reach ctx C s s0 :=
+    have r0 : Reach X.K.ctx X.K.C s s0 :=
       Reach.one (i := .loadConst (.int 0)) (by rw [hpc]; exact hAt.left.left.left.left.left.head)
         (by simp [MJ.Vm.step, s0, hpc])
-    have r1 : Reach ctx C s0 { s0 with pc := base + 1 + (relExpr iter (base + 1) a).1.length, stack := v :: s0.stack } :=
-      relExpr_correct (s := s0) hv hsi (At.cast hAt.left.left.left.left.right (by simp)) ho1 rfl
-        (by simpa [s0] using hrel.env)
+    obtain ⟨c1, x1, r1⟩ := hE n (Nat.le_refl n) (X.ectx G σ.heap loc A) iter v hv hsi (base + 1) a s0
+      (At.cast hAt.left.left.left.left.right (by simp)) ho1 rfl ((hrel.same s0 rfl rfl rfl).eok hA hne)
     -- PushLoop 0
     let l0 : LoopSt := { withLoopVar := false, len := if isSized v then some xs0.length else none,
                          calls := 0, iterated := false, prev := none, cur := none, rest := xs0 }
     let s2 : VmState := { s with pc := base + 1 + (relExpr iter (base + 1) a).1.length + 1, stack := .int 0 :: s.stack,
-                                 frames := { locals := [], loop := some l0 } :: s.frames }
+                                 frames := { locals := [], loop := some l0 } :: s.frames, closures := c1 }
     have hAt3 := hAt.left.left.left.right
-    have r2 : Reach ctx C { s0 with pc := base + 1 + (relExpr iter (base + 1) a).1.length, stack := v :: s0.stack } s2 :=
+    have r2 : Reach X.K.ctx X.K.C { s0 with pc := base + 1 + (relExpr iter (base + 1) a).1.length, stack := v :: s0.stack, closures := c1 } s2 :=
       Reach.one' (i := .pushLoop 0) _ hAt3.head (by simp; omega)
         (by simp [MJ.Vm.step, hxs, Except.map, s2, l0, s0])
-    obtain ⟨c0, rs0, hstack⟩ := hrel.nonempty
-    have hAtP : At C P [.jumpIfFalse (P + 5), .swap, .loadConst (.int 1), .add, .jump (P + 6), .discardTop,
+    have hAtP : At X.K.C Pp [.jumpIfFalse (Pp + 5), .swap, .loadConst (.int 1), .add, .jump (Pp + 6), .discardTop,
         .jump (base + 1 + (relExpr iter (base + 1) a).1.length + 1), .popLoopFrame, .buildList none] :=
       At.cast hAt.right (by rw [hP]; simp only [List.length_append, List.length_cons, List.length_nil]; omega)
-    obtain ⟨s', r3, hpc3, hst3, htl3, hout3⟩ :=
-      sim_filter_iters xs0 n ctx σ stack target c xs hfi hscc C
+    have hrel2 : Rel X.K G X.P X.clo σ loc X.env { s2 with frames := s.frames } :=
+      hrel.ext _ rfl x1 rfl rfl
+    obtain ⟨s', r3, hpc3, hst3, htl3, hout3, hx3⟩ :=
+      sim_filter_iters X xs0 n (fun m hm => hE m (Nat.le_of_lt hm)) G σ loc target c xs A hfi hscc hto hA hne
+        ((plainL_iff xs0).1 (iterate_plain (evalExpr_plain hrel.1.plain n iter v hsi hv) hxs))
         (base + 1 + (relExpr iter (base + 1) a).1.length + 1)
         (base + 1 + (relExpr iter (base + 1) a).1.length + 3 + (relTarget target).length)
-        P (relExpr iter (base + 1) a).2 s2 l0 [] s.frames [] s.stack (by omega) hP
+        Pp (relExpr iter (base + 1) a).2 s2 l0 { locals := [], loop := some l0 } s.frames [] s.stack (by omega) hP
         (by have := hAt3.tail.head
-            refine Eq.trans (congrArg (fun k => C[k]?) ?_) this
+            refine Eq.trans (congrArg (fun k => X.K.C[k]?) ?_) this
             simp only [List.length_append, List.length_cons, List.length_nil]; omega)
         (by have := hAt3.tail.tail.head
-            refine Eq.trans (congrArg (fun k => C[k]?) ?_) this
+            refine Eq.trans (congrArg (fun k => X.K.C[k]?) ?_) this
             simp only [List.length_append, List.length_cons, List.length_nil]; omega)
         (At.cast hAt.left.left.right (by simp only [List.length_append, List.length_cons, List.length_nil]; omega))
         (At.cast hAt.left.right (by simp only [List.length_append, List.length_cons, List.length_nil]; omega))
         hoof
         (At.left (L2 := [Instr.popLoopFrame, Instr.buildList none]) (by simpa using hAtP))
-        rfl rfl rfl rfl (by simp [s2]) (by simpa using h128) hrel.frames hrel.out hrel.bound hrel.nodup ⟨c0, rs0, hstack⟩
+        rfl rfl rfl rfl rfl rfl (by simp [s2]) (by simpa using h128) hrel2
     -- PopLoopFrame, BuildList
-    let s4 : VmState := { s' with pc := P + 8, frames := s.frames }
-    have r4 : Reach ctx C s' s4 :=
+    let s4 : VmState := { s' with pc := Pp + 8, frames := s.frames }
+    have r4 : Reach X.K.ctx X.K.C s' s4 :=
       Reach.one' (i := .popLoopFrame) _ hAtP.tail.tail.tail.tail.tail.tail.tail.head hpc3
         (by simp [MJ.Vm.step, s4, hpc3, htl3])
-    let s5 : VmState := { s with pc := P + 9, stack := .list xs :: s.stack }
-    have r5 : Reach ctx C s4 s5 :=
+    let s5 : VmState := { s with pc := Pp + 9, stack := .list xs :: s.stack, closures := s'.closures }
+    have r5 : Reach X.K.ctx X.K.C s4 s5 :=
       Reach.one' (i := .buildList none) _ hAtP.tail.tail.tail.tail.tail.tail.tail.tail.head rfl
         (by
           have hst4 : s4.stack = .int xs.length :: (xs.reverse ++ s.stack) := by simpa [s4] using hst3
           simp only [MJ.Vm.step, hst4, Int.toNat_natCast, popN_append]
           simp [s4, s5, hout3, s2])
-    refine ⟨.list xs, Reach.cast (r0.trans (r1.trans (r2.trans (r3.trans (r4.trans r5))))) rfl ?_, by simp [iterate],
-      by simp [isSized]⟩
+    refine ⟨.list xs, s'.closures, x1.trans (by simpa [s2] using hx3),
+      Reach.cast (r0.trans (r1.trans (r2.trans (r3.trans (r4.trans r5))))) rfl ?_, by simp [iterate], by simp [isSized]⟩
     simp only [s5, hP, List.length_append, List.length_cons, List.length_nil]
     congr 1; omega
 
 /-- a non-normal flow through a prefix that keeps operand stack, frames and outer buffers -/
-theorem Post.prefix_nn {ctx C stack stack1 σ' fl s s1 e e' lc} (hfl : ¬ fl = Flow.normal) (r : Reach ctx C s s1)
+theorem Post.prefix_nn {X loc loc1 σ' fl s s1 e e' lc} (hfl : ¬ fl = Flow.normal) (r : Reach X.K.ctx X.K.C s s1)
     (hst : s1.stack = s.stack) (ht : s1.frames.tail = s.frames.tail)
-    (hh : s1.frames.head?.map (·.loop) = s.frames.head?.map (·.loop)) (ho : s1.outs.tail = s.outs.tail)
-    (h : Post ctx C stack1 σ' fl s1 e lc) : Post ctx C stack σ' fl s e' lc := by
+    (hh : s1.frames.head?.map Frame.sig = s.frames.head?.map Frame.sig) (ho : s1.outs.tail = s.outs.tail)
+    (hcp : ClPres s s1) (hhc : HeadClos s s1)
+    (h : Post X loc1 σ' fl s1 e lc) : Post X loc σ' fl s e' lc := by
   simp only [Post, hfl, if_false] at h ⊢
   obtain ⟨l, hl, hu⟩ := h
-  exact ⟨l, hl, hu.prefix r hst ht hh ho⟩
+  exact ⟨l, hl, hu.prefix r hst ht hh ho hcp hhc⟩
 
 theorem nCap_le_of {lc : Option LoopCtx} {s s1 : VmState} (hcap : ∀ l, lc = some l → nCap l.scopes < s.outs.length)
     (h : s1.outs.length = s.outs.length) : ∀ l, lc = some l → nCap l.scopes < s1.outs.length := by
@@ -953,38 +1225,58 @@ theorem leave_reach (ctx : Scope) (C : List Instr) : ∀ (sc : List ScopeKind) (
       simp only [s2, leaveCode, nWith, nCap, List.length_cons, List.drop_succ_cons]
       congr 1; omega
 
-theorem sim_stmt_step {n} (ihB : SimBlock n) (ihW : SimBinds n) (ihI : SimIters n) (ihF : SimFilters n) :
-    SimStmt (n + 1) := by
-  intro st ctx stack σ σ' fl hev lc hs C base a s hAt hoof hpc hrel hcap
-  cases st with
-  | text t =>
-    simp [exec] at hev
+/-- evaluate an expression in the middle of a statement: the value is pushed, the closures may grow -/
+theorem sim_expr_in {n} (ihE : SimExpr n) {X : SC} {G : Ghost} {σ : State} {loc : List Nat} {A : List String} {e : Expr} {v : Val}
+    (hv : evalExpr n X.K.ctx σ.heap (loc ++ X.env) e = .ok v) (hs : wfExpr X.K.M X.P A e = true)
+    (hA : ABound σ.heap loc A) (hne : loc ≠ []) {base : Nat} {a : Aux} {s : VmState}
+    (hAt : At X.K.C base (relExpr e base a).1) (hoof : (relExpr e base a).2.oof = false) (hpc : s.pc = base)
+    (hrel : Rel X.K G X.P X.clo σ loc X.env s) :
+    ∃ cls', Ext s.closures cls' ∧
+      Reach X.K.ctx X.K.C s { s with pc := base + (relExpr e base a).1.length, stack := v :: s.stack, closures := cls' } ∧
+      Rel X.K G X.P X.clo σ loc X.env { s with pc := base + (relExpr e base a).1.length, stack := v :: s.stack, closures := cls' } := by
+  obtain ⟨c1, x1, r1⟩ := ihE (X.ectx G σ.heap loc A) e v hv hs base a s hAt hoof hpc (hrel.eok hA hne)
+  exact ⟨c1, x1, r1, hrel.ext _ rfl x1 rfl rfl⟩
+
+theorem Done.of_pure {X : SC} {G loc σ' s s'} (r : Reach X.K.ctx X.K.C s s') (hst : s'.stack = s.stack)
+    (hrel : Rel X.K G X.P X.clo σ' loc X.env s') (hout : s'.outs.tail = s.outs.tail) (hf : s'.frames = s.frames)
+    (hx : Ext s.closures s'.closures) : Done X loc σ' s s'.pc :=
+  ⟨s', G, r, rfl, hst, hrel, hout, by rw [hf], by rw [hf], ClPres.of_ext hx, HeadClos.of_eq (by rw [hf])⟩
+
+theorem sim_text {n} (X : SC) (t : String) : StmtGoal (n + 1) X (.text t) := by
+  intro G σ loc σ' fl hev A lc hs hA hne base a s hAt hoof hpc hrel hcap
+  simp [exec] at hev
+  obtain ⟨rfl, rfl⟩ := hev
+  simp only [relStmt, Post, if_true] at hAt ⊢
+  have hr := hrel.appendOut t { s with pc := s.pc + 1, outs := MJ.Vm.appendOut t s.outs } rfl rfl rfl
+  have := Done.of_pure (X := X) (s := s) (s' := { s with pc := s.pc + 1, outs := MJ.Vm.appendOut t s.outs })
+    (Reach.one (i := .emitRaw t) (by rw [hpc]; exact hAt.head) (by simp [MJ.Vm.step])) rfl hr.1 hr.2 rfl (Ext.refl _)
+  simpa [hpc] using this
+
+theorem sim_emit {n} (ihE : SimExpr n) (X : SC) (e : Expr) : StmtGoal (n + 1) X (.emit e) := by
+  intro G σ loc σ' fl hev A lc hs hA hne base a s hAt hoof hpc hrel hcap
+  have hse : wfExpr X.K.M X.P A e = true := by simpa [wfStmt] using hs
+  simp only [exec, bind, Except.bind] at hev
+  split at hev
+  · simp at hev
+  · rename_i v hv
+    simp at hev
     obtain ⟨rfl, rfl⟩ := hev
-    simp only [relStmt, Post, if_true] at hAt ⊢
-    have hr := hrel.appendOut t { s with pc := s.pc + 1, outs := MJ.Vm.appendOut t s.outs } rfl rfl
-    exact ⟨{ s with pc := s.pc + 1, outs := MJ.Vm.appendOut t s.outs },
-      Reach.one (i := .emitRaw t) (by rw [hpc]; exact hAt.head) (by simp [MJ.Vm.step]),
-      by simp [hpc], rfl, hr.1, hr.2, rfl, rfl⟩
-  | emit e =>
-    have hse : simpleExpr e = true := by simpa [simpleStmt] using hs
-    simp only [exec, bind, Except.bind] at hev
-    split at hev
-    · simp at hev
-    · rename_i v hv
-      simp at hev
-      obtain ⟨rfl, rfl⟩ := hev
-      simp only [relStmt, Post, if_true] at hAt hoof ⊢
-      have r1 := relExpr_correct hv hse hAt.left hoof hpc hrel.env
-      have hr := hrel.appendOut (render v)
-        { s with pc := base + (relExpr e base a).1.length + 1, outs := MJ.Vm.appendOut (render v) s.outs } rfl rfl
-      exact ⟨{ s with pc := base + (relExpr e base a).1.length + 1, outs := MJ.Vm.appendOut (render v) s.outs },
-        r1.trans (Reach.one' (i := .emit) _ hAt.right.head rfl (by simp [MJ.Vm.step])),
-        by simp [Nat.add_assoc], rfl, hr.1, hr.2, rfl, rfl⟩
-  | set target e =>
-    have hse : simpleExpr e = true := by simpa [simpleStmt] using hs
-    obtain ⟨cell, rs, hstack⟩ := hrel.nonempty
-    subst hstack
-    simp only [exec, bind, Except.bind] at hev
+    simp only [relStmt, Post, if_true] at hAt hoof ⊢
+    obtain ⟨c1, x1, r1, hrel1⟩ := sim_expr_in ihE hv hse hA hne hAt.left hoof hpc hrel
+    have hr := hrel1.appendOut (render v)
+      { s with pc := base + (relExpr e base a).1.length + 1, outs := MJ.Vm.appendOut (render v) s.outs, closures := c1 } rfl rfl rfl
+    have := Done.of_pure (X := X) (s := s)
+      (s' := { s with pc := base + (relExpr e base a).1.length + 1, outs := MJ.Vm.appendOut (render v) s.outs, closures := c1 })
+      (r1.trans (Reach.one' (i := .emit) _ hAt.right.head rfl (by simp [MJ.Vm.step]))) rfl hr.1 hr.2 rfl x1
+    simpa [Nat.add_assoc] using this
+
+theorem sim_set {n} (ihE : SimExpr n) (X : SC) (target : Target) (e : Expr) : StmtGoal (n + 1) X (.set target e) := by
+  intro G σ loc σ' fl hev A lc hs hA hne base a s hAt hoof hpc hrel hcap
+  have hse : targetOk X.K.M target = true ∧ wfExpr X.K.M X.P A e = true := by simpa [wfStmt] using hs
+  cases loc with
+  | nil => exact absurd rfl hne
+  | cons cell rs =>
+    simp only [exec, bind, Except.bind, List.cons_append] at hev
     split at hev
     · simp at hev
     · rename_i v hv
@@ -994,641 +1286,2123 @@ theorem sim_stmt_step {n} (ihB : SimBlock n) (ihW : SimBinds n) (ihI : SimIters 
         simp [topCell] at hev
         obtain ⟨rfl, rfl⟩ := hev
         simp only [relStmt, Post, if_true] at hAt hoof ⊢
-        have := sim_assign hv hbs hse hAt hoof hpc hrel
+        have := sim_assign ihE (X := X) (G := G) (A := A) hv hbs hse.2 hse.1 hA hAt hoof hpc hrel
         simpa [Nat.add_assoc] using this
-  | ifS c t f =>
-    simp only [exec, bind, Except.bind] at hev
-    split at hev
-    · simp at hev
-    · rename_i cv hcv
-      cases f with
-      | nil =>
-        have hs' : simpleExpr c = true ∧ simpleBlock lc.isSome t = true := by simpa [simpleStmt, simpleBlock] using hs
-        simp only [relStmt] at hAt hoof ⊢
-        have ho1 := oof_false_of_relBlock hoof
-        have r1 := relExpr_correct hcv hs'.1 hAt.left.left ho1 hpc hrel.env
-        have hj := hAt.left.right.head
-        by_cases ht : truthy cv = true
-        · simp [ht] at hev
-          have rj : Reach ctx C s { s with pc := base + (relExpr c base a).1.length + 1, stack := s.stack } :=
-            r1.trans (Reach.one' (i := .jumpIfFalse _) _ hj rfl (by simp [MJ.Vm.step, ht]))
-          have p2 := ihB t ctx stack σ σ' fl hev lc hs'.2 C (base + (relExpr c base a).1.length + 1) (relExpr c base a).2
-              { s with pc := base + (relExpr c base a).1.length + 1, stack := s.stack }
-              (At.cast hAt.right (by simp [Nat.add_assoc])) hoof rfl (hrel.same _ rfl rfl) hcap
-          by_cases hfl : fl = .normal
-          · subst hfl
-            simp only [Post, if_true] at p2 ⊢
-            obtain ⟨s2, r2, hpc2, hst2, hrel2, hout2, htl2, hhd2⟩ := p2
-            refine ⟨s2, rj.trans r2, ?_, hst2, hrel2, hout2, htl2, hhd2⟩
-            simp only [hpc2, List.length_append, List.length_cons, List.length_nil]; omega
-          · exact Post.prefix_nn hfl rj rfl rfl rfl rfl p2
-        · simp [ht] at hev
-          obtain ⟨rfl, rfl⟩ := execBlock_nil hev
-          simp only [Post, if_true]
-          refine ⟨{ s with pc := base + (relExpr c base a).1.length + 1 +
-              (relBlock t (base + (relExpr c base a).1.length + 1) (relExpr c base a).2 lc).1.1.length },
-            r1.trans (Reach.one (i := .jumpIfFalse _) hj (by simp [MJ.Vm.step, ht])), ?_, rfl,
-            hrel.same _ rfl rfl, rfl, rfl, rfl⟩
-          simp only [List.length_append, List.length_cons, List.length_nil]; omega
-      | cons f0 fs =>
-        have hs' : (simpleExpr c = true ∧ simpleBlock lc.isSome t = true) ∧ simpleBlock lc.isSome (f0 :: fs) = true := by
-          simpa [simpleStmt] using hs
-        simp only [relStmt] at hAt hoof ⊢
-        have ho2 := oof_false_of_relBlock hoof
-        have ho1 := oof_false_of_relBlock ho2
-        have r1 := relExpr_correct hcv hs'.1.1 hAt.left.left.left.left ho1 hpc hrel.env
-        have hj := hAt.left.left.left.right.head
-        by_cases ht : truthy cv = true
-        · simp [ht] at hev
-          have rj : Reach ctx C s { s with pc := base + (relExpr c base a).1.length + 1, stack := s.stack } :=
-            r1.trans (Reach.one' (i := .jumpIfFalse _) _ hj rfl (by simp [MJ.Vm.step, ht]))
-          have p2 := ihB t ctx stack σ σ' fl hev lc hs'.1.2 C (base + (relExpr c base a).1.length + 1) (relExpr c base a).2
-              { s with pc := base + (relExpr c base a).1.length + 1, stack := s.stack }
-              (At.cast hAt.left.left.right (by simp [Nat.add_assoc])) ho2 rfl (hrel.same _ rfl rfl) hcap
-          by_cases hfl : fl = .normal
-          · subst hfl
-            simp only [Post, if_true] at p2 ⊢
-            obtain ⟨s2, r2, hpc2, hst2, hrel2, hout2, htl2, hhd2⟩ := p2
-            have hj2 := hAt.left.right.head
-            refine ⟨{ s2 with pc := base + (relExpr c base a).1.length + 1 +
-                  (relBlock t (base + (relExpr c base a).1.length + 1) (relExpr c base a).2 lc).1.1.length + 1 +
-                  (relBlock (f0 :: fs) (base + (relExpr c base a).1.length + 1 +
-                    (relBlock t (base + (relExpr c base a).1.length + 1) (relExpr c base a).2 lc).1.1.length + 1)
-                    (relBlock t (base + (relExpr c base a).1.length + 1) (relExpr c base a).2 lc).1.2 lc).1.1.length },
-              rj.trans (r2.trans (Reach.one' (i := .jump _) _ hj2
-                  (by simp only [hpc2, List.length_append, List.length_cons, List.length_nil]; omega)
-                  (by simp [MJ.Vm.step]))),
-              ?_, hst2, hrel2.same _ rfl rfl, hout2, htl2, hhd2⟩
-            simp only [List.length_append, List.length_cons, List.length_nil]; omega
-          · exact Post.prefix_nn hfl rj rfl rfl rfl rfl p2
-        · simp [ht] at hev
-          have rj : Reach ctx C s { s with pc := base + (relExpr c base a).1.length + 1 +
-              (relBlock t (base + (relExpr c base a).1.length + 1) (relExpr c base a).2 lc).1.1.length + 1, stack := s.stack } :=
-            r1.trans (Reach.one' (i := .jumpIfFalse _) _ hj rfl (by simp [MJ.Vm.step, ht]))
-          have p2 := ihB (f0 :: fs) ctx stack σ σ' fl hev lc hs'.2 C
-              (base + (relExpr c base a).1.length + 1 + (relBlock t (base + (relExpr c base a).1.length + 1) (relExpr c base a).2 lc).1.1.length + 1)
-              (relBlock t (base + (relExpr c base a).1.length + 1) (relExpr c base a).2 lc).1.2
-              { s with pc := base + (relExpr c base a).1.length + 1 + (relBlock t (base + (relExpr c base a).1.length + 1) (relExpr c base a).2 lc).1.1.length + 1, stack := s.stack }
-              (At.cast hAt.right (by simp [Nat.add_assoc]; try omega)) hoof rfl (hrel.same _ rfl rfl) hcap
-          by_cases hfl : fl = .normal
-          · subst hfl
-            simp only [Post, if_true] at p2 ⊢
-            obtain ⟨s2, r2, hpc2, hst2, hrel2, hout2, htl2, hhd2⟩ := p2
-            refine ⟨s2, rj.trans r2, ?_, hst2, hrel2, hout2, htl2, hhd2⟩
-            simp only [hpc2, List.length_append, List.length_cons, List.length_nil]; omega
-          · exact Post.prefix_nn hfl rj rfl rfl rfl rfl p2
-  | withS binds body =>
-    have hs' : simpleBinds binds = true ∧ simpleBlock (pushScope .with_ lc).isSome body = true := by
-      simpa [simpleStmt] using hs
-    simp only [exec, bind, Except.bind] at hev
-    split at hev
-    · simp at hev
-    · rename_i heap1 hw
-      split at hev
-      · simp at hev
-      · rename_i r hr
-        obtain ⟨σ2, fl2⟩ := r
-        simp at hev
-        obtain ⟨rfl, rfl⟩ := hev
-        simp only [relStmt] at hAt hoof ⊢
-        have ho1 := oof_false_of_relBlock hoof
-        -- PushWith
-        let s1 : VmState := { s with pc := base + 1, frames := {} :: s.frames }
-        have hreach1 : Reach ctx C s s1 :=
-          Reach.one (i := .pushWith) (by rw [hpc]; exact hAt.left.left.head) (by simp [MJ.Vm.step, s1, hpc])
-        have hrel1 : Rel { heap := σ.heap ++ [[]], out := σ.out } (σ.heap.length :: stack) s1 :=
-          hrel.push [] {} (by intro x; simp [assocGet, frameLookup]) s1 rfl rfl
-        -- the bindings
-        obtain ⟨s2, r2, hpc2, hst2, hrel2, hout2, htl2, hhd2⟩ :=
-          ihW binds ctx (σ.heap.length :: stack) _ heap1 σ.out hw hs'.1 C (base + 1) a s1
-            (At.cast hAt.left.left.right (by simp only [List.length_cons, List.length_nil])) ho1 rfl hrel1
-        have hlen2 : s2.outs.length = s.outs.length := by
-          have := outs_length_of_tail hrel2 hrel1 hout2; simpa [s1] using this
-        -- the body
-        have p3 := ihB body ctx (σ.heap.length :: stack) _ σ2 fl2 hr (pushScope .with_ lc) hs'.2 C
-            (base + 1 + (relBinds binds (base + 1) a).1.length)
-            (relBinds binds (base + 1) a).2 s2
-            (At.cast hAt.left.right (by simp only [List.length_append, List.length_cons, List.length_nil]; omega)) hoof hpc2 hrel2
-            (by intro l' hl'
-                cases lc with
-                | none => simp [pushScope] at hl'
-                | some l =>
-                  simp only [pushScope, Option.some.injEq] at hl'
-                  subst hl'
-                  rw [hlen2]; simpa [nCap] using hcap l rfl)
-        by_cases hfl : fl2 = .normal
+
+theorem sim_if {n} (ihE : SimExpr n) (ihB : SimBlock n) (X : SC) (c : Expr) (t f : List Stmt) :
+    StmtGoal (n + 1) X (.ifS c t f) := by
+  intro G σ loc σ' fl hev A lc hs hA hne base a s hAt hoof hpc hrel hcap
+  simp only [exec, bind, Except.bind] at hev
+  split at hev
+  · simp at hev
+  · rename_i cv hcv
+    cases f with
+    | nil =>
+      have hs' : wfExpr X.K.M X.P A c = true ∧ wfBlock X.K.M X.P A lc.isSome t = true := by simpa [wfStmt, wfBlock] using hs
+      simp only [relStmt] at hAt hoof ⊢
+      have ho1 := oof_false_of_relBlock hoof
+      obtain ⟨c1, x1, r1, hrel1⟩ := sim_expr_in ihE hcv hs'.1 hA hne hAt.left.left ho1 hpc hrel
+      have hj := hAt.left.right.head
+      by_cases ht : truthy cv = true
+      · simp [ht] at hev
+        let s1 : VmState := { s with pc := base + (relExpr c base a).1.length + 1, stack := s.stack, closures := c1 }
+        have rj : Reach X.K.ctx X.K.C s s1 :=
+          r1.trans (Reach.one' (i := .jumpIfFalse _) _ hj rfl (by simp [MJ.Vm.step, ht, s1]))
+        have p2 := ihB X t G σ loc σ' fl hev A lc hs'.2 hA hne (base + (relExpr c base a).1.length + 1) (relExpr c base a).2
+            s1 (At.cast hAt.right (by simp [Nat.add_assoc])) hoof rfl (hrel1.same _ rfl rfl rfl) hcap
+        have hcp1 : ClPres s s1 := ClPres.of_ext x1
+        have hhc1 : HeadClos s s1 := HeadClos.of_eq rfl
+        by_cases hfl : fl = .normal
         · subst hfl
-          simp only [Post, if_true] at p3 ⊢
-          obtain ⟨s3, r3, hpc3, hst3, hrel3, hout3, htl3, hhd3⟩ := p3
-          -- PopFrame: the scope is dropped on both sides
-          have htake : σ2.heap.take σ.heap.length = σ.heap :=
-            take_of_frame σ.heap [] stack σ2.heap ((bindWith_frame _ _ _ _ _ _ hw).trans (execBlock_frame hr))
-          have hfr3 : s3.frames.tail = s.frames := by rw [htl3, htl2]; rfl
-          obtain ⟨r3out, hr3⟩ := hrel3.out
-          let s4 : VmState := { s3 with pc := s3.pc + 1, frames := s3.frames.tail }
-          have hreach4 : Reach ctx C s3 s4 :=
-            Reach.one' (i := .popFrame) _ hAt.right.head
-              (by simp only [hpc3, List.length_append, List.length_cons, List.length_nil]; omega)
-              (by simp [MJ.Vm.step, s4])
-          refine ⟨s4, hreach1.trans (r2.trans (r3.trans hreach4)), ?_, ?_, ?_, ?_, ?_, ?_⟩
-          · simp only [s4, hpc3, List.length_append, List.length_cons, List.length_nil]; omega
-          · simp [s4, hst3, hst2, s1]
-          · refine ⟨?_, ⟨r3out, by simp [s4, hr3]⟩, ?_, hrel.nodup, hrel.nonempty⟩
-            · simp only [s4, hfr3, htake]; exact hrel.frames
-            · simp only [htake]; exact hrel.bound
-          · simp [s4, hout3, hout2, s1]
-          · simp [s4, hfr3]
-          · simp [s4, hfr3]
-        · -- `break` / `continue` inside the block: the frame was popped on the way out
-          simp only [Post, hfl, if_false] at p3 ⊢
-          obtain ⟨l', hl', s3, r3, hpc3, hst3, htl3, hhd3, hout3⟩ := p3
+          simp only [Post, if_true] at p2 ⊢
+          obtain ⟨s2, G2, r2, hpc2, hst2, hrel2, hout2, htl2, hhd2, hcp2, hhc2⟩ := p2
+          refine ⟨s2, G2, rj.trans r2, ?_, hst2, hrel2, hout2, htl2, hhd2, hcp1.trans hhc1 hcp2, hhc1.trans hcp1.1 hhc2⟩
+          simp only [hpc2, List.length_append, List.length_cons, List.length_nil]; omega
+        · exact Post.prefix_nn hfl rj rfl rfl rfl rfl hcp1 hhc1 p2
+      · simp [ht] at hev
+        obtain ⟨rfl, rfl⟩ := execBlock_nil hev
+        simp only [Post, if_true]
+        have := Done.of_pure (X := X) (s := s)
+          (s' := { s with pc := base + (relExpr c base a).1.length + 1 +
+            (relBlock t (base + (relExpr c base a).1.length + 1) (relExpr c base a).2 lc).1.1.length, closures := c1 })
+          (r1.trans (Reach.one (i := .jumpIfFalse _) hj (by simp [MJ.Vm.step, ht]))) rfl (hrel1.same _ rfl rfl rfl) rfl rfl x1
+        refine Eq.mp ?_ this
+        congr 1
+        simp only [List.length_append, List.length_cons, List.length_nil]; omega
+    | cons f0 fs =>
+      have hs' : (wfExpr X.K.M X.P A c = true ∧ wfBlock X.K.M X.P A lc.isSome t = true) ∧ wfBlock X.K.M X.P A lc.isSome (f0 :: fs) = true := by
+        simpa [wfStmt] using hs
+      simp only [relStmt] at hAt hoof ⊢
+      have ho2 := oof_false_of_relBlock hoof
+      have ho1 := oof_false_of_relBlock ho2
+      obtain ⟨c1, x1, r1, hrel1⟩ := sim_expr_in ihE hcv hs'.1.1 hA hne hAt.left.left.left.left ho1 hpc hrel
+      have hj := hAt.left.left.left.right.head
+      by_cases ht : truthy cv = true
+      · simp [ht] at hev
+        let s1 : VmState := { s with pc := base + (relExpr c base a).1.length + 1, stack := s.stack, closures := c1 }
+        have rj : Reach X.K.ctx X.K.C s s1 :=
+          r1.trans (Reach.one' (i := .jumpIfFalse _) _ hj rfl (by simp [MJ.Vm.step, ht, s1]))
+        have hcp1 : ClPres s s1 := ClPres.of_ext x1
+        have hhc1 : HeadClos s s1 := HeadClos.of_eq rfl
+        have p2 := ihB X t G σ loc σ' fl hev A lc hs'.1.2 hA hne (base + (relExpr c base a).1.length + 1) (relExpr c base a).2
+            s1 (At.cast hAt.left.left.right (by simp [Nat.add_assoc])) ho2 rfl (hrel1.same _ rfl rfl rfl) hcap
+        by_cases hfl : fl = .normal
+        · subst hfl
+          simp only [Post, if_true] at p2 ⊢
+          obtain ⟨s2, G2, r2, hpc2, hst2, hrel2, hout2, htl2, hhd2, hcp2, hhc2⟩ := p2
+          have hj2 := hAt.left.right.head
+          refine ⟨{ s2 with pc := base + (relExpr c base a).1.length + 1 +
+                (relBlock t (base + (relExpr c base a).1.length + 1) (relExpr c base a).2 lc).1.1.length + 1 +
+                (relBlock (f0 :: fs) (base + (relExpr c base a).1.length + 1 +
+                  (relBlock t (base + (relExpr c base a).1.length + 1) (relExpr c base a).2 lc).1.1.length + 1)
+                  (relBlock t (base + (relExpr c base a).1.length + 1) (relExpr c base a).2 lc).1.2 lc).1.1.length }, G2,
+            rj.trans (r2.trans (Reach.one' (i := .jump _) _ hj2
+                (by simp only [hpc2, List.length_append, List.length_cons, List.length_nil]; omega)
+                (by simp [MJ.Vm.step]))),
+            ?_, hst2, hrel2.same _ rfl rfl rfl, hout2, htl2, hhd2, hcp1.trans hhc1 hcp2, hhc1.trans hcp1.1 hhc2⟩
+          simp only [List.length_append, List.length_cons, List.length_nil]; omega
+        · exact Post.prefix_nn hfl rj rfl rfl rfl rfl hcp1 hhc1 p2
+      · simp [ht] at hev
+        let s1 : VmState := { s with pc := base + (relExpr c base a).1.length + 1 +
+            (relBlock t (base + (relExpr c base a).1.length + 1) (relExpr c base a).2 lc).1.1.length + 1, stack := s.stack, closures := c1 }
+        have rj : Reach X.K.ctx X.K.C s s1 :=
+          r1.trans (Reach.one' (i := .jumpIfFalse _) _ hj rfl (by simp [MJ.Vm.step, ht, s1]))
+        have hcp1 : ClPres s s1 := ClPres.of_ext x1
+        have hhc1 : HeadClos s s1 := HeadClos.of_eq rfl
+        have p2 := ihB X (f0 :: fs) G σ loc σ' fl hev A lc hs'.2 hA hne
+            (base + (relExpr c base a).1.length + 1 + (relBlock t (base + (relExpr c base a).1.length + 1) (relExpr c base a).2 lc).1.1.length + 1)
+            (relBlock t (base + (relExpr c base a).1.length + 1) (relExpr c base a).2 lc).1.2 s1
+            (At.cast hAt.right (by simp [Nat.add_assoc]; try omega)) hoof rfl (hrel1.same _ rfl rfl rfl) hcap
+        by_cases hfl : fl = .normal
+        · subst hfl
+          simp only [Post, if_true] at p2 ⊢
+          obtain ⟨s2, G2, r2, hpc2, hst2, hrel2, hout2, htl2, hhd2, hcp2, hhc2⟩ := p2
+          refine ⟨s2, G2, rj.trans r2, ?_, hst2, hrel2, hout2, htl2, hhd2, hcp1.trans hhc1 hcp2, hhc1.trans hcp1.1 hhc2⟩
+          simp only [hpc2, List.length_append, List.length_cons, List.length_nil]; omega
+        · exact Post.prefix_nn hfl rj rfl rfl rfl rfl hcp1 hhc1 p2
+
+theorem sim_break {n} (X : SC) : StmtGoal (n + 1) X .breakS := by
+  intro G σ loc σ' fl hev A lc hs hA hne base a s hAt hoof hpc hrel hcap
+  simp [exec] at hev
+  obtain ⟨rfl, rfl⟩ := hev
+  cases lc with
+  | none => simp [wfStmt] at hs
+  | some l =>
+    simp only [relStmt] at hAt ⊢
+    have r1 := leave_reach X.K.ctx X.K.C l.scopes s (by rw [hpc]; exact hAt.left) (hcap l rfl)
+    have hj := hAt.right.head
+    simp only [Post, if_false, reduceCtorEq]
+    refine ⟨l, rfl, { s with pc := l.exit, frames := s.frames.drop (nWith l.scopes), outs := s.outs.drop (nCap l.scopes) },
+      r1.trans (Reach.one' (i := .jump l.exit) _ hj (by simp [hpc]) (by simp [MJ.Vm.step])), rfl, rfl, rfl, rfl, ?_,
+      Nat.le_refl _, fun _ _ _ => rfl⟩
+    obtain ⟨rest, hr⟩ := hrel.2
+    simp [hr]
+
+theorem sim_continue {n} (X : SC) : StmtGoal (n + 1) X .continueS := by
+  intro G σ loc σ' fl hev A lc hs hA hne base a s hAt hoof hpc hrel hcap
+  simp [exec] at hev
+  obtain ⟨rfl, rfl⟩ := hev
+  cases lc with
+  | none => simp [wfStmt] at hs
+  | some l =>
+    simp only [relStmt] at hAt ⊢
+    have r1 := leave_reach X.K.ctx X.K.C l.scopes s (by rw [hpc]; exact hAt.left) (hcap l rfl)
+    have hj := hAt.right.head
+    simp only [Post, if_false, reduceCtorEq]
+    refine ⟨l, rfl, { s with pc := l.iter, frames := s.frames.drop (nWith l.scopes), outs := s.outs.drop (nCap l.scopes) },
+      r1.trans (Reach.one' (i := .jump l.iter) _ hj (by simp [hpc]) (by simp [MJ.Vm.step])), rfl, rfl, rfl, rfl, ?_,
+      Nat.le_refl _, fun _ _ _ => rfl⟩
+    obtain ⟨rest, hr⟩ := hrel.2
+    simp [hr]
+
+/-- the frames above the innermost `k + 1` ones are as before, after pushing one frame on top -/
+theorem take_succ_of_tail {fs2 fs : List Frame} (ht : fs2.tail = fs) (hne : fs2 ≠ []) (k : Nat) :
+    ∃ g, fs2 = g :: fs ∧ fs2.take (k + 2) = g :: fs.take (k + 1) := by
+  cases fs2 with
+  | nil => exact absurd rfl hne
+  | cons g rest => simp at ht; subst ht; exact ⟨g, rfl, by simp⟩
+
+theorem sim_with {n} (ihB : SimBlock n) (ihW : SimBinds n) (X : SC) (binds : List (Target × Expr)) (body : List Stmt) :
+    StmtGoal (n + 1) X (.withS binds body) := by
+  intro G σ loc σ' fl hev A lc hs hA hne base a s hAt hoof hpc hrel hcap
+  have hs' : wfBinds X.K.M X.P A binds = true ∧ wfBlock X.K.M X.P (A ++ bindsNames binds) (pushScope .with_ lc).isSome body = true := by
+    simpa [wfStmt] using hs
+  simp only [exec, bind, Except.bind] at hev
+  split at hev
+  · simp at hev
+  · rename_i heap1 hw
+    split at hev
+    · simp at hev
+    · rename_i r hr
+      obtain ⟨σ2, fl2⟩ := r
+      simp at hev
+      obtain ⟨rfl, rfl⟩ := hev
+      simp only [relStmt] at hAt hoof ⊢
+      have ho1 := oof_false_of_relBlock hoof
+      -- PushWith
+      let s1 : VmState := { s with pc := base + 1, frames := {} :: s.frames }
+      have hreach1 : Reach X.K.ctx X.K.C s s1 :=
+        Reach.one (i := .pushWith) (by rw [hpc]; exact hAt.left.left.head) (by simp [MJ.Vm.step, s1, hpc])
+      have hrel1 : Rel X.K G X.P X.clo { heap := σ.heap ++ [[]], out := σ.out } (σ.heap.length :: loc) X.env s1 :=
+        hrel.push hne [] {} rfl rfl (by intro x; simp only [assocGet, frameLocal]; exact OptAgree.none _ _ _ _ _)
+          (by intro z v _ hz; simp [assocGet] at hz) s1 rfl rfl rfl
+      have hA1 : ABound (σ.heap ++ [[]]) (σ.heap.length :: loc) A :=
+        hA.push _ (fun id hid => hrel.1.bound id (by simp [hid]))
+      -- the bindings
+      obtain ⟨s2, G2, r2, hpc2, hst2, hrel2, hout2, htl2, hhd2, hcp2, hhc2⟩ :=
+        ihW X binds G _ (σ.heap.length :: loc) heap1 σ.out hw A hs'.1 hA1 (by simp) (base + 1) a s1
+          (At.cast hAt.left.left.right (by simp only [List.length_cons, List.length_nil])) ho1 rfl hrel1
+      have hlen2 : s2.outs.length = s.outs.length := by
+        have := outs_length_of_tail hrel2 hrel1 hout2; simpa [s1] using this
+      -- the body
+      have hT1 : σ.heap.length < (σ.heap ++ [[]]).length := by simp
+      have hA2 : ABound heap1 (σ.heap.length :: loc) (A ++ bindsNames binds) :=
+        (hA1.mono (bindWith_keys _ _ _ _ _ _ hw)).append
+          (ABound.of_cell (bindWith_bound _ _ _ _ _ _ _ hw hT1))
+      have p3 := ihB X body G2 { heap := heap1, out := σ.out } (σ.heap.length :: loc) σ2 fl2 hr (A ++ bindsNames binds)
+          (pushScope .with_ lc) hs'.2 hA2 (by simp)
+          (base + 1 + (relBinds binds (base + 1) a).1.length)
+          (relBinds binds (base + 1) a).2 s2
+          (At.cast hAt.left.right (by simp only [List.length_append, List.length_cons, List.length_nil]; omega)) hoof hpc2 hrel2
+          (by intro l' hl'
+              cases lc with
+              | none => simp [pushScope] at hl'
+              | some l =>
+                simp only [pushScope, Option.some.injEq] at hl'
+                subst hl'
+                rw [hlen2]; simpa [nCap] using hcap l rfl)
+      by_cases hfl : fl2 = .normal
+      · subst hfl
+        simp only [Post, if_true] at p3 ⊢
+        obtain ⟨s3, G3, r3, hpc3, hst3, hrel3, hout3, htl3, hhd3, hcp3, hhc3⟩ := p3
+        -- PopFrame: the scope is dropped on both sides
+        have htake : σ2.heap.take σ.heap.length = σ.heap :=
+          take_of_frame σ.heap [] (loc ++ X.env) σ2.heap ((bindWith_frame _ _ _ _ _ _ hw).trans (execBlock_frame hr))
+        have hfr3 : s3.frames.tail = s.frames := by rw [htl3, htl2]; rfl
+        obtain ⟨r3out, hr3⟩ := hrel3.2
+        let s4 : VmState := { s3 with pc := s3.pc + 1, frames := s3.frames.tail }
+        have hreach4 : Reach X.K.ctx X.K.C s3 s4 :=
+          Reach.one' (i := .popFrame) _ hAt.right.head
+            (by simp only [hpc3, List.length_append, List.length_cons, List.length_nil]; omega)
+            (by simp [MJ.Vm.step, s4])
+        -- the closures of the scopes outside are untouched: the new frame owned none
+        have hx13 : Ext s.closures s3.closures := by
+          have hcp13 := hcp2.trans hhc2 hcp3
+          have : Ext s1.closures s3.closures := hcp13.ext_of_none (by simp [s1, topClosure])
+          simpa [s1] using this
+        have hrel4 : Rel X.K G X.P X.clo { heap := σ2.heap.take σ.heap.length, out := σ2.out } loc X.env s4 := by
+          rw [htake]
+          obtain ⟨e13, he13⟩ := hx13
+          exact ⟨hrel.1.ext s4 (by simp [s4, hfr3]) e13 (by simp [s4, he13]), ⟨r3out, by simp [s4, hr3]⟩⟩
+        refine ⟨s4, G, hreach1.trans (r2.trans (r3.trans hreach4)), ?_, ?_, hrel4, ?_, ?_, ?_, ?_, ?_⟩
+        · simp only [s4, hpc3, List.length_append, List.length_cons, List.length_nil]; omega
+        · simp [s4, hst3, hst2, s1]
+        · simp [s4, hout3, hout2, s1]
+        · simp [s4, hfr3]
+        · simp [s4, hfr3]
+        · exact ClPres.of_ext (by simpa [s4] using hx13)
+        · exact HeadClos.of_eq (by simp [s4, hfr3])
+      · -- `break` / `continue` inside the block: the frame was popped on the way out
+        simp only [Post, hfl, if_false] at p3 ⊢
+        obtain ⟨l', hl', s3, r3, hpc3, hst3, htl3, hhd3, hout3, hlen3, hun3⟩ := p3
+        cases lc with
+        | none => simp [pushScope] at hl'
+        | some l =>
+          simp only [pushScope, Option.some.injEq] at hl'
+          subst hl'
+          have hdrop : s2.frames.drop (nWith l.scopes + 1) = s.frames.drop (nWith l.scopes) := by
+            have e1 : s2.frames.drop (nWith l.scopes + 1) = s2.frames.tail.drop (nWith l.scopes) := by
+              cases s2.frames <;> simp
+            rw [e1, htl2]; rfl
+          have hx12 : Ext s.closures s2.closures := by
+            have : Ext s1.closures s2.closures := hcp2.ext_of_none (by simp [s1, topClosure])
+            simpa [s1] using this
+          have hne2 : s2.frames ≠ [] := by
+            intro h0
+            have := hhd2; rw [h0] at this; simp [s1] at this
+          obtain ⟨g2, hg2, htk2⟩ := take_succ_of_tail (fs2 := s2.frames) (fs := s.frames) (by rw [htl2]; rfl) hne2 (nWith l.scopes)
+          have hg2c : g2.closure = none ∨ ∃ c, g2.closure = some c ∧ s.closures.length ≤ c := by
+            have htop : topClosure s2.frames = g2.closure := by rw [hg2]; rfl
+            rcases hhc2 with h | ⟨_, c, hc, hle⟩
+            · left; rw [← htop, h]; simp [s1, topClosure]
+            · right; exact ⟨c, by rw [← htop]; exact hc, by simpa [s1] using hle⟩
+          refine ⟨l, rfl, s3, hreach1.trans (r2.trans r3), ?_, ?_, ?_, ?_, ?_, ?_, ?_⟩
+          · rw [hpc3]; cases fl2 <;> rfl
+          · rw [hst3, hst2]
+          · simpa [nWith, hdrop] using htl3
+          · simpa [nWith, hdrop] using hhd3
+          · rw [hout3, hout2]; rfl
+          · obtain ⟨e12, he12⟩ := hx12
+            have : s.closures.length ≤ s2.closures.length := by rw [he12]; simp
+            exact Nat.le_trans this hlen3
+          · intro c hc hu
+            obtain ⟨e12, he12⟩ := hx12
+            have hc2 : c < s2.closures.length := by rw [he12]; simp; omega
+            rw [hun3 c hc2 ?_, he12, List.getElem?_append_left hc]
+            intro f hf
+            simp only [nWith] at hf
+            rw [htk2] at hf
+            rcases List.mem_cons.1 hf with rfl | hmem
+            · rcases hg2c with h | ⟨c', hc', hle⟩
+              · rw [h]; simp
+              · rw [hc']; intro e; cases e; omega
+            · exact hu f hmem
+
+theorem sim_for {n} (hE : ∀ m, m ≤ n → SimExpr m) (ihB : SimBlock n) (ihI : SimIters n) (X : SC) (target : Target) (iter : Expr)
+    (flt : Option Expr) (body els : List Stmt) : StmtGoal (n + 1) X (.forS target iter flt body els) := by
+  intro G σ loc σ' fl hev A lc hs hA hne base a s hAt hoof hpc hrel hcap
+  have hs' : ((targetOk X.K.M target = true ∧ wfExpr X.K.M X.P A iter = true) ∧
+      wfBlock X.K.M X.P (A ++ targetNames target ++ ["loop"]) true body = true) ∧ wfBlock X.K.M X.P A lc.isSome els = true := by
+    cases flt with
+    | none => simpa [wfStmt] using hs
+    | some c =>
+      have : (((targetOk X.K.M target = true ∧ wfExpr X.K.M X.P A iter = true) ∧ wfExpr X.K.M X.P (A ++ targetNames target) c = true) ∧
+          wfBlock X.K.M X.P (A ++ targetNames target ++ ["loop"]) true body = true) ∧ wfBlock X.K.M X.P A lc.isSome els = true := by
+        simpa [wfStmt] using hs
+      exact ⟨⟨this.1.1.1, this.1.2⟩, this.2⟩
+  have hsc : ∀ c, flt = some c → wfExpr X.K.M X.P (A ++ targetNames target) c = true := by
+    intro c hc; subst hc
+    have : (((targetOk X.K.M target = true ∧ wfExpr X.K.M X.P A iter = true) ∧ wfExpr X.K.M X.P (A ++ targetNames target) c = true) ∧
+        wfBlock X.K.M X.P (A ++ targetNames target ++ ["loop"]) true body = true) ∧ wfBlock X.K.M X.P A lc.isSome els = true := by
+      simpa [wfStmt] using hs
+    exact this.1.1.2
+  simp only [exec, bind, Except.bind] at hev
+  split at hev
+  · simp at hev
+  · rename_i v hv
+    split at hev
+    · simp at hev
+    · rename_i xs0 hxs
+      have hphase : ∃ xs sized, ((flt = none ∧ xs = xs0 ∧ sized = isSized v) ∨
+            (∃ c, flt = some c ∧ filterItems n X.K.ctx σ.heap (loc ++ X.env) target c xs0 = .ok xs ∧
+              ((xs.length : Int) ≤ i128Max) ∧ sized = true)) ∧
+          ∃ σi, execIters n X.K.ctx (loc ++ X.env) σ target body (xs.zip (loopInfos sized xs)) = .ok σi ∧
+            ((xs = [] ∧ execBlock n X.K.ctx (loc ++ X.env) σ els = .ok (σ', fl)) ∨ (xs ≠ [] ∧ σ' = σi ∧ fl = .normal)) := by
+        cases flt with
+        | none =>
+          simp only at hev
+          refine ⟨xs0, isSized v, Or.inl ⟨rfl, rfl, rfl⟩, ?_⟩
+          cases xs0 with
+          | nil =>
+            cases n with
+            | zero => simp [execBlock] at hev
+            | succ m => exact ⟨σ, by simp [execIters, loopInfos, loopInfosFrom], Or.inl ⟨rfl, hev⟩⟩
+          | cons y ys =>
+            simp only at hev
+            split at hev
+            · simp at hev
+            · rename_i σi hi
+              simp at hev
+              exact ⟨σi, hi, Or.inr ⟨by simp, hev.1.symm, hev.2.symm⟩⟩
+        | some c =>
+          simp only at hev
+          split at hev
+          · simp at hev
+          · rename_i ks hks
+            split at hev
+            · rename_i hle
+              refine ⟨ks, true, Or.inr ⟨c, rfl, hks, hle, rfl⟩, ?_⟩
+              cases ks with
+              | nil =>
+                cases n with
+                | zero => simp [execBlock] at hev
+                | succ m => exact ⟨σ, by simp [execIters, loopInfos, loopInfosFrom], Or.inl ⟨rfl, hev⟩⟩
+              | cons y ys =>
+                simp only at hev
+                split at hev
+                · simp at hev
+                · rename_i σi hi
+                  simp at hev
+                  exact ⟨σi, hi, Or.inr ⟨by simp, hev.1.symm, hev.2.symm⟩⟩
+            · simp at hev
+      clear hev
+      obtain ⟨xs, sized, hflt, σi, hit, hcase⟩ := hphase
+      -- the address behind the loop and the body as it is compiled
+      obtain ⟨E, hEdef⟩ : ∃ E, E = forExit target iter flt body base a := ⟨_, rfl⟩
+      obtain ⟨RB, hRB⟩ : ∃ RB, RB = forBody target iter flt body base a := ⟨_, rfl⟩
+      have hend : E = base + (relForIter target iter flt base a).1.length + 2 + (relTarget target).length + RB.1.1.length + 1 := by
+        rw [hEdef, hRB]; exact forExit_eq _ _ _ _ _ _
+      have hRBeq : RB = relBlock body (base + (relForIter target iter flt base a).1.length + 2 + (relTarget target).length) (relForIter target iter flt base a).2
+          (some ⟨base + (relForIter target iter flt base a).1.length + 1, E, []⟩) := by
+        rw [hRB, hEdef]; rfl
+      -- common prefix of the code: iterable, PushLoop, Iterate, target, body, Jump
+      have hcode : ∃ (rest : List Instr),
+          (relStmt (.forS target iter flt body els) base a lc).1.1 =
+            (relForIter target iter flt base a).1 ++ [.pushLoop 1, .iterate E] ++ relTarget target ++ RB.1.1 ++
+              [.jump (base + (relForIter target iter flt base a).1.length + 1)] ++ rest ∧ RB.1.2.oof = false := by
+        cases els with
+        | nil =>
+          refine ⟨[.popLoopFrame], ?_, ?_⟩
+          · rw [relStmt_for_nil, ← hEdef, ← hRB]; simp
+          · have := hoof; rw [relStmt_for_nil, ← hRB] at this; exact this
+        | cons e0 es =>
+          refine ⟨[.pushDidNotIterate, .popLoopFrame,
+              .jumpIfFalse (E + 3 + (relBlock (e0 :: es) (E + 3) RB.1.2 lc).1.1.length)] ++
+              (relBlock (e0 :: es) (E + 3) RB.1.2 lc).1.1, ?_, ?_⟩
+          · rw [relStmt_for_cons, ← hEdef, ← hRB]; simp
+          · have := hoof; rw [relStmt_for_cons, ← hEdef, ← hRB] at this
+            exact oof_false_of_relBlock this
+      obtain ⟨rest, hcodeEq, hoofb⟩ := hcode
+      have hAt' := hAt
+      rw [hcodeEq] at hAt'
+      have ho1 : (relForIter target iter flt base a).2.oof = false := by
+        rw [hRBeq] at hoofb; exact oof_false_of_relBlock hoofb
+      have hpxs0 : ∀ x, x ∈ xs0 → plain x = true :=
+        (plainL_iff xs0).1 (iterate_plain (evalExpr_plain hrel.1.plain n iter v hs'.1.1.2 hv) hxs)
+      have hpxs : ∀ x, x ∈ xs → plain x = true := by
+        rcases hflt with ⟨_, rfl, _⟩ | ⟨c, _, hfi, _, _⟩
+        · exact hpxs0
+        · exact fun x hx => hpxs0 x (filterItems_sub _ _ _ _ _ _ _ _ hfi x hx)
+      obtain ⟨w, c1, x1, r1, hwit, hwsz⟩ := sim_for_iter hE (X := X) (G := G) (A := A) hv hxs hflt hs'.1.1.2 hsc hs'.1.1.1 hA hne
+        hAt'.left.left.left.left.left ho1 hpc hrel
+      let l0 : LoopSt := { withLoopVar := true, len := if sized then some xs.length else none,
+                           calls := 0, iterated := false, prev := none, cur := none, rest := xs }
+      let f0 : Frame := { locals := [], loop := some l0 }
+      let s2 : VmState := { s with pc := base + (relForIter target iter flt base a).1.length + 1,
+                                   frames := f0 :: s.frames, closures := c1 }
+      have hreach2 : Reach X.K.ctx X.K.C { s with pc := base + (relForIter target iter flt base a).1.length, stack := w :: s.stack, closures := c1 } s2 :=
+        Reach.one' (i := .pushLoop 1) _ hAt'.left.left.left.left.right.head rfl
+          (by simp [MJ.Vm.step, hwit, hwsz, Except.map, s2, l0, f0])
+      have e1 : base + (relForIter target iter flt base a).1.length + 1 + 1 = base + (relForIter target iter flt base a).1.length + 2 := by omega
+      have hrelO : Rel X.K G X.P X.clo σ loc X.env { s2 with frames := s.frames } := hrel.ext _ rfl x1 rfl rfl
+      obtain ⟨s5, r5, hpc5, hst5, htl5, hout5, houtt5, ⟨lf, f5, hlf, hlf5, hitd⟩, hx5⟩ :=
+        ihI X G σ loc σi target body xs (if sized then some xs.length else none) 0 none
+          (by simpa [loopInfos] using hit) A hs'.1.2 hs'.1.1.1 hA hne hpxs (fun v hv => by cases hv)
+          (base + (relForIter target iter flt base a).1.length + 1) E (relForIter target iter flt base a).2 s2 l0 f0 s.frames
+          (by have := hAt'.left.left.left.left.right.tail.head; simpa [Nat.add_assoc] using this)
+          (by rw [e1]; exact At.cast hAt'.left.left.left.right (by simp [Nat.add_assoc]))
+          (by rw [e1, ← hRBeq]; exact At.cast hAt'.left.left.right (by simp only [List.length_append, List.length_cons, List.length_nil]; omega))
+          (by rw [e1, ← hRBeq]; exact hoofb)
+          (by rw [e1, ← hRBeq]; have := hAt'.left.right.head
+              refine Eq.trans (congrArg (fun k => X.K.C[k]?) ?_) this
+              simp only [List.length_append, List.length_cons, List.length_nil]; omega)
+          rfl rfl rfl rfl rfl rfl rfl rfl rfl hrelO
+      have hheap : σi.heap = σ.heap := execIters_heap hit
+      have hx15 : Ext s.closures s5.closures := x1.trans (by simpa [s2] using hx5)
+      have hfr5 : s5.frames = f5 :: s.frames := by
+        cases hf : s5.frames with
+        | nil => rw [hf] at hlf; simp at hlf
+        | cons g5 fs5 => rw [hf] at hlf htl5; simp at hlf htl5; rw [hlf, htl5]
+      -- the relation of the scopes around the loop, for every state with these frames
+      have hrelA : ∀ (s6 : VmState), s6.frames = s.frames → s6.closures = s5.closures → s6.outs = s5.outs →
+          Rel X.K G X.P X.clo σi loc X.env s6 := by
+        intro s6 hf6 hc6 ho6
+        obtain ⟨e15, he15⟩ := hx15
+        refine ⟨?_, by rw [ho6]; exact hout5⟩
+        rw [hheap]
+        exact hrel.1.ext s6 hf6 e15 (by rw [hc6, he15])
+      cases els with
+      | nil =>
+        -- no else branch: PopLoopFrame
+        have hσ : σ' = σi ∧ fl = .normal := by
+          rcases hcase with ⟨hx, hb⟩ | ⟨_, h1, h2⟩
+          · subst hx
+            obtain ⟨rfl, rfl⟩ := execBlock_nil hb
+            cases n with
+            | zero => simp [execBlock] at hb
+            | succ m => simp [execIters, loopInfos, loopInfosFrom] at hit; exact ⟨hit, rfl⟩
+          · exact ⟨h1, h2⟩
+        obtain ⟨rfl, rfl⟩ := hσ
+        have hrest : rest = [.popLoopFrame] := by
+          have := hcodeEq; rw [relStmt_for_nil, ← hEdef, ← hRB] at this
+          simp at this
+          exact this.symm
+        subst hrest
+        let s6 : VmState := { s5 with pc := s5.pc + 1, frames := s5.frames.tail }
+        have hreach6 : Reach X.K.ctx X.K.C s5 s6 :=
+          Reach.one' (i := .popLoopFrame) _ hAt'.right.head
+            (by simp only [hpc5, hend, List.length_append, List.length_cons, List.length_nil]; omega)
+            (by simp [MJ.Vm.step, s6])
+        simp only [Post, if_true]
+        refine ⟨s6, G, r1.trans (hreach2.trans (r5.trans hreach6)), ?_, ?_, hrelA s6 (by simp [s6, htl5]) rfl rfl, ?_, ?_, ?_,
+          ClPres.of_ext (by simpa [s6] using hx15), HeadClos.of_eq (by simp [s6, htl5])⟩
+        · rw [hcodeEq]; simp only [s6, hpc5, hend, List.length_append, List.length_cons, List.length_nil]; omega
+        · simp [s6, hst5, s2]
+        · simp [s6, houtt5, s2]
+        · simp [s6, htl5]
+        · simp [s6, htl5]
+      | cons e0 es =>
+        -- the shape of the code behind the loop
+        have hrest : rest = [.pushDidNotIterate, .popLoopFrame,
+              .jumpIfFalse (E + 3 + (relBlock (e0 :: es) (E + 3) RB.1.2 lc).1.1.length)] ++
+              (relBlock (e0 :: es) (E + 3) RB.1.2 lc).1.1 := by
+          have := hcodeEq; rw [relStmt_for_cons, ← hEdef, ← hRB] at this
+          simp at this
+          exact this.symm
+        have hpre : base + ((relForIter target iter flt base a).1 ++ [Instr.pushLoop 1, Instr.iterate E] ++ relTarget target ++
+            RB.1.1 ++ [Instr.jump (base + (relForIter target iter flt base a).1.length + 1)]).length = E := by
+          simp only [hend, List.length_append, List.length_cons, List.length_nil]; omega
+        have hAtR : At X.K.C E (Instr.pushDidNotIterate :: Instr.popLoopFrame ::
+            Instr.jumpIfFalse (E + 3 + (relBlock (e0 :: es) (E + 3) RB.1.2 lc).1.1.length) ::
+            (relBlock (e0 :: es) (E + 3) RB.1.2 lc).1.1) := by
+          have h := At.cast hAt'.right hpre
+          rw [hrest] at h
+          exact h
+        have hrestLen : rest.length = 3 + (relBlock (e0 :: es) (E + 3) RB.1.2 lc).1.1.length := by
+          rw [hrest]; simp; omega
+        have hoofE : (relBlock (e0 :: es) (E + 3) RB.1.2 lc).1.2.oof = false := by
+          have := hoof; rw [relStmt_for_cons, ← hEdef, ← hRB] at this; exact this
+        -- PushDidNotIterate, PopLoopFrame
+        let s6 : VmState := { s5 with pc := E + 1, stack := .bool (!lf.iterated) :: s5.stack }
+        have hreach6 : Reach X.K.ctx X.K.C s5 s6 :=
+          Reach.one' (i := .pushDidNotIterate) _ hAtR.head hpc5
+            (by simp [MJ.Vm.step, hfr5, currentLoop, hlf5, s6, hpc5])
+        let s7 : VmState := { s6 with pc := E + 2, frames := s.frames }
+        have hreach7 : Reach X.K.ctx X.K.C s6 s7 :=
+          Reach.one' (i := .popLoopFrame) _ hAtR.tail.head (by simp [s6])
+            (by simp [MJ.Vm.step, s7, s6, hfr5])
+        have hj := hAtR.tail.tail.head
+        have hst7 : s7.stack = .bool (!lf.iterated) :: s.stack := by simp [s7, s6, hst5, s2]
+        rcases hcase with ⟨hx, hb⟩ | ⟨hx, h1, h2⟩
+        · -- empty sequence: the else branch runs
+          subst hx
+          have hσi : σi = σ := by
+            cases n with
+            | zero => simp [execBlock] at hb
+            | succ m => simp [execIters, loopInfos, loopInfosFrom] at hit; exact hit.symm
+          subst hσi
+          have hitf : lf.iterated = false := by simpa [l0] using hitd
+          let s8 : VmState := { s7 with pc := E + 3, stack := s.stack }
+          have hreach8 : Reach X.K.ctx X.K.C s7 s8 :=
+            Reach.one' (i := .jumpIfFalse _) _ hj (by simp [s7]) (by simp only [MJ.Vm.step, hst7]; simp [hitf, truthy, s8, s7])
+          have hrel8 : Rel X.K G X.P X.clo σi loc X.env s8 := hrelA s8 (by simp [s8, s7]) (by simp [s8, s7, s6]) (by simp [s8, s7, s6])
+          have hlen8 : s8.outs.length = s.outs.length := by
+            have : s8.outs.tail = s.outs.tail := by simp [s8, s7, s6, houtt5, s2]
+            exact outs_length_of_tail hrel8 hrel this
+          have rpre : Reach X.K.ctx X.K.C s s8 := r1.trans (hreach2.trans (r5.trans (hreach6.trans (hreach7.trans hreach8))))
+          have hcp8 : ClPres s s8 := ClPres.of_ext (by simpa [s8, s7, s6] using hx15)
+          have hhc8 : HeadClos s s8 := HeadClos.of_eq (by simp [s8, s7])
+          have p9 := ihB X (e0 :: es) G σi loc σ' fl hb A lc hs'.2 hA hne (E + 3) _ s8
+              (At.cast hAtR.tail.tail.tail (by omega)) hoofE rfl hrel8 (nCap_le_of hcap hlen8)
+          by_cases hfl : fl = .normal
+          · subst hfl
+            simp only [Post, if_true] at p9 ⊢
+            obtain ⟨s9, G9, r9, hpc9, hst9, hrel9, hout9, htl9, hhd9, hcp9, hhc9⟩ := p9
+            refine ⟨s9, G9, rpre.trans r9, ?_, ?_, hrel9, ?_, ?_, ?_, hcp8.trans hhc8 hcp9, hhc8.trans hcp8.1 hhc9⟩
+            · rw [hpc9, hcodeEq, List.length_append, hrestLen]; omega
+            · simp [hst9, s8]
+            · rw [hout9]; simp [s8, s7, s6, houtt5, s2]
+            · rw [htl9]
+            · rw [hhd9]
+          · exact Post.prefix_nn hfl rpre (by simp [s8]) (by simp [s8, s7]) (by simp [s8, s7])
+              (by simp [s8, s7, s6, houtt5, s2]) hcp8 hhc8 p9
+        · -- at least one iteration: jump over the else branch
+          subst h1; subst h2
+          have hitt : lf.iterated = true := by
+            cases xs with
+            | nil => exact absurd rfl hx
+            | cons y ys => simpa [l0] using hitd
+          let s8 : VmState := { s7 with pc := E + 3 + (relBlock (e0 :: es) (E + 3) RB.1.2 lc).1.1.length, stack := s.stack }
+          have hreach8 : Reach X.K.ctx X.K.C s7 s8 :=
+            Reach.one' (i := .jumpIfFalse _) _ hj (by simp [s7])
+              (by simp only [MJ.Vm.step, hst7]; simp [hitt, truthy, s8, s7])
+          simp only [Post, if_true]
+          refine ⟨s8, G, r1.trans (hreach2.trans (r5.trans (hreach6.trans (hreach7.trans hreach8)))), ?_, ?_,
+            hrelA s8 (by simp [s8, s7]) (by simp [s8, s7, s6]) (by simp [s8, s7, s6]), ?_, ?_, ?_,
+            ClPres.of_ext (by simpa [s8, s7, s6] using hx15), HeadClos.of_eq (by simp [s8, s7])⟩
+          · rw [hcodeEq, List.length_append, hrestLen]; simp only [s8]; omega
+          · simp [s8]
+          · simp [s8, s7, s6, houtt5, s2]
+          · simp [s8, s7]
+          · simp [s8, s7]
+
+/-- the common part of set-blocks and filter-blocks: capture the body, apply the filter chain; the
+result is on the operand stack, the capture buffer is gone -/
+theorem sim_capture {n} (ihB : SimBlock n) (ihF : SimFilters n) (X : SC) (filters : List FilterApp) (body : List Stmt)
+    {G σ loc σ1 fl1 A lc base a s} (hr : execBlock n X.K.ctx (loc ++ X.env) { σ with out := "" } body = .ok (σ1, fl1))
+    (hsf : wfFilters X.K.M X.P A filters = true) (hsb : wfBlock X.K.M X.P A (pushScope .capture lc).isSome body = true)
+    (hA : ABound σ.heap loc A) (hne : loc ≠ [])
+    (hAt : At X.K.C base ([Instr.beginCapture] ++ (relBlock body (base + 1) a (pushScope .capture lc)).1.1 ++ [Instr.endCapture] ++
+      (relFilters filters (base + 1 + (relBlock body (base + 1) a (pushScope .capture lc)).1.1.length + 1)
+        (relBlock body (base + 1) a (pushScope .capture lc)).1.2).1))
+    (hoof : (relFilters filters (base + 1 + (relBlock body (base + 1) a (pushScope .capture lc)).1.1.length + 1)
+        (relBlock body (base + 1) a (pushScope .capture lc)).1.2).2.oof = false)
+    (hpc : s.pc = base) (hrel : Rel X.K G X.P X.clo σ loc X.env s)
+    (hcap : ∀ l, lc = some l → nCap l.scopes < s.outs.length) :
+    (fl1 = .normal → ∀ v, applyFilters n X.K.ctx σ1.heap (loc ++ X.env) (.str σ1.out) filters = .ok v →
+      ∃ s4 G4, Reach X.K.ctx X.K.C s s4 ∧
+        s4.pc = base + 1 + (relBlock body (base + 1) a (pushScope .capture lc)).1.1.length + 1 +
+          (relFilters filters (base + 1 + (relBlock body (base + 1) a (pushScope .capture lc)).1.1.length + 1)
+            (relBlock body (base + 1) a (pushScope .capture lc)).1.2).1.length ∧
+        s4.stack = v :: s.stack ∧ Rel X.K G4 X.P X.clo { heap := σ1.heap, out := σ.out } loc X.env s4 ∧ s4.outs = s.outs ∧
+        s4.frames.tail = s.frames.tail ∧ s4.frames.head?.map Frame.sig = s.frames.head?.map Frame.sig ∧
+        ClPres s s4 ∧ HeadClos s s4) ∧
+    (fl1 ≠ .normal → ∃ l, lc = some l ∧ Unw X { heap := σ1.heap, out := σ.out } s (jumpTarget fl1 l) l.scopes) := by
+  have hoB := oof_false_of_relFilters hoof
+  -- BeginCapture
+  let s1 : VmState := { s with pc := base + 1, outs := "" :: s.outs }
+  have hreach1 : Reach X.K.ctx X.K.C s s1 :=
+    Reach.one (i := .beginCapture) (by rw [hpc]; exact hAt.left.left.left.head) (by simp [MJ.Vm.step, s1, hpc])
+  have hrel1 : Rel X.K G X.P X.clo { σ with out := "" } loc X.env s1 := ⟨hrel.1.same s1 rfl rfl, ⟨s.outs, rfl⟩⟩
+  have p2 := ihB X body G _ loc σ1 fl1 hr A (pushScope .capture lc) hsb hA hne (base + 1) a s1
+      (At.cast hAt.left.left.right (by simp)) hoB rfl hrel1
+      (by intro l' hl'
           cases lc with
           | none => simp [pushScope] at hl'
           | some l =>
             simp only [pushScope, Option.some.injEq] at hl'
             subst hl'
-            have hdrop : s2.frames.drop (nWith l.scopes + 1) = s.frames.drop (nWith l.scopes) := by
-              have e1 : s2.frames.drop (nWith l.scopes + 1) = s2.frames.tail.drop (nWith l.scopes) := by
-                cases s2.frames <;> simp
-              rw [e1, htl2]; rfl
-            refine ⟨l, rfl, s3, hreach1.trans (r2.trans r3), ?_, ?_, ?_, ?_, ?_⟩
-            · rw [hpc3]; cases fl2 <;> rfl
-            · rw [hst3, hst2]
-            · simpa [nWith, hdrop] using htl3
-            · simpa [nWith, hdrop] using hhd3
-            · rw [hout3, hout2]; rfl
-  | breakS =>
-    simp [exec] at hev
-    obtain ⟨rfl, rfl⟩ := hev
+            have := hcap l rfl
+            simp only [nCap, s1, List.length_cons]; omega)
+  constructor
+  · intro hfl1 v hv
+    subst hfl1
+    simp only [Post, if_true] at p2
+    obtain ⟨s2, G2, r2, hpc2, hst2, hrel2, hout2, htl2, hhd2, hcp2, hhc2⟩ := p2
+    obtain ⟨r2out, hr2⟩ := hrel2.2
+    have hr2' : r2out = s.outs := by have := hout2; rw [hr2] at this; simpa [s1] using this
+    subst hr2'
+    -- EndCapture
+    let pB : Nat := base + 1 + (relBlock body (base + 1) a (pushScope .capture lc)).1.1.length + 1
+    let s3 : VmState := { s2 with pc := pB, stack := .str σ1.out :: s.stack, outs := s.outs }
+    have hreach3 : Reach X.K.ctx X.K.C s2 s3 :=
+      Reach.one' (i := .endCapture) _ hAt.left.right.head
+        (by simp only [hpc2, List.length_append, List.length_cons, List.length_nil]; omega)
+        (by obtain ⟨rest0, hr0⟩ := hrel.2
+            simp [MJ.Vm.step, hr2, hr0, s3, pB, hpc2, hst2, s1])
+    have hrel3 : Rel X.K G2 X.P X.clo { heap := σ1.heap, out := σ.out } loc X.env s3 :=
+      ⟨hrel2.1.same s3 rfl rfl, hrel.2⟩
+    have hA3 : ABound σ1.heap loc A := by
+      have := execBlock_keys hr
+      exact hA.mono this
+    obtain ⟨c4, x4, r4⟩ := ihF (X.ectx G2 σ1.heap loc A) filters (.str σ1.out) v hv hsf pB
+      (relBlock body (base + 1) a (pushScope .capture lc)).1.2 s3 s.stack
+      (At.cast hAt.right (by simp only [pB, List.length_append, List.length_cons, List.length_nil]; omega))
+      hoof rfl rfl (hrel3.eok hA3 hne)
+    have hcp12 : ClPres s s2 := (ClPres.of_eq (s := s) (s' := s1) rfl).trans (HeadClos.of_eq rfl) hcp2
+    have hhc12 : HeadClos s s2 := (HeadClos.of_eq (s := s) (s' := s1) rfl).trans (Nat.le_refl _) hhc2
+    refine ⟨{ s3 with pc := pB + (relFilters filters pB (relBlock body (base + 1) a (pushScope .capture lc)).1.2).1.length,
+                       stack := v :: s.stack, closures := c4 }, G2,
+      hreach1.trans (r2.trans (hreach3.trans r4)), rfl, rfl, hrel3.ext _ rfl x4 rfl rfl, rfl, ?_, ?_, ?_, ?_⟩
+    · simpa [s3] using htl2
+    · simpa [s3] using hhd2
+    · exact hcp12.trans hhc12 (ClPres.of_ext (s := s2) (by simpa [s3] using x4))
+    · exact hhc12.trans hcp12.1 (HeadClos.of_eq (by simp [s3]))
+  · intro hfl1
+    simp only [Post, hfl1, if_false] at p2
+    obtain ⟨l', hl', s3, r3, hpc3, hst3, htl3, hhd3, hout3, hlen3, hun3⟩ := p2
     cases lc with
-    | none => simp [simpleStmt] at hs
+    | none => simp [pushScope] at hl'
     | some l =>
-      simp only [relStmt] at hAt ⊢
-      have r1 := leave_reach ctx C l.scopes s (by rw [hpc]; exact hAt.left) (hcap l rfl)
-      have hj := hAt.right.head
-      simp only [Post, if_false, reduceCtorEq]
-      refine ⟨l, rfl, { s with pc := l.exit, frames := s.frames.drop (nWith l.scopes), outs := s.outs.drop (nCap l.scopes) },
-        r1.trans (Reach.one' (i := .jump l.exit) _ hj (by simp [hpc]) (by simp [MJ.Vm.step])), rfl, rfl, rfl, rfl, ?_⟩
-      obtain ⟨rest, hr⟩ := hrel.out
-      simp [hr]
-  | continueS =>
-    simp [exec] at hev
-    obtain ⟨rfl, rfl⟩ := hev
-    cases lc with
-    | none => simp [simpleStmt] at hs
-    | some l =>
-      simp only [relStmt] at hAt ⊢
-      have r1 := leave_reach ctx C l.scopes s (by rw [hpc]; exact hAt.left) (hcap l rfl)
-      have hj := hAt.right.head
-      simp only [Post, if_false, reduceCtorEq]
-      refine ⟨l, rfl, { s with pc := l.iter, frames := s.frames.drop (nWith l.scopes), outs := s.outs.drop (nCap l.scopes) },
-        r1.trans (Reach.one' (i := .jump l.iter) _ hj (by simp [hpc]) (by simp [MJ.Vm.step])), rfl, rfl, rfl, rfl, ?_⟩
-      obtain ⟨rest, hr⟩ := hrel.out
-      simp [hr]
-  | macroS _ _ _ _ _ => simp [simpleStmt] at hs
-  | callBlock _ _ _ _ _ _ => simp [simpleStmt] at hs
-  | forS target iter flt body els =>
-    have hs' : (simpleExpr iter = true ∧ simpleBlock true body = true) ∧ simpleBlock lc.isSome els = true := by
-      cases flt with
-      | none => simpa [simpleStmt] using hs
-      | some c =>
-        have : ((simpleExpr iter = true ∧ simpleExpr c = true) ∧ simpleBlock true body = true) ∧
-            simpleBlock lc.isSome els = true := by
-          simpa [simpleStmt] using hs
-        exact ⟨⟨this.1.1.1, this.1.2⟩, this.2⟩
-    have hsc : ∀ c, flt = some c → simpleExpr c = true := by
-      intro c hc; subst hc
-      have : ((simpleExpr iter = true ∧ simpleExpr c = true) ∧ simpleBlock true body = true) ∧
-          simpleBlock lc.isSome els = true := by
-        simpa [simpleStmt] using hs
-      exact this.1.1.2
-    simp only [exec, bind, Except.bind] at hev
-    split at hev
-    · simp at hev
-    · rename_i v hv
+      simp only [pushScope, Option.some.injEq] at hl'
+      subst hl'
+      refine ⟨l, rfl, s3, hreach1.trans r3, ?_, ?_, ?_, ?_, ?_, hlen3, ?_⟩
+      · rw [hpc3]; cases fl1 <;> rfl
+      · rw [hst3]
+      · simpa [nWith, s1] using htl3
+      · simpa [nWith, s1] using hhd3
+      · obtain ⟨rest, hrr⟩ := hrel.2
+        rw [hout3]; simp [nCap, s1, hrr]
+      · intro c hc hu
+        exact hun3 c hc (by simpa [nWith, s1] using hu)
+
+theorem sim_setBlock {n} (ihB : SimBlock n) (ihF : SimFilters n) (X : SC) (x : String) (filters : List FilterApp) (body : List Stmt) :
+    StmtGoal (n + 1) X (.setBlock x filters body) := by
+  intro G σ loc σ' fl hev A lc hs hA hne base a s hAt hoof hpc hrel hcap
+  have hs' : (¬ x ∈ X.K.M ∧ wfFilters X.K.M X.P A filters = true) ∧ wfBlock X.K.M X.P A (pushScope .capture lc).isSome body = true := by
+    simpa [wfStmt] using hs
+  simp only [exec, bind, Except.bind] at hev
+  split at hev
+  · simp at hev
+  · rename_i r hr
+    obtain ⟨σ1, fl1⟩ := r
+    simp only [relStmt] at hAt hoof ⊢
+    obtain ⟨hnorm, hjump⟩ := sim_capture ihB ihF X filters body hr hs'.1.2 hs'.2 hA hne hAt.left hoof hpc hrel hcap
+    by_cases hfl1 : fl1 = .normal
+    · subst hfl1
+      simp only at hev
       split at hev
       · simp at hev
-      · rename_i xs0 hxs
-        have hphase : ∃ xs sized, ((flt = none ∧ xs = xs0 ∧ sized = isSized v) ∨
-              (∃ c, flt = some c ∧ filterItems n ctx σ.heap stack target c xs0 = .ok xs ∧
-                ((xs.length : Int) ≤ i128Max) ∧ sized = true)) ∧
-            ∃ σi, execIters n ctx stack σ target body (xs.zip (loopInfos sized xs)) = .ok σi ∧
-              ((xs = [] ∧ execBlock n ctx stack σ els = .ok (σ', fl)) ∨ (xs ≠ [] ∧ σ' = σi ∧ fl = .normal)) := by
-          cases flt with
-          | none =>
-            simp only at hev
-            refine ⟨xs0, isSized v, Or.inl ⟨rfl, rfl, rfl⟩, ?_⟩
-            cases xs0 with
-            | nil =>
-              cases n with
-              | zero => simp [execBlock] at hev
-              | succ m => exact ⟨σ, by simp [execIters, loopInfos, loopInfosFrom], Or.inl ⟨rfl, hev⟩⟩
-            | cons y ys =>
-              simp only at hev
-              split at hev
-              · simp at hev
-              · rename_i σi hi
-                simp at hev
-                exact ⟨σi, hi, Or.inr ⟨by simp, hev.1.symm, hev.2.symm⟩⟩
-          | some c =>
-            simp only at hev
-            split at hev
-            · simp at hev
-            · rename_i ks hks
-              split at hev
-              · rename_i hle
-                refine ⟨ks, true, Or.inr ⟨c, rfl, hks, hle, rfl⟩, ?_⟩
-                cases ks with
-                | nil =>
-                  cases n with
-                  | zero => simp [execBlock] at hev
-                  | succ m => exact ⟨σ, by simp [execIters, loopInfos, loopInfosFrom], Or.inl ⟨rfl, hev⟩⟩
-                | cons y ys =>
-                  simp only at hev
-                  split at hev
-                  · simp at hev
-                  · rename_i σi hi
-                    simp at hev
-                    exact ⟨σi, hi, Or.inr ⟨by simp, hev.1.symm, hev.2.symm⟩⟩
-              · simp at hev
-        clear hev
-        obtain ⟨xs, sized, hflt, σi, hit, hcase⟩ := hphase
-        -- the address behind the loop and the body as it is compiled
-        obtain ⟨E, hEdef⟩ : ∃ E, E = forExit target iter flt body base a := ⟨_, rfl⟩
-        obtain ⟨RB, hRB⟩ : ∃ RB, RB = forBody target iter flt body base a := ⟨_, rfl⟩
-        have hend : E = base + (relForIter target iter flt base a).1.length + 2 + (relTarget target).length + RB.1.1.length + 1 := by
-          rw [hEdef, hRB]; exact forExit_eq _ _ _ _ _ _
-        have hRBeq : RB = relBlock body (base + (relForIter target iter flt base a).1.length + 2 + (relTarget target).length) (relForIter target iter flt base a).2
-            (some ⟨base + (relForIter target iter flt base a).1.length + 1, E, []⟩) := by
-          rw [hRB, hEdef]; rfl
-        -- common prefix of the code: iterable, PushLoop, Iterate, target, body, Jump
-        have hcode : ∃ (rest : List Instr),
-            (relStmt (.forS target iter flt body els) base a lc).1.1 =
-              (relForIter target iter flt base a).1 ++ [.pushLoop 1, .iterate E] ++ relTarget target ++ RB.1.1 ++
-                [.jump (base + (relForIter target iter flt base a).1.length + 1)] ++ rest ∧ RB.1.2.oof = false := by
-          cases els with
-          | nil =>
-            refine ⟨[.popLoopFrame], ?_, ?_⟩
-            · rw [relStmt_for_nil, ← hEdef, ← hRB]; simp
-            · have := hoof; rw [relStmt_for_nil, ← hRB] at this; exact this
-          | cons e0 es =>
-            refine ⟨[.pushDidNotIterate, .popLoopFrame,
-                .jumpIfFalse (E + 3 + (relBlock (e0 :: es) (E + 3) RB.1.2 lc).1.1.length)] ++
-                (relBlock (e0 :: es) (E + 3) RB.1.2 lc).1.1, ?_, ?_⟩
-            · rw [relStmt_for_cons, ← hEdef, ← hRB]; simp
-            · have := hoof; rw [relStmt_for_cons, ← hEdef, ← hRB] at this
-              exact oof_false_of_relBlock this
-        obtain ⟨rest, hcodeEq, hoofb⟩ := hcode
-        have hAt' := hAt
-        rw [hcodeEq] at hAt'
-        have ho1 : (relForIter target iter flt base a).2.oof = false := by
-          rw [hRBeq] at hoofb; exact oof_false_of_relBlock hoofb
-        obtain ⟨w, r1, hwit, hwsz⟩ := sim_for_iter hv hxs hflt hs'.1.1 hsc hAt'.left.left.left.left.left ho1 hpc hrel
-        let l0 : LoopSt := { withLoopVar := true, len := if sized then some xs.length else none,
-                             calls := 0, iterated := false, prev := none, cur := none, rest := xs }
-        let s2 : VmState := { s with pc := base + (relForIter target iter flt base a).1.length + 1,
-                                     frames := { locals := [], loop := some l0 } :: s.frames }
-        have hreach2 : Reach ctx C { s with pc := base + (relForIter target iter flt base a).1.length, stack := w :: s.stack } s2 :=
-          Reach.one' (i := .pushLoop 1) _ hAt'.left.left.left.left.right.head rfl
-            (by simp [MJ.Vm.step, hwit, hwsz, Except.map, s2, l0])
-        obtain ⟨c0, rs0, hstack⟩ := hrel.nonempty
-        have e1 : base + (relForIter target iter flt base a).1.length + 1 + 1 = base + (relForIter target iter flt base a).1.length + 2 := by omega
-        obtain ⟨s5, r5, hpc5, hst5, htl5, hout5, houtt5, lf, locf, hlf, hitd⟩ :=
-          ihI ctx stack σ σi target body xs (if sized then some xs.length else none) 0 none
-            (by simpa [loopInfos] using hit) hs'.1.2 C
-            (base + (relForIter target iter flt base a).1.length + 1) E (relForIter target iter flt base a).2 s2 l0 [] s.frames
-            (by have := hAt'.left.left.left.left.right.tail.head; simpa [Nat.add_assoc] using this)
-            (by rw [e1]; exact At.cast hAt'.left.left.left.right (by simp [Nat.add_assoc]))
-            (by rw [e1, ← hRBeq]; exact At.cast hAt'.left.left.right (by simp only [List.length_append, List.length_cons, List.length_nil]; omega))
-            (by rw [e1, ← hRBeq]; exact hoofb)
-            (by rw [e1, ← hRBeq]; have := hAt'.left.right.head
-                refine Eq.trans (congrArg (fun k => C[k]?) ?_) this
-                simp only [List.length_append, List.length_cons, List.length_nil]; omega)
-            rfl rfl rfl rfl rfl rfl rfl hrel.frames hrel.out hrel.bound hrel.nodup ⟨c0, rs0, hstack⟩
-        have hheap : σi.heap = σ.heap := execIters_heap hit
-        have hfr5 : s5.frames = { locals := locf, loop := some lf } :: s.frames := by
-          cases hf : s5.frames with
-          | nil => rw [hf] at hlf; simp at hlf
-          | cons f5 fs5 => rw [hf] at hlf htl5; simp at hlf htl5; rw [hlf, htl5]
-        cases els with
-        | nil =>
-          -- no else branch: PopLoopFrame
-          have hσ : σ' = σi ∧ fl = .normal := by
-            rcases hcase with ⟨hx, hb⟩ | ⟨_, h1, h2⟩
-            · subst hx
-              obtain ⟨rfl, rfl⟩ := execBlock_nil hb
-              cases n with
-              | zero => simp [execBlock] at hb
-              | succ m => simp [execIters, loopInfos, loopInfosFrom] at hit; exact ⟨hit, rfl⟩
-            · exact ⟨h1, h2⟩
-          obtain ⟨rfl, rfl⟩ := hσ
-          have hrest : rest = [.popLoopFrame] := by
-            have := hcodeEq; rw [relStmt_for_nil, ← hEdef, ← hRB] at this
-            simp at this
-            exact this.symm
-          subst hrest
-          let s6 : VmState := { s5 with pc := s5.pc + 1, frames := s5.frames.tail }
-          have hreach6 : Reach ctx C s5 s6 :=
-            Reach.one' (i := .popLoopFrame) _ hAt'.right.head
-              (by simp only [hpc5, hend, List.length_append, List.length_cons, List.length_nil]; omega)
-              (by simp [MJ.Vm.step, s6])
-          simp only [Post, if_true]
-          refine ⟨s6, r1.trans (hreach2.trans (r5.trans hreach6)), ?_, ?_, ?_, ?_, ?_, ?_⟩
-          · rw [hcodeEq]; simp only [s6, hpc5, hend, List.length_append, List.length_cons, List.length_nil]; omega
-          · simp [s6, hst5, s2]
-          · refine ⟨?_, by simpa [s6] using hout5, ?_, hrel.nodup, hrel.nonempty⟩
-            · simp only [s6, htl5, hheap]; exact hrel.frames
-            · simp only [hheap]; exact hrel.bound
-          · simp [s6, houtt5, s2]
-          · simp [s6, htl5]
-          · simp [s6, htl5]
-        | cons e0 es =>
-          -- the shape of the code behind the loop
-          have hrest : rest = [.pushDidNotIterate, .popLoopFrame,
-                .jumpIfFalse (E + 3 + (relBlock (e0 :: es) (E + 3) RB.1.2 lc).1.1.length)] ++
-                (relBlock (e0 :: es) (E + 3) RB.1.2 lc).1.1 := by
-            have := hcodeEq; rw [relStmt_for_cons, ← hEdef, ← hRB] at this
-            simp at this
-            exact this.symm
-          have hpre : base + ((relForIter target iter flt base a).1 ++ [Instr.pushLoop 1, Instr.iterate E] ++ relTarget target ++
-              RB.1.1 ++ [Instr.jump (base + (relForIter target iter flt base a).1.length + 1)]).length = E := by
-            simp only [hend, List.length_append, List.length_cons, List.length_nil]; omega
-          have hAtR : At C E (Instr.pushDidNotIterate :: Instr.popLoopFrame ::
-              Instr.jumpIfFalse (E + 3 + (relBlock (e0 :: es) (E + 3) RB.1.2 lc).1.1.length) ::
-              (relBlock (e0 :: es) (E + 3) RB.1.2 lc).1.1) := by
-            have h := At.cast hAt'.right hpre
-            rw [hrest] at h
-            exact h
-          have hrestLen : rest.length = 3 + (relBlock (e0 :: es) (E + 3) RB.1.2 lc).1.1.length := by
-            rw [hrest]; simp; omega
-          have hoofE : (relBlock (e0 :: es) (E + 3) RB.1.2 lc).1.2.oof = false := by
-            have := hoof; rw [relStmt_for_cons, ← hEdef, ← hRB] at this; exact this
-          -- PushDidNotIterate, PopLoopFrame
-          let s6 : VmState := { s5 with pc := E + 1, stack := .bool (!lf.iterated) :: s5.stack }
-          have hreach6 : Reach ctx C s5 s6 :=
-            Reach.one' (i := .pushDidNotIterate) _ hAtR.head hpc5
-              (by simp [MJ.Vm.step, hfr5, currentLoop, s6, hpc5])
-          let s7 : VmState := { s6 with pc := E + 2, frames := s.frames }
-          have hreach7 : Reach ctx C s6 s7 :=
-            Reach.one' (i := .popLoopFrame) _ hAtR.tail.head (by simp [s6])
-              (by simp [MJ.Vm.step, s7, s6, hfr5])
-          have hj := hAtR.tail.tail.head
-          have hst7 : s7.stack = .bool (!lf.iterated) :: s.stack := by simp [s7, s6, hst5, s2]
-          rcases hcase with ⟨hx, hb⟩ | ⟨hx, h1, h2⟩
-          · -- empty sequence: the else branch runs
-            subst hx
-            have hσi : σi = σ := by
-              cases n with
-              | zero => simp [execBlock] at hb
-              | succ m => simp [execIters, loopInfos, loopInfosFrom] at hit; exact hit.symm
-            subst hσi
-            have hitf : lf.iterated = false := by simpa [l0] using hitd
-            let s8 : VmState := { s7 with pc := E + 3, stack := s.stack }
-            have hreach8 : Reach ctx C s7 s8 :=
-              Reach.one' (i := .jumpIfFalse _) _ hj (by simp [s7]) (by simp only [MJ.Vm.step, hst7]; simp [hitf, truthy, s8, s7])
-            have hrel8 : Rel σi stack s8 :=
-              ⟨by simpa [s8, s7] using hrel.frames, by simpa [s8, s7, s6] using hout5, hrel.bound, hrel.nodup, hrel.nonempty⟩
-            have hlen8 : s8.outs.length = s.outs.length := by
-              have : s8.outs.tail = s.outs.tail := by simp [s8, s7, s6, houtt5, s2]
-              exact outs_length_of_tail hrel8 hrel this
-            have rpre : Reach ctx C s s8 := r1.trans (hreach2.trans (r5.trans (hreach6.trans (hreach7.trans hreach8))))
-            have p9 := ihB (e0 :: es) ctx stack σi σ' fl hb lc hs'.2 C (E + 3) _ s8
-                (At.cast hAtR.tail.tail.tail (by omega)) hoofE rfl hrel8 (nCap_le_of hcap hlen8)
-            by_cases hfl : fl = .normal
-            · subst hfl
-              simp only [Post, if_true] at p9 ⊢
-              obtain ⟨s9, r9, hpc9, hst9, hrel9, hout9, htl9, hhd9⟩ := p9
-              refine ⟨s9, rpre.trans r9, ?_, ?_, hrel9, ?_, ?_, ?_⟩
-              · rw [hpc9, hcodeEq, List.length_append, hrestLen]; omega
-              · simp [hst9, s8]
-              · rw [hout9]; simp [s8, s7, s6, houtt5, s2]
-              · rw [htl9]
-              · rw [hhd9]
-            · exact Post.prefix_nn hfl rpre (by simp [s8]) (by simp [s8, s7]) (by simp [s8, s7])
-                (by simp [s8, s7, s6, houtt5, s2]) p9
-          · -- at least one iteration: jump over the else branch
-            subst h1; subst h2
-            have hitt : lf.iterated = true := by
-              cases xs with
-              | nil => exact absurd rfl hx
-              | cons y ys => simpa [l0] using hitd
-            let s8 : VmState := { s7 with pc := E + 3 + (relBlock (e0 :: es) (E + 3) RB.1.2 lc).1.1.length, stack := s.stack }
-            have hreach8 : Reach ctx C s7 s8 :=
-              Reach.one' (i := .jumpIfFalse _) _ hj (by simp [s7])
-                (by simp only [MJ.Vm.step, hst7]; simp [hitt, truthy, s8, s7])
-            simp only [Post, if_true]
-            refine ⟨s8, r1.trans (hreach2.trans (r5.trans (hreach6.trans (hreach7.trans hreach8)))), ?_, ?_, ?_, ?_, ?_, ?_⟩
-            · rw [hcodeEq, List.length_append, hrestLen]; simp only [s8]; omega
-            · simp [s8]
-            · refine ⟨?_, by simpa [s8, s7, s6] using hout5, ?_, hrel.nodup, hrel.nonempty⟩
-              · simp only [s8, s7, hheap]; exact hrel.frames
-              · simp only [hheap]; exact hrel.bound
-            · simp [s8, s7, s6, houtt5, s2]
-            · simp [s8, s7]
-            · simp [s8, s7]
-  | setBlock x filters body =>
-    have hs' : simpleFilters filters = true ∧ simpleBlock (pushScope .capture lc).isSome body = true := by
-      simpa [simpleStmt] using hs
-    simp only [exec, bind, Except.bind] at hev
-    split at hev
-    · simp at hev
-    · rename_i r hr
-      obtain ⟨σ1, fl1⟩ := r
-      simp only [relStmt] at hAt hoof ⊢
-      have hoB := oof_false_of_relFilters hoof
-      -- BeginCapture
-      let s1 : VmState := { s with pc := base + 1, outs := "" :: s.outs }
-      have hreach1 : Reach ctx C s s1 :=
-        Reach.one (i := .beginCapture) (by rw [hpc]; exact hAt.left.left.left.left.head) (by simp [MJ.Vm.step, s1, hpc])
-      have hrel1 : Rel { σ with out := "" } stack s1 :=
-        ⟨hrel.frames, ⟨s.outs, rfl⟩, hrel.bound, hrel.nodup, hrel.nonempty⟩
-      have p2 := ihB body ctx stack _ σ1 fl1 hr (pushScope .capture lc) hs'.2 C (base + 1) a s1
-          (At.cast hAt.left.left.left.right (by simp)) hoB rfl hrel1
-          (by intro l' hl'
-              cases lc with
-              | none => simp [pushScope] at hl'
-              | some l =>
-                simp only [pushScope, Option.some.injEq] at hl'
-                subst hl'
-                have := hcap l rfl
-                simp only [nCap, s1, List.length_cons]; omega)
-      by_cases hfl1 : fl1 = .normal
-      · subst hfl1
-        simp only [Post, if_true] at p2
-        obtain ⟨s2, r2, hpc2, hst2, hrel2, hout2, htl2, hhd2⟩ := p2
-        simp only at hev
-        obtain ⟨r2out, hr2⟩ := hrel2.out
-        have hr2' : r2out = s.outs := by have := hout2; rw [hr2] at this; simpa [s1] using this
-        subst hr2'
-        -- EndCapture
-        let pB : Nat := base + 1 + (relBlock body (base + 1) a (pushScope .capture lc)).1.1.length + 1
-        let pF : Nat := pB + (relFilters filters pB (relBlock body (base + 1) a (pushScope .capture lc)).1.2).1.length
-        let s3 : VmState := { s2 with pc := pB, stack := .str σ1.out :: s.stack, outs := s.outs }
-        have hreach3 : Reach ctx C s2 s3 :=
-          Reach.one' (i := .endCapture) _ hAt.left.left.right.head
-            (by simp only [hpc2, List.length_append, List.length_cons, List.length_nil]; omega)
-            (by obtain ⟨rest0, hr0⟩ := hrel.out
-                simp [MJ.Vm.step, hr2, hr0, s3, pB, hpc2, hst2, s1])
-        split at hev
-        · simp at hev
-        · rename_i v hv
-          have r4 := ihF filters ctx σ1.heap stack (.str σ1.out) v hv hs'.1 C pB
-            (relBlock body (base + 1) a (pushScope .capture lc)).1.2 s3 s.stack
-            (At.cast hAt.left.right (by simp only [pB, List.length_append, List.length_cons, List.length_nil]; omega))
-            hoof rfl rfl (by simpa [s3] using hrel2.env)
-          obtain ⟨cell, rs, hstack⟩ := hrel.nonempty
-          subst hstack
+      · rename_i v hv
+        obtain ⟨s4, G4, r4, hpc4, hst4, hrel4, hout4, htl4, hhd4, hcp4, hhc4⟩ := hnorm rfl v hv
+        cases loc with
+        | nil => exact absurd rfl hne
+        | cons cell rs =>
           simp [topCell] at hev
           obtain ⟨rfl, rfl⟩ := hev
-          have hrel4 : Rel { heap := σ1.heap, out := σ.out } (cell :: rs) { s3 with pc := pF, stack := v :: s.stack } :=
-            ⟨by simpa [s3] using hrel2.frames, by simpa [s3] using hrel.out, hrel2.bound, hrel.nodup, ⟨cell, rs, rfl⟩⟩
-          let s5 : VmState := { s3 with pc := pF + 1, stack := s.stack, frames := storeLocal x v s2.frames }
-          have hreach5 : Reach ctx C { s3 with pc := pF, stack := v :: s.stack } s5 :=
+          let s5 : VmState := { s4 with pc := s4.pc + 1, stack := s.stack, frames := storeLocal x v s4.frames,
+                                        closures := storeClosure x v s4.frames s4.closures }
+          have hreach5 : Reach X.K.ctx X.K.C s4 s5 :=
             Reach.one' (i := .storeLocal x) _ hAt.right.head
-              (by simp only [pF, pB, List.length_append, List.length_cons, List.length_nil]; omega)
-              (by simp [MJ.Vm.step, s5, s3])
+              (by simp only [hpc4, List.length_append, List.length_cons, List.length_nil]; omega)
+              (by simp [MJ.Vm.step, s5, hst4])
           simp only [Post, if_true]
-          refine ⟨s5, hreach1.trans (r2.trans (hreach3.trans (r4.trans hreach5))), ?_, rfl, ?_, ?_, ?_, ?_⟩
-          · simp only [s5, pF, pB, List.length_append, List.length_cons, List.length_nil]; omega
-          · exact hrel4.store x v s5 rfl rfl
-          · simp [s5, s3]
-          · simp only [s5, storeLocal_tail, htl2]; rfl
-          · simp only [s5, storeLocal_headLoop, hhd2]; rfl
-      · -- `break` / `continue` inside the block: the capture buffer was dropped on the way out
-        have hev' : σ' = { heap := σ1.heap, out := σ.out } ∧ fl = fl1 := by
-          cases fl1
-          · exact absurd rfl hfl1
-          · simp at hev; exact ⟨hev.1.symm, hev.2.symm⟩
-          · simp at hev; exact ⟨hev.1.symm, hev.2.symm⟩
-        obtain ⟨rfl, rfl⟩ := hev'
-        simp only [Post, hfl1, if_false] at p2 ⊢
-        obtain ⟨l', hl', s3, r3, hpc3, hst3, htl3, hhd3, hout3⟩ := p2
-        cases lc with
-        | none => simp [pushScope] at hl'
-        | some l =>
-          simp only [pushScope, Option.some.injEq] at hl'
-          subst hl'
-          refine ⟨l, rfl, s3, hreach1.trans r3, ?_, ?_, ?_, ?_, ?_⟩
-          · rw [hpc3]; cases fl <;> rfl
-          · rw [hst3]
-          · simpa [nWith, s1] using htl3
-          · simpa [nWith, s1] using hhd3
-          · obtain ⟨rest, hr⟩ := hrel.out
-            rw [hout3]; simp [nCap, s1, hr]
-  | filterBlock filters body =>
-    have hs' : simpleFilters filters = true ∧ simpleBlock (pushScope .capture lc).isSome body = true := by
-      simpa [simpleStmt] using hs
-    simp only [exec, bind, Except.bind] at hev
-    split at hev
-    · simp at hev
-    · rename_i r hr
-      obtain ⟨σ1, fl1⟩ := r
-      simp only [relStmt] at hAt hoof ⊢
-      have hoB := oof_false_of_relFilters hoof
-      -- BeginCapture
-      let s1 : VmState := { s with pc := base + 1, outs := "" :: s.outs }
-      have hreach1 : Reach ctx C s s1 :=
-        Reach.one (i := .beginCapture) (by rw [hpc]; exact hAt.left.left.left.left.head) (by simp [MJ.Vm.step, s1, hpc])
-      have hrel1 : Rel { σ with out := "" } stack s1 :=
-        ⟨hrel.frames, ⟨s.outs, rfl⟩, hrel.bound, hrel.nodup, hrel.nonempty⟩
-      have p2 := ihB body ctx stack _ σ1 fl1 hr (pushScope .capture lc) hs'.2 C (base + 1) a s1
-          (At.cast hAt.left.left.left.right (by simp)) hoB rfl hrel1
-          (by intro l' hl'
-              cases lc with
-              | none => simp [pushScope] at hl'
-              | some l =>
-                simp only [pushScope, Option.some.injEq] at hl'
-                subst hl'
-                have := hcap l rfl
-                simp only [nCap, s1, List.length_cons]; omega)
-      by_cases hfl1 : fl1 = .normal
-      · subst hfl1
-        simp only [Post, if_true] at p2
-        obtain ⟨s2, r2, hpc2, hst2, hrel2, hout2, htl2, hhd2⟩ := p2
-        simp only at hev
-        obtain ⟨r2out, hr2⟩ := hrel2.out
-        have hr2' : r2out = s.outs := by have := hout2; rw [hr2] at this; simpa [s1] using this
-        subst hr2'
-        -- EndCapture
-        let pB : Nat := base + 1 + (relBlock body (base + 1) a (pushScope .capture lc)).1.1.length + 1
-        let pF : Nat := pB + (relFilters filters pB (relBlock body (base + 1) a (pushScope .capture lc)).1.2).1.length
-        let s3 : VmState := { s2 with pc := pB, stack := .str σ1.out :: s.stack, outs := s.outs }
-        have hreach3 : Reach ctx C s2 s3 :=
-          Reach.one' (i := .endCapture) _ hAt.left.left.right.head
-            (by simp only [hpc2, List.length_append, List.length_cons, List.length_nil]; omega)
-            (by obtain ⟨rest0, hr0⟩ := hrel.out
-                simp [MJ.Vm.step, hr2, hr0, s3, pB, hpc2, hst2, s1])
-        split at hev
-        · simp at hev
-        · rename_i v hv
-          have r4 := ihF filters ctx σ1.heap stack (.str σ1.out) v hv hs'.1 C pB
-            (relBlock body (base + 1) a (pushScope .capture lc)).1.2 s3 s.stack
-            (At.cast hAt.left.right (by simp only [pB, List.length_append, List.length_cons, List.length_nil]; omega))
-            hoof rfl rfl (by simpa [s3] using hrel2.env)
-          simp at hev
-          obtain ⟨rfl, rfl⟩ := hev
-          let s5 : VmState := { s3 with pc := pF + 1, stack := s.stack, outs := MJ.Vm.appendOut (render v) s.outs }
-          have hreach5 : Reach ctx C { s3 with pc := pF, stack := v :: s.stack } s5 :=
-            Reach.one' (i := .emit) _ hAt.right.head
-              (by simp only [pF, pB, List.length_append, List.length_cons, List.length_nil]; omega)
-              (by simp [MJ.Vm.step, s5, s3])
-          obtain ⟨rest0, hr0⟩ := hrel.out
-          simp only [Post, if_true]
-          refine ⟨s5, hreach1.trans (r2.trans (hreach3.trans (r4.trans hreach5))), ?_, rfl, ?_, ?_, ?_, ?_⟩
-          · simp only [s5, pF, pB, List.length_append, List.length_cons, List.length_nil]; omega
-          · exact ⟨by simpa [s5, s3] using hrel2.frames, ⟨rest0, by simp [s5, hr0, MJ.Vm.appendOut]⟩, hrel2.bound, hrel.nodup, hrel.nonempty⟩
-          · simp [s5, hr0, MJ.Vm.appendOut]
-          · simp only [s5, s3, htl2]; rfl
-          · simp only [s5, s3, hhd2]; rfl
-      · have hev' : σ' = { heap := σ1.heap, out := σ.out } ∧ fl = fl1 := by
-          cases fl1
-          · exact absurd rfl hfl1
-          · simp at hev; exact ⟨hev.1.symm, hev.2.symm⟩
-          · simp at hev; exact ⟨hev.1.symm, hev.2.symm⟩
-        obtain ⟨rfl, rfl⟩ := hev'
-        simp only [Post, hfl1, if_false] at p2 ⊢
-        obtain ⟨l', hl', s3, r3, hpc3, hst3, htl3, hhd3, hout3⟩ := p2
-        cases lc with
-        | none => simp [pushScope] at hl'
-        | some l =>
-          simp only [pushScope, Option.some.injEq] at hl'
-          subst hl'
-          refine ⟨l, rfl, s3, hreach1.trans r3, ?_, ?_, ?_, ?_, ?_⟩
-          · rw [hpc3]; cases fl <;> rfl
-          · rw [hst3]
-          · simpa [nWith, s1] using htl3
-          · simpa [nWith, s1] using hhd3
-          · obtain ⟨rest, hr⟩ := hrel.out
-            rw [hout3]; simp [nCap, s1, hr]
+          have hcp5 : ClPres s4 s5 := ClPres.store x v rfl
+          have hhc5 : HeadClos s4 s5 := HeadClos.of_eq (topClosure_storeLocal _ _ _)
+          refine ⟨s5, G4, r4.trans hreach5, ?_, rfl, ?_, ?_, ?_, ?_, hcp4.trans hhc4 hcp5, hhc4.trans hcp4.1 hhc5⟩
+          · simp only [s5, hpc4, List.length_append, List.length_cons, List.length_nil]; omega
+          · exact hrel4.store x v v (by simp [ValAgree, hs'.1.1])
+              (fun _ => applyFilters_plain hrel4.1.plain n _ filters v rfl hs'.1.2 hv) s5 rfl rfl rfl
+          · simp [s5, hout4]
+          · simp only [s5, storeLocal_tail, htl4]
+          · simp only [s5, storeLocal_headLoop, hhd4]
+    · -- `break` / `continue` inside the block: the capture buffer was dropped on the way out
+      have hev' : σ' = { heap := σ1.heap, out := σ.out } ∧ fl = fl1 := by
+        cases fl1
+        · exact absurd rfl hfl1
+        · simp at hev; exact ⟨hev.1.symm, hev.2.symm⟩
+        · simp at hev; exact ⟨hev.1.symm, hev.2.symm⟩
+      obtain ⟨rfl, rfl⟩ := hev'
+      simp only [Post, hfl1, if_false]
+      exact hjump hfl1
 
-theorem sim_stmt_all : ∀ n, SimStmt n ∧ SimBlock n ∧ SimBinds n ∧ SimIters n ∧ SimFilters n := by
+theorem sim_filterBlock {n} (ihB : SimBlock n) (ihF : SimFilters n) (X : SC) (filters : List FilterApp) (body : List Stmt) :
+    StmtGoal (n + 1) X (.filterBlock filters body) := by
+  intro G σ loc σ' fl hev A lc hs hA hne base a s hAt hoof hpc hrel hcap
+  have hs' : wfFilters X.K.M X.P A filters = true ∧ wfBlock X.K.M X.P A (pushScope .capture lc).isSome body = true := by
+    simpa [wfStmt] using hs
+  simp only [exec, bind, Except.bind] at hev
+  split at hev
+  · simp at hev
+  · rename_i r hr
+    obtain ⟨σ1, fl1⟩ := r
+    simp only [relStmt] at hAt hoof ⊢
+    obtain ⟨hnorm, hjump⟩ := sim_capture ihB ihF X filters body hr hs'.1 hs'.2 hA hne hAt.left hoof hpc hrel hcap
+    by_cases hfl1 : fl1 = .normal
+    · subst hfl1
+      simp only at hev
+      split at hev
+      · simp at hev
+      · rename_i v hv
+        obtain ⟨s4, G4, r4, hpc4, hst4, hrel4, hout4, htl4, hhd4, hcp4, hhc4⟩ := hnorm rfl v hv
+        simp at hev
+        obtain ⟨rfl, rfl⟩ := hev
+        let s5 : VmState := { s4 with pc := s4.pc + 1, stack := s.stack, outs := MJ.Vm.appendOut (render v) s4.outs }
+        have hreach5 : Reach X.K.ctx X.K.C s4 s5 :=
+          Reach.one' (i := .emit) _ hAt.right.head
+            (by simp only [hpc4, List.length_append, List.length_cons, List.length_nil]; omega)
+            (by simp [MJ.Vm.step, s5, hst4])
+        have hr5 := hrel4.appendOut (render v) s5 rfl rfl rfl
+        simp only [Post, if_true]
+        refine ⟨s5, G4, r4.trans hreach5, ?_, rfl, hr5.1, ?_, ?_, ?_, hcp4.trans hhc4 (ClPres.of_eq rfl),
+          hhc4.trans hcp4.1 (HeadClos.of_eq rfl)⟩
+        · simp only [s5, hpc4, List.length_append, List.length_cons, List.length_nil]; omega
+        · rw [hr5.2, hout4]
+        · simpa [s5] using htl4
+        · simpa [s5] using hhd4
+    · have hev' : σ' = { heap := σ1.heap, out := σ.out } ∧ fl = fl1 := by
+        cases fl1
+        · exact absurd rfl hfl1
+        · simp at hev; exact ⟨hev.1.symm, hev.2.symm⟩
+        · simp at hev; exact ⟨hev.1.symm, hev.2.symm⟩
+      obtain ⟨rfl, rfl⟩ := hev'
+      simp only [Post, hfl1, if_false]
+      exact hjump hfl1
+
+/-! ## Macro declarations -/
+
+theorem Rel.lookup {X : SC} {G σ loc s A} (h : Rel X.K G X.P X.clo σ loc X.env s) (hA : ABound σ.heap loc A) (hne : loc ≠ [])
+    {x : String} (hx : allowed X.P A x = true) :
+    ValAgree X.K G s.closures σ.heap.length x ((MJ.Eval.lookup X.K.ctx σ.heap (loc ++ X.env) x).getD .undef)
+      (lookupFrames X.K.ctx s.closures x s.frames) :=
+  (h.eok hA hne).lookup hx
+
+/-- `Enclose` when the closure of the innermost frame is `cls1[c]` (`cls1` = the closures, with a fresh
+empty one appended if the frame had none) -/
+theorem step_enclose {ctx : Scope} {x : String} {s : VmState} {f : Frame} {rest : List Frame} {c : Nat} {cls1 : List Scope}
+    {m : Scope} (hfr : s.frames = f :: rest)
+    (hc : (f.closure = some c ∧ cls1 = s.closures) ∨ (f.closure = none ∧ c = s.closures.length ∧ cls1 = s.closures ++ [[]]))
+    (hm : cls1[c]? = some m) :
+    MJ.Vm.step ctx (.enclose x) s = .ok (if (assocGet x m).isSome = true
+      then { s with pc := s.pc + 1, frames := { f with closure := some c } :: rest, closures := cls1 }
+      else { s with pc := s.pc + 1, frames := { f with closure := some c } :: rest,
+                    closures := cls1.set c (assocSet x (lookupFrames ctx cls1 x ({ f with closure := some c } :: rest)) m) }) := by
+  rcases hc with ⟨hcl, rfl⟩ | ⟨hcl, rfl, rfl⟩
+  · simp only [MJ.Vm.step, encloseStep, hfr, hcl, Option.getD_some, hm]
+    split <;> rfl
+  · simp only [MJ.Vm.step, encloseStep, hfr, hcl, Option.getD_none, hm]
+    split <;> rfl
+
+/-- one `Enclose`: the closure of the innermost frame exists afterwards and holds the name -/
+theorem sim_enclose (X : SC) (x : String) {G σ T locR A s} (hrel : Rel X.K G X.P X.clo σ (T :: locR) X.env s)
+    (hA : ABound σ.heap (T :: locR) A) (hx : allowed X.P A x = true) (hi : X.K.C[s.pc]? = some (.enclose x)) :
+    ∃ s' G', Reach X.K.ctx X.K.C s s' ∧ s'.pc = s.pc + 1 ∧ s'.stack = s.stack ∧ Rel X.K G' X.P X.clo σ (T :: locR) X.env s' ∧
+      s'.outs = s.outs ∧ s'.frames.tail = s.frames.tail ∧ s'.frames.head?.map Frame.sig = s.frames.head?.map Frame.sig ∧
+      ClPres s s' ∧ HeadClos s s' ∧
+      (∃ c m, topClosure s'.frames = some c ∧ s'.closures[c]? = some m ∧ (assocGet x m).isSome = true) := by
+  obtain ⟨locF, tailF, hfr0, hfrel, _, hown1, _⟩ := hrel.1.frames
+  cases locF with
+  | nil => simp [FramesRel] at hfrel
+  | cons f fsR =>
+    have hfr : s.frames = f :: (fsR ++ tailF) := by rw [hfr0]; rfl
+    -- (i) the closure of the frame
+    have hstage : ∃ sa Ga c m, sa.pc = s.pc ∧ sa.stack = s.stack ∧ sa.outs = s.outs ∧
+        sa.frames = { f with closure := some c } :: (fsR ++ tailF) ∧ sa.closures[c]? = some m ∧
+        Rel X.K Ga X.P X.clo σ (T :: locR) X.env sa ∧ ClPres s sa ∧ HeadClos s sa ∧
+        ((f.closure = some c ∧ sa.closures = s.closures) ∨
+          (f.closure = none ∧ c = s.closures.length ∧ sa.closures = s.closures ++ [[]])) := by
+      cases hcl : f.closure with
+      | some c =>
+        have hGc := hown1 0 f c (by simp) hcl
+        obtain ⟨m, hm, _⟩ := hrel.1.closOK c _ hGc
+        refine ⟨s, G, c, m, rfl, rfl, rfl, ?_, hm, hrel, ClPres.refl _, HeadClos.refl _, Or.inl ⟨rfl, rfl⟩⟩
+        rw [hfr]; congr 1; cases f; simp_all
+      | none =>
+        let sa : VmState := { s with frames := { f with closure := some s.closures.length } :: (fsR ++ tailF),
+                                     closures := s.closures ++ [[]] }
+        obtain ⟨hnew, _⟩ := hrel.1.newClosure hfr hcl sa rfl rfl
+        refine ⟨sa, _, s.closures.length, [], rfl, rfl, rfl, rfl, by simp [sa], ⟨hnew, hrel.2⟩, ?_, ?_, Or.inr ⟨rfl, rfl, rfl⟩⟩
+        · exact ClPres.of_ext ⟨[[]], rfl⟩
+        · exact Or.inr ⟨by rw [hfr]; simpa [topClosure] using hcl, s.closures.length, by simp [sa, topClosure], Nat.le_refl _⟩
+    obtain ⟨sa, Ga, c, m, hpca, hsta, houta, hfra, hma, hrela, hcpa, hhca, hcases⟩ := hstage
+    have hstep0 := step_enclose (ctx := X.K.ctx) (x := x) (s := s) (f := f) (rest := fsR ++ tailF) (c := c)
+      (cls1 := sa.closures) (m := m) hfr
+      (by rcases hcases with ⟨h1, h2⟩ | ⟨h1, h2, h3⟩
+          · exact Or.inl ⟨h1, h2⟩
+          · exact Or.inr ⟨h1, h2, h3⟩) hma
+    -- (ii) the entry
+    have hval := hrela.lookup (X := X) hA (by simp) hx
+    have hsaeq : sa = { s with frames := { f with closure := some c } :: (fsR ++ tailF), closures := sa.closures } := by
+      cases sa; simp_all
+    by_cases hin : (assocGet x m).isSome = true
+    · -- already enclosed
+      let s' : VmState := { sa with pc := s.pc + 1 }
+      have hstep : MJ.Vm.step X.K.ctx (.enclose x) s = .ok s' := by
+        rw [hstep0, if_pos hin]; congr 1; simp only [s']; rw [hsaeq]
+      refine ⟨s', Ga, Reach.one hi hstep, rfl, by simp [s', hsta], hrela.same s' rfl rfl rfl, by simp [s', houta],
+        by simp [s', hfra, hfr], by simp [s', hfra, hfr, Frame.sig], hcpa.trans hhca (ClPres.of_eq rfl),
+        hhca.trans hcpa.1 (HeadClos.of_eq rfl), ⟨c, m, by simp [s', hfra, topClosure], by simpa [s'] using hma, hin⟩⟩
+    · let u := lookupFrames X.K.ctx sa.closures x sa.frames
+      let s' : VmState := { sa with pc := s.pc + 1, closures := sa.closures.set c (assocSet x u m) }
+      have hstep : MJ.Vm.step X.K.ctx (.enclose x) s = .ok s' := by
+        rw [hstep0, if_neg hin]; congr 1; simp only [s', u, hfra]; rw [hsaeq]
+      have hrel' : Rel X.K Ga X.P X.clo σ (T :: locR) X.env s' :=
+        ⟨hrela.1.addEntry hfra rfl hma x u hval s' rfl rfl, by simpa [s'] using hrela.2⟩
+      have hlt := lt_of_getElem?_some hma
+      have hcp' : ClPres sa s' := by
+        refine ⟨by simp [s'], ?_, fun i hi hne => ?_⟩
+        · intro i mi hmi
+          by_cases hic : i = c
+          · subst hic
+            rw [hma] at hmi; cases hmi
+            exact ⟨assocSet x u m, by simp [s', hlt], fun y hy => isSome_assocSet x y u m hy⟩
+          · exact ⟨mi, by simp only [s']; rw [List.getElem?_set_ne (Ne.symm hic)]; exact hmi, fun _ h => h⟩
+        · have hic : i ≠ c := by
+            intro e; subst e
+            exact hne (by rw [hfra]; rfl)
+          simp only [s']; rw [List.getElem?_set_ne (Ne.symm hic)]
+      refine ⟨s', Ga, Reach.one hi hstep, rfl, by simp [s', hsta], hrel', by simp [s', houta],
+        by simp [s', hfra, hfr], by simp [s', hfra, hfr, Frame.sig], hcpa.trans hhca hcp',
+        hhca.trans hcpa.1 (HeadClos.of_eq rfl),
+        ⟨c, assocSet x u m, by simp [s', hfra, topClosure], by simp [s', hlt], by simp [assocGet_assocSet_same]⟩⟩
+
+theorem HeadClos.some_stays {s s' : VmState} (h : HeadClos s s') {c : Nat} (hc : topClosure s.frames = some c) :
+    topClosure s'.frames = some c := by
+  rcases h with h | ⟨hn, _⟩
+  · rw [h]; exact hc
+  · rw [hc] at hn; cases hn
+
+/-- the `Enclose` instructions of a declaration -/
+theorem sim_encloses (X : SC) {σ : State} {T : Nat} {locR : List Nat} {A : List String}
+    (hA : ABound σ.heap (T :: locR) A) : ∀ (names : List String) (G : Ghost) (s : VmState),
+    At X.K.C s.pc (names.map Instr.enclose) → Rel X.K G X.P X.clo σ (T :: locR) X.env s →
+    (∀ x ∈ names, allowed X.P A x = true) →
+    ∃ s' G', Reach X.K.ctx X.K.C s s' ∧ s'.pc = s.pc + names.length ∧ s'.stack = s.stack ∧
+      Rel X.K G' X.P X.clo σ (T :: locR) X.env s' ∧
+      s'.outs = s.outs ∧ s'.frames.tail = s.frames.tail ∧ s'.frames.head?.map Frame.sig = s.frames.head?.map Frame.sig ∧
+      ClPres s s' ∧ HeadClos s s' ∧
+      (∀ x ∈ names, ∃ c m, topClosure s'.frames = some c ∧ s'.closures[c]? = some m ∧ (assocGet x m).isSome = true)
+  | [], G, s, _, hrel, _ =>
+    ⟨s, G, Reach.refl _, by simp, rfl, hrel, rfl, rfl, rfl, ClPres.refl _, HeadClos.refl _, fun x hx => by simp at hx⟩
+  | x :: rest, G, s, hAt, hrel, hall => by
+    simp only [List.map_cons] at hAt
+    obtain ⟨s1, G1, r1, hpc1, hst1, hrel1, hout1, htl1, hhd1, hcp1, hhc1, c1, m1, htop1, hm1, hx1⟩ :=
+      sim_enclose X x hrel hA (hall x (by simp)) hAt.head
+    obtain ⟨s2, G2, r2, hpc2, hst2, hrel2, hout2, htl2, hhd2, hcp2, hhc2, hk2⟩ :=
+      sim_encloses X hA rest G1 s1 (by rw [hpc1]; exact hAt.tail) hrel1 (fun y hy => hall y (by simp [hy]))
+    refine ⟨s2, G2, r1.trans r2, by rw [hpc2, hpc1]; simp; omega, hst2.trans hst1, hrel2, hout2.trans hout1, htl2.trans htl1,
+      hhd2.trans hhd1, hcp1.trans hhc1 hcp2, hhc1.trans hcp1.1 hhc2, fun y hy => ?_⟩
+    rcases List.mem_cons.1 hy with rfl | hy'
+    · obtain ⟨m2, hm2, hkeys⟩ := hcp2.2.1 c1 m1 hm1
+      exact ⟨c1, m2, hhc2.some_stays htop1, hm2, hkeys y hx1⟩
+    · exact hk2 y hy'
+
+theorem mem_insertSorted (x y : String) : ∀ (l : List String), y ∈ insertSorted x l ↔ y = x ∨ y ∈ l
+  | [] => by simp [insertSorted]
+  | z :: rest => by
+    simp only [insertSorted]
+    split
+    · simp
+    · simp only [List.mem_cons, mem_insertSorted x y rest]
+      constructor
+      · rintro (h | h | h)
+        · exact Or.inr (Or.inl h)
+        · exact Or.inl h
+        · exact Or.inr (Or.inr h)
+      · rintro (h | h | h)
+        · exact Or.inr (Or.inl h)
+        · exact Or.inl h
+        · exact Or.inr (Or.inr h)
+
+theorem mem_sortNames (y : String) : ∀ (l : List String), y ∈ sortNames l ↔ y ∈ l
+  | [] => by simp [sortNames]
+  | x :: rest => by
+    have ih := mem_sortNames y rest
+    simp only [sortNames, List.foldr_cons] at ih ⊢
+    rw [mem_insertSorted]; simp [ih]
+
+theorem specNames_str (ps : List String) : specNames (ps.map Val.str) = ps := by
+  unfold specNames
+  induction ps with
+  | nil => rfl
+  | cons p rest ih => simp [ih]
+
+theorem macroFlags_flag (fv : List String) : (macroFlags fv / 2 % 2 == 1) = fv.contains "caller" := by
+  unfold macroFlags macroCallerFlag
+  cases fv.contains "caller" <;> simp
+
+/-- a macro declaration expression (`compile_macro_expression`): the jump over the macro's code, the
+`Enclose`s, `GetClosure`, `LoadConst`, `BuildMacro` — the macro object is on the operand stack -/
+theorem sim_macro_expr (X : SC) (name : String) (params : List String) (defaults : List Expr) (body : List Stmt) (uc : Bool)
+    {G : Ghost} {σ : State} {T : Nat} {locR : List Nat} {A : List String} {s : VmState} {base : Nat} {a : Aux}
+    (hfvall : (fvOf params defaults body).all (allowed X.P A) = true)
+    (hwfb : wfMacroBody X.K.M params defaults body uc = true) (hA : ABound σ.heap (T :: locR) A)
+    (Rp : List Instr × Aux) (hRp : Rp = relPrologue (paramDefaults params defaults).reverse (base + 1) a)
+    (Rb : (List Instr × Aux) × List Nat) (hRb : Rb = relBlock body (base + 1 + Rp.1.length) Rp.2 none)
+    (hAt : At X.K.C base (macroDeclCode name params (findMacroClosure params defaults body) base Rp.1 Rb.1.1))
+    (hoof : Rb.1.2.oof = false) (hpc : s.pc = base) (hrel : Rel X.K G X.P X.clo σ (T :: locR) X.env s) :
+    ∃ s5 G2 vm, Reach X.K.ctx X.K.C s s5 ∧
+      s5.pc = base + (macroDeclCode name params (findMacroClosure params defaults body) base Rp.1 Rb.1.1).length ∧
+      s5.stack = vm :: s.stack ∧ Rel X.K G2 X.P X.clo σ (T :: locR) X.env s5 ∧
+      MacroRel X.K G2 s5.closures σ.heap.length vm (.macro name params defaults body uc (T :: (locR ++ X.env))) ∧
+      s5.outs = s.outs ∧ s5.frames.tail = s.frames.tail ∧
+      s5.frames.head?.map Frame.sig = s.frames.head?.map Frame.sig ∧ ClPres s s5 ∧ HeadClos s s5 := by
+  simp only [macroDeclCode] at hAt ⊢
+  -- Jump over the macro
+  let mi : Nat := base + 1 + Rp.1.length + Rb.1.1.length + 1
+  let s1 : VmState := { s with pc := mi }
+  have hreach1 : Reach X.K.ctx X.K.C s s1 :=
+    Reach.one (i := .jump mi) (by rw [hpc]; exact hAt.left.left.left.left.left.head) (by simp [MJ.Vm.step, s1])
+  have hrel1 : Rel X.K G X.P X.clo σ (T :: locR) X.env s1 := hrel.same s1 rfl rfl rfl
+  -- the `Enclose`s
+  have hAtE : At X.K.C s1.pc ((sortNames (fvOf params defaults body)).map Instr.enclose) := by
+    have := hAt.left.right
+    refine At.cast this ?_
+    simp only [s1, mi, List.length_append, List.length_cons, List.length_nil]; omega
+  obtain ⟨s2, G2, r2, hpc2, hst2, hrel2, hout2, htl2, hhd2, hcp2, hhc2, hk2⟩ :=
+    sim_encloses X hA (sortNames (fvOf params defaults body)) G s1 hAtE hrel1
+      (fun x hx => by
+        have hx' : x ∈ fvOf params defaults body := (mem_sortNames x _).1 hx
+        exact (List.all_eq_true.1 hfvall) x hx')
+  have hElen : (relEnclose (findMacroClosure params defaults body)).length = (sortNames (fvOf params defaults body)).length := by
+    simp [relEnclose, fvOf]
+  -- GetClosure, LoadConst, BuildMacro
+  let pE : Nat := mi + (relEnclose (findMacroClosure params defaults body)).length
+  have hpc2' : s2.pc = pE := by rw [hpc2]; simp only [s1, pE, hElen]
+  have hAtT : At X.K.C pE [Instr.getClosure, Instr.loadConst (Val.list (params.map Val.str)),
+      Instr.buildMacro name (base + 1) (macroFlags (findMacroClosure params defaults body))] := by
+    refine At.cast hAt.right ?_
+    simp only [pE, mi, List.length_append, List.length_cons, List.length_nil]; omega
+  let cv : Val := match topClosure s2.frames with | some c => .int c | none => .undef
+  let clo' : Option Nat := topClosure s2.frames
+  have hcv : closureOf cv = clo' := by
+    simp only [cv, clo', closureOf]; cases topClosure s2.frames <;> simp
+  have hst2' : s2.stack = s.stack := by rw [hst2]
+  let s3 : VmState := { s2 with pc := s2.pc + 1, stack := cv :: s2.stack }
+  have r3 : Reach X.K.ctx X.K.C s2 s3 :=
+    Reach.one' (i := .getClosure) _ hAtT.head hpc2' (by simp only [MJ.Vm.step]; rfl)
+  let s4 : VmState := { s2 with pc := s2.pc + 2, stack := .list (params.map Val.str) :: cv :: s2.stack }
+  have r4 : Reach X.K.ctx X.K.C s3 s4 :=
+    Reach.one' (i := .loadConst _) _ hAtT.tail.head (by simp [s3, hpc2']) (by simp [MJ.Vm.step, s3, s4])
+  let vm : Val := .vmMacro name params (base + 1) clo' uc
+  let s5 : VmState := { s2 with pc := s2.pc + 3, stack := vm :: s2.stack }
+  have huc : uc = (findMacroClosure params defaults body).contains "caller" := by
+    have := hwfb; simp only [wfMacroBody, Bool.and_eq_true, beq_iff_eq] at this; exact this.1.1.2
+  have r5 : Reach X.K.ctx X.K.C s4 s5 :=
+    Reach.one' (i := .buildMacro _ _ _) _ hAtT.tail.tail.head (by simp [s4, hpc2'])
+      (by
+        simp only [MJ.Vm.step, s4, specNames_str, macroFlags_flag, ← huc, hcv]
+        rfl)
+  have hrel5 : Rel X.K G2 X.P X.clo σ (T :: locR) X.env s5 := hrel2.same s5 rfl rfl rfl
+  -- the two macro values correspond
+  have hmrel : MacroRel X.K G2 s5.closures σ.heap.length vm (.macro name params defaults body uc (T :: (locR ++ X.env))) := by
+    refine ⟨base + 1, clo', rfl, ⟨a, ?_, ?_⟩, hwfb, fun id hid => hrel.1.bound id (by simpa using hid), ?_, ?_⟩
+    · rw [← hRp, ← hRb]
+      have h4 : At X.K.C base ([Instr.jump mi] ++ (Rp.1 ++ Rb.1.1 ++ [Instr.return_])) := by
+        have := hAt.left.left
+        simpa [List.append_assoc, mi] using this
+      simpa using h4.right
+    · rw [← hRp, ← hRb]; exact hoof
+    · intro c hc
+      obtain ⟨locF, tailF, hfr0, hfrel, _, hown1, _⟩ := hrel2.1.frames
+      cases locF with
+      | nil => simp [FramesRel] at hfrel
+      | cons f0 fsR =>
+        have htop : topClosure s2.frames = f0.closure := by rw [hfr0]; rfl
+        have := hown1 0 f0 c (by simp) (by rw [← htop]; exact hc)
+        simpa using this
+    · intro x hx
+      obtain ⟨c, m, htop, hm, hxs⟩ := hk2 x ((mem_sortNames x _).2 hx)
+      exact ⟨c, m, htop, hm, hxs⟩
+  have hcp12 : ClPres s s2 := (ClPres.of_eq (s := s) (s' := s1) rfl).trans (HeadClos.of_eq rfl) hcp2
+  have hhc12 : HeadClos s s2 := (HeadClos.of_eq (s := s) (s' := s1) rfl).trans (Nat.le_refl _) hhc2
+  have hcp25 : ClPres s2 s5 := ClPres.of_eq rfl
+  have hhc25 : HeadClos s2 s5 := HeadClos.of_eq rfl
+  refine ⟨s5, G2, vm, hreach1.trans (r2.trans (r3.trans (r4.trans r5))), ?_, by simp [s5, hst2'], hrel5, hmrel, ?_, ?_, ?_,
+    hcp12.trans hhc12 hcp25, hhc12.trans hcp12.1 hhc25⟩
+  · simp only [s5, hpc2', pE, mi, List.length_append, List.length_cons, List.length_nil]; omega
+  · simp [s5, hout2, s1]
+  · simp only [s5, htl2]; rfl
+  · simp only [s5, hhd2]; rfl
+
+theorem sim_macro {n} (X : SC) (name : String) (params : List String) (defaults : List Expr) (body : List Stmt) (uc : Bool) :
+    StmtGoal (n + 1) X (.macroS name params defaults body uc) := by
+  intro G σ loc σ' fl hev A lc hs hA hne base a s hAt hoof hpc hrel hcap
+  obtain ⟨hnameM, hfvall, hwfb⟩ := wfStmt_macro hs
+  cases loc with
+  | nil => exact absurd rfl hne
+  | cons T locR =>
+    simp only [exec, bind, Except.bind, List.cons_append, topCell] at hev
+    simp at hev
+    obtain ⟨rfl, rfl⟩ := hev
+    simp only [relStmt] at hAt hoof ⊢
+    obtain ⟨Rp, hRp⟩ : ∃ Rp, Rp = relPrologue (paramDefaults params defaults).reverse (base + 1) a := ⟨_, rfl⟩
+    obtain ⟨Rb, hRb⟩ : ∃ Rb, Rb = relBlock body (base + 1 + Rp.1.length) Rp.2 none := ⟨_, rfl⟩
+    rw [← hRp] at hAt hoof ⊢
+    rw [← hRb] at hAt hoof ⊢
+    obtain ⟨s5, G2, vm, r5, hpc5, hst5, hrel5, hmrel, hout5, htl5, hhd5, hcp5, hhc5⟩ :=
+      sim_macro_expr X name params defaults body uc hfvall hwfb hA Rp hRp Rb hRb hAt.left hoof hpc hrel
+    -- StoreLocal
+    let s6 : VmState := { s5 with pc := s5.pc + 1, stack := s.stack, frames := storeLocal name vm s5.frames,
+                                  closures := storeClosure name vm s5.frames s5.closures }
+    have r6 : Reach X.K.ctx X.K.C s5 s6 :=
+      Reach.one' (i := .storeLocal name) _ hAt.right.head hpc5 (by simp [MJ.Vm.step, hst5, s6])
+    have hnM : name ∈ X.K.M := by simpa using hnameM
+    have hrel6 : Rel X.K G2 X.P X.clo { σ with heap := heapSet σ.heap T name (.macro name params defaults body uc (T :: (locR ++ X.env))) }
+        (T :: locR) X.env s6 :=
+      hrel5.store name _ vm (by simp only [ValAgree, if_pos hnM]; exact hmrel) (fun h => absurd hnM h) s6 rfl rfl rfl
+    have hcp56 : ClPres s5 s6 := ClPres.store name vm rfl
+    have hhc56 : HeadClos s5 s6 := HeadClos.of_eq (topClosure_storeLocal _ _ _)
+    simp only [Post, if_true]
+    refine ⟨s6, G2, r5.trans r6, ?_, rfl, hrel6, ?_, ?_, ?_, hcp5.trans hhc5 hcp56, hhc5.trans hcp5.1 hhc56⟩
+    · simp only [s6, hpc5, List.length_append, List.length_cons, List.length_nil]; omega
+    · simp [s6, hout5]
+    · simp only [s6, storeLocal_tail, htl5]
+    · simp only [s6, storeLocal_headLoop, hhd5]
+
+/-! ## Macro calls -/
+
+theorem any_key_congr {m kw : List (String × Val)} (h : ∀ k, assocGet k m = assocGet k kw) (g : String → Bool) :
+    m.any (fun p => g p.1) = kw.any (fun p => g p.1) := by
+  have key : ∀ (a b : List (String × Val)), (∀ k, assocGet k a = assocGet k b) → a.any (fun p => g p.1) = true →
+      b.any (fun p => g p.1) = true := by
+    intro a b hab ha
+    obtain ⟨⟨k, v⟩, hmem, hg⟩ := List.any_eq_true.1 ha
+    obtain ⟨w, hw⟩ := MJ.ArgBind.assocGet_some_of_mem hmem
+    rw [hab k] at hw
+    exact List.any_eq_true.2 ⟨(k, w), MJ.ArgBind.assocGet_mem hw, hg⟩
+  cases h1 : m.any (fun p => g p.1) with
+  | true => exact (key m kw h h1).symm
+  | false =>
+    cases h2 : kw.any (fun p => g p.1) with
+    | false => rfl
+    | true => rw [key kw m (fun k => (h k).symm) h2] at h1; cases h1
+
+theorem bindArgs_congr (params : List String) (uc : Bool) (pos : List Val) {m kw : List (String × Val)}
+    (h : ∀ k, assocGet k m = assocGet k kw) : bindArgs params uc pos m = bindArgs params uc pos kw := by
+  simp only [bindArgs]
+  rw [MJ.ArgBind.bindParams_congr params pos m kw (fun p _ => h p),
+    any_key_congr h (fun k => !(params.contains k) && !(uc && k == "caller")), h "caller"]
+
+theorem eq_dropLast_append {α : Type} : ∀ (l : List α) (a : α), l.getLast? = some a → l = l.dropLast ++ [a]
+  | [], a, h => by simp at h
+  | [x], a, h => by simp at h; subst h; rfl
+  | x :: y :: rest, a, h => by
+    have ih := eq_dropLast_append (y :: rest) a (by simpa [List.getLast?_cons_cons] using h)
+    simp only [List.dropLast_cons₂, List.cons_append]
+    rw [← ih]
+
+theorem any_key_congr' {m kw : List (String × Val)} (h : ∀ k, (assocGet k m).isSome = (assocGet k kw).isSome) (g : String → Bool) :
+    m.any (fun p => g p.1) = kw.any (fun p => g p.1) := by
+  have key : ∀ (a b : List (String × Val)), (∀ k, (assocGet k a).isSome = (assocGet k b).isSome) → a.any (fun p => g p.1) = true →
+      b.any (fun p => g p.1) = true := by
+    intro a b hab ha
+    obtain ⟨⟨k, v⟩, hmem, hg⟩ := List.any_eq_true.1 ha
+    obtain ⟨w, hw⟩ := MJ.ArgBind.assocGet_some_of_mem hmem
+    have hb : (assocGet k b).isSome = true := by rw [← hab k, hw]; rfl
+    cases hb' : assocGet k b with
+    | none => rw [hb'] at hb; cases hb
+    | some w' => exact List.any_eq_true.2 ⟨(k, w'), MJ.ArgBind.assocGet_mem hb', hg⟩
+  cases h1 : m.any (fun p => g p.1) with
+  | true => exact (key m kw h h1).symm
+  | false =>
+    cases h2 : kw.any (fun p => g p.1) with
+    | false => rfl
+    | true => rw [key kw m (fun k => (h k).symm) h2] at h1; cases h1
+
+/-- keyword bundles with the same keys that agree on the parameters bind alike -/
+theorem bindArgs_rel (params : List String) (uc : Bool) (pos : List Val) {m kw : List (String × Val)}
+    (hk : ∀ k, k ≠ "caller" → assocGet k m = assocGet k kw)
+    (hc : (assocGet "caller" m).isSome = (assocGet "caller" kw).isSome) (hpc : "caller" ∉ params)
+    {bound : List (String × Val)} {caller : Option Val} (h : bindArgs params uc pos kw = .ok (bound, caller)) :
+    bindArgs params uc pos m = .ok (bound, if uc then some ((assocGet "caller" m).getD .undef) else none) ∧
+      caller = (if uc then some ((assocGet "caller" kw).getD .undef) else none) := by
+  have hsome : ∀ k, (assocGet k m).isSome = (assocGet k kw).isSome := by
+    intro k
+    by_cases e : k = "caller"
+    · subst e; exact hc
+    · rw [hk k e]
+  simp only [bindArgs] at h ⊢
+  rw [MJ.ArgBind.bindParams_congr params pos m kw (fun p hp => hk p (fun e => hpc (e ▸ hp))),
+    any_key_congr' hsome (fun k => !(params.contains k) && !(uc && k == "caller"))]
+  split at h
+  · cases h
+  · split at h
+    · cases h
+    · simp only [Except.ok.injEq, Prod.mk.injEq] at h
+      obtain ⟨rfl, rfl⟩ := h
+      rename_i hany
+      rw [if_neg hany]
+      exact ⟨rfl, rfl⟩
+
+theorem bindParams_plain : ∀ (params : List String) (pos : List Val) (kw : List (String × Val)) (bound : List (String × Val)),
+    bindParams params pos kw = .ok bound → (∀ v, v ∈ pos → plain v = true) →
+    (∀ k v, k ∈ params → assocGet k kw = some v → plain v = true) → ∀ b, b ∈ bound → plain b.2 = true
+  | [], [], _, bound, h, _, _ => by simp [bindParams] at h; subst h; simp
+  | [], _ :: _, _, _, h, _, _ => by simp [bindParams] at h
+  | p :: ps, [], kw, bound, h, hp, hkw => by
+    simp only [bindParams] at h
+    split at h
+    · rename_i r hr
+      cases h
+      intro b hb
+      rcases List.mem_cons.1 hb with rfl | hb
+      · simp only
+        cases hg : assocGet p kw with
+        | none => rfl
+        | some v => exact hkw p v (by simp) hg
+      · exact bindParams_plain ps [] kw r hr hp (fun k v hk => hkw k v (by simp [hk])) b hb
+    · cases h
+  | p :: ps, a :: as, kw, bound, h, hp, hkw => by
+    simp only [bindParams] at h
+    split at h
+    · cases h
+    · split at h
+      · rename_i r hr
+        cases h
+        intro b hb
+        rcases List.mem_cons.1 hb with rfl | hb
+        · exact hp a (by simp)
+        · exact bindParams_plain ps as kw r hr (fun v hv => hp v (by simp [hv])) (fun k v hk => hkw k v (by simp [hk])) b hb
+      · cases h
+
+/-- the VM's `prepare_args` on the popped values against the binder of the reference semantics on the
+evaluated arguments: the same values for the parameters (plain data), corresponding `caller`s -/
+theorem prepareArgs_rel {K : Cfg} {G : Ghost} {cls : List Scope} {hl : Nat} (spec : List String) (cref : Bool)
+    (hpc : "caller" ∉ spec) {as : List (Option String × Val)} {args : List Val} (h : ArgsRel K G cls hl as args)
+    {bound : List (String × Val)} {caller : Option Val}
+    (hb : bindArgs spec cref (callArgs as).1 (callArgs as).2 = .ok (bound, caller)) :
+    ∃ callerV, prepareArgs spec cref args = .ok (bound.map (·.2), callerV) ∧
+      ((caller = none ∧ callerV = none) ∨
+       (∃ cw cu, caller = some cw ∧ callerV = some cu ∧ MacroRel K G cls hl cu cw)) ∧
+      (∀ b, b ∈ bound → plain b.2 = true) := by
+  rw [callArgs_plain h.1] at hb
+  simp only at hb
+  have hplain : ∀ b, b ∈ bound → plain b.2 = true := by
+    have hb' := hb
+    simp only [bindArgs] at hb'
+    split at hb'
+    · cases hb'
+    · rename_i r hr
+      split at hb'
+      · cases hb'
+      · simp only [Except.ok.injEq, Prod.mk.injEq] at hb'
+        rw [← hb'.1]
+        refine bindParams_plain spec _ _ r hr h.1 (fun k v hk hg => ?_)
+        rcases h.2 with ⟨hkw, _⟩ | ⟨_, m, hrel, _⟩
+        · rw [hkw] at hg; simp [assocGet] at hg
+        · exact (hrel.1 k (fun e => hpc (e ▸ hk))).2 v hg
+  rcases h.2 with ⟨hkw, rfl⟩ | ⟨hkw, m, hrel, rfl⟩
+  · rw [hkw] at hb
+    have hlast : ∀ kvs, (splitArgs as).1.getLast? ≠ some (.kwargs kvs) := by
+      intro kvs hl'
+      have := h.1 _ (List.mem_of_getLast? hl')
+      simp [plain] at this
+    rw [MJ.ArgBind.prepareArgs_positional spec cref _ hlast, hb]
+    refine ⟨caller, rfl, ?_, hplain⟩
+    simp only [bindArgs] at hb
+    split at hb
+    · cases hb
+    · split at hb
+      · cases hb
+      · simp only [Except.ok.injEq, Prod.mk.injEq] at hb
+        cases cref with
+        | false => left; simpa using hb.2.symm
+        | true =>
+          right
+          refine ⟨.undef, .undef, by simpa [assocGet] using hb.2.symm, by simpa [assocGet] using hb.2.symm, rfl⟩
+  · have hcs : (assocGet "caller" m).isSome = (assocGet "caller" (splitArgs as).2).isSome := by
+      rcases hrel.2 with ⟨h1, h2⟩ | ⟨w, u, h1, h2, _⟩
+      · rw [h1, h2]
+      · rw [h1, h2]; rfl
+    obtain ⟨hbm, hcal⟩ := bindArgs_rel spec cref (splitArgs as).1 (fun k hk => (hrel.1 k hk).1) hcs hpc hb
+    rw [MJ.ArgBind.prepareArgs_kwargs, hbm]
+    refine ⟨_, rfl, ?_, hplain⟩
+    cases cref with
+    | false => left; exact ⟨by simpa using hcal, rfl⟩
+    | true =>
+      right
+      simp only [if_true] at hcal ⊢
+      rcases hrel.2 with ⟨h1, h2⟩ | ⟨w, u, h1, h2, hm⟩
+      · exact ⟨.undef, .undef, by rw [hcal, h1]; rfl, by rw [h2]; rfl, rfl⟩
+      · exact ⟨w, u, by rw [hcal, h1]; rfl, by rw [h2]; rfl, hm⟩
+
+theorem defaultOf_nil (params : List String) (i : Nat) : defaultOf params [] i = none := by
+  simp [defaultOf]
+
+theorem bindDefaults_nodefaults : ∀ (n : Nat) (ctx : Scope) (heap : Heap) (cell : Nat) (env : List Nat) (params : List String)
+    (i : Nat) (bound : List (String × Val)) (heap2 : Heap),
+    bindDefaults n ctx heap (cell :: env) params [] i bound = .ok heap2 → heap2 = heapSetAll heap cell bound := by
   intro n
   induction n with
-  | zero =>
-    refine ⟨fun st ctx stack σ σ' fl h => by simp [exec] at h,
-      fun ss ctx stack σ σ' fl h => by simp [execBlock] at h,
-      fun binds ctx stack heap heap' out h => by simp [bindWith] at h,
-      fun ctx stack σ σ' x body xs len idx prev h => by simp [execIters] at h,
-      fun fs ctx heap stack v v' h => by simp [applyFilters] at h⟩
+  | zero => intro ctx heap cell env params i bound heap2 h; simp [bindDefaults] at h
+  | succ m ih =>
+    intro ctx heap cell env params i bound heap2 h
+    cases bound with
+    | nil => simp [bindDefaults] at h; subst h; rfl
+    | cons b rest =>
+      obtain ⟨p, v⟩ := b
+      simp only [bindDefaults, topCell, defaultOf_nil, MJ.ArgBind.slotOf_no_default] at h
+      simp only [heapSetAll]
+      exact ih _ _ _ _ _ _ _ _ h
+
+theorem zipIdx_map_none : ∀ (l : List String) (k n : Nat),
+    (l.zipIdx k).map (fun (x : String × Nat) => (x.1, if n ≤ x.2 then ([] : List Expr)[x.2 - n]? else none)) =
+      l.map fun p => (p, (none : Option Expr))
+  | [], _, _ => rfl
+  | p :: rest, k, n => by
+    simp only [List.zipIdx_cons, List.map_cons]
+    rw [zipIdx_map_none rest (k + 1) n]
+    by_cases h : n ≤ k <;> simp [h]
+
+theorem paramDefaults_nil (params : List String) : paramDefaults params [] = params.map fun p => (p, none) := by
+  unfold paramDefaults
+  exact zipIdx_map_none params 0 _
+
+theorem relPrologue_nodefaults : ∀ (ps : List String) (base : Nat) (a : Aux),
+    relPrologue (ps.map fun p => (p, (none : Option Expr))) base a = (ps.map Instr.storeLocal, a)
+  | [], _, _ => rfl
+  | p :: rest, base, a => by simp [relPrologue, relPrologue_nodefaults rest (base + 1) a]
+
+theorem relTargets_vars : ∀ (ps : List String), relTargets (ps.map Target.var) = ps.map Instr.storeLocal
+  | [] => rfl
+  | p :: rest => by simp [relTargets, relTarget, relTargets_vars rest]
+
+theorem bindTargets_vars : ∀ (bs : List (String × Val)), bindTargets (bs.map fun p => Target.var p.1) (bs.map (·.2)) = .ok bs
+  | [] => rfl
+  | (p, v) :: rest => by simp [bindTargets, bindTarget, bindTargets_vars rest]
+
+/-- cells that answer every lookup alike -/
+def HeapEq (h h' : Heap) : Prop :=
+  h'.length = h.length ∧ ∀ (id : Nat) (c : Scope), h[id]? = some c → ∃ c', h'[id]? = some c' ∧ ∀ x, assocGet x c' = assocGet x c
+
+theorem lookup_heapEq {ctx : Scope} {h h' : Heap} (he : HeapEq h h') (x : String) : ∀ (st : List Nat),
+    (∀ id ∈ st, id < h.length) → MJ.Eval.lookup ctx h' st x = MJ.Eval.lookup ctx h st x
+  | [], _ => rfl
+  | id :: rest, hb => by
+    have hid : id < h.length := hb id (by simp)
+    obtain ⟨c', hc', hag⟩ := he.2 id h[id] (List.getElem?_eq_getElem hid)
+    have ih := lookup_heapEq (ctx := ctx) he x rest (fun i hi => hb i (by simp [hi]))
+    simp only [MJ.Eval.lookup, lookupIn, hc', List.getElem?_eq_getElem hid, Option.bind_some, hag x] at ih ⊢
+    cases assocGet x h[id] with
+    | some v => rfl
+    | none => exact ih
+
+theorem FramesRel.heapEq {K G cls heap heap' clo} (he : HeapEq heap heap') : ∀ {loc : List Nat} {locF : List Frame},
+    FramesRel K G cls heap clo loc locF → FramesRel K G cls heap' clo loc locF
+  | [], [], _ => trivial
+  | [], _ :: _, h => by simp [FramesRel] at h
+  | _ :: _, [], h => by simp [FramesRel] at h
+  | id :: ids, f :: fs, h => by
+    obtain ⟨⟨cell, hc, hag⟩, hctx, hrest⟩ := h
+    obtain ⟨c', hc', hag'⟩ := he.2 id cell hc
+    exact ⟨⟨c', hc', fun x => by rw [hag' x, he.1]; exact hag x⟩, hctx, FramesRel.heapEq he hrest⟩
+
+theorem HRel.heapEq {K G P clo heap heap' loc env s} (h : HRel K G P clo heap loc env s) (he : HeapEq heap heap') :
+    HRel K G P clo heap' loc env s := by
+  obtain ⟨locF, tailF, hfr, hrel, htl, hown1, hown2⟩ := h.frames
+  refine ⟨⟨locF, tailF, hfr, FramesRel.heapEq he hrel, htl, hown1, hown2⟩, ?_, ?_, ?_, ?_, h.nodup, h.below, h.cloG, ?_⟩
+  rotate_right
+  · refine ⟨h.plain.1, fun id c' x v hc' hx hg => ?_⟩
+    have hlt : id < heap.length := by rw [← he.1]; exact lt_of_getElem?_some hc'
+    obtain ⟨c'', hc'', hag⟩ := he.2 id heap[id] (List.getElem?_eq_getElem hlt)
+    rw [hc'] at hc''; cases hc''
+    exact h.plain.2 id heap[id] x v (List.getElem?_eq_getElem hlt) hx (by rw [← hag x]; exact hg)
+  · intro x hx
+    rw [lookup_heapEq he x env (fun id hid => h.bound id (by simp [hid])), he.1]
+    exact h.tail x hx
+  · intro c env' hg
+    obtain ⟨m, hm, hag⟩ := h.closOK c env' hg
+    refine ⟨m, hm, fun x u hx => ?_⟩
+    rw [lookup_heapEq he x env' (h.genv c env' hg), he.1]
+    exact hag x u hx
+  · intro c env' hg id hid; rw [he.1]; exact h.genv c env' hg id hid
+  · intro id hid; rw [he.1]; exact h.bound id hid
+
+theorem assocGet_setAll : ∀ (bs : List (String × Val)) (c : Scope) (x : String), (bs.map (·.1)).Nodup →
+    assocGet x (setAll c bs) = match assocGet x bs with
+      | some v => some v
+      | none => assocGet x c
+  | [], c, x, _ => by simp [setAll, assocGet]
+  | (y, v) :: rest, c, x, hnd => by
+    have hnd' : (rest.map (·.1)).Nodup := (List.nodup_cons.1 (by simpa using hnd)).2
+    have hy : y ∉ rest.map (·.1) := (List.nodup_cons.1 (by simpa using hnd)).1
+    simp only [setAll]
+    rw [assocGet_setAll rest _ x hnd']
+    by_cases hxy : y = x
+    · subst hxy
+      have : assocGet y rest = none := by
+        cases hg : assocGet y rest with
+        | none => rfl
+        | some w => exact absurd (List.mem_map.2 ⟨(y, w), MJ.ArgBind.assocGet_mem hg, rfl⟩) hy
+      simp [assocGet, this, assocGet_assocSet_same]
+    · have hxy' : x ≠ y := fun e => hxy e.symm
+      simp [assocGet, hxy, assocGet_assocSet_other y x v c hxy']
+
+theorem heapSetAll_cell : ∀ (bs : List (String × Val)) (h : Heap) (cell : Nat) (c : Scope), h[cell]? = some c →
+    (heapSetAll h cell bs)[cell]? = some (setAll c bs) ∧ (heapSetAll h cell bs).length = h.length ∧
+      ∀ id, id ≠ cell → (heapSetAll h cell bs)[id]? = h[id]?
+  | [], h, cell, c, hc => ⟨hc, rfl, fun _ _ => rfl⟩
+  | (x, v) :: rest, h, cell, c, hc => by
+    have hlt := lt_of_getElem?_some hc
+    have h1 : (heapSet h cell x v)[cell]? = some (assocSet x v c) := by
+      have := heapSet_getElem?_same h cell x v hlt
+      rw [List.getElem?_eq_getElem hlt] at hc; cases hc; exact this
+    obtain ⟨i1, i2, i3⟩ := heapSetAll_cell rest (heapSet h cell x v) cell _ h1
+    refine ⟨by simpa [heapSetAll, setAll] using i1, by simp only [heapSetAll]; rw [i2, heapSet_length], fun id hid => ?_⟩
+    simp only [heapSetAll]
+    rw [i3 id hid, heapSet_getElem?_ne _ _ _ _ _ hid]
+
+theorem assocGet_reverse_nodup : ∀ (bs : List (String × Val)) (x : String), (bs.map (·.1)).Nodup →
+    assocGet x bs.reverse = assocGet x bs := by
+  intro bs x hnd
+  induction bs with
+  | nil => rfl
+  | cons b rest ih =>
+    obtain ⟨y, v⟩ := b
+    have hnd' : (rest.map (·.1)).Nodup := (List.nodup_cons.1 (by simpa using hnd)).2
+    have hy : y ∉ rest.map (·.1) := (List.nodup_cons.1 (by simpa using hnd)).1
+    simp only [List.reverse_cons]
+    rw [MJ.ArgBind.assocGet_append, ih hnd']
+    by_cases hxy : y = x
+    · subst hxy
+      have : assocGet y rest = none := by
+        cases hg : assocGet y rest with
+        | none => rfl
+        | some w => exact absurd (List.mem_map.2 ⟨(y, w), MJ.ArgBind.assocGet_mem hg, rfl⟩) hy
+      simp [assocGet, this]
+    · cases h : assocGet x rest <;> simp [assocGet, hxy, h]
+
+theorem nodup_reverse' {α : Type} {l : List α} (h : l.Nodup) : l.reverse.Nodup := by
+  unfold List.Nodup at h ⊢
+  exact List.pairwise_reverse.2 (h.imp (fun hab => fun e => hab e.symm))
+
+/-- binding the parameters back to front (the VM) or front to back (the reference semantics) gives
+cells that answer alike -/
+theorem heapEq_setAll_reverse (h : Heap) (cell : Nat) (c : Scope) (hc : h[cell]? = some c) (bs : List (String × Val))
+    (hnd : (bs.map (·.1)).Nodup) : HeapEq (heapSetAll h cell bs.reverse) (heapSetAll h cell bs) := by
+  have hnd' : (bs.reverse.map (·.1)).Nodup := by
+    rw [List.map_reverse]; exact nodup_reverse' hnd
+  obtain ⟨a1, a2, a3⟩ := heapSetAll_cell bs.reverse h cell c hc
+  obtain ⟨b1, b2, b3⟩ := heapSetAll_cell bs h cell c hc
+  refine ⟨by rw [a2, b2], fun id c0 hc0 => ?_⟩
+  by_cases hid : id = cell
+  · subst hid
+    rw [a1] at hc0; cases hc0
+    refine ⟨_, b1, fun x => ?_⟩
+    rw [assocGet_setAll bs c x hnd, assocGet_setAll bs.reverse c x hnd', assocGet_reverse_nodup bs x hnd]
+  · exact ⟨c0, by rw [b3 id hid, ← a3 id hid]; exact hc0, fun _ => rfl⟩
+
+theorem bindParams_names : ∀ (params : List String) (pos : List Val) (kw : List (String × Val)) (bound),
+    bindParams params pos kw = .ok bound → bound.map (·.1) = params
+  | [], [], _, bound, h => by simp [bindParams] at h; subst h; rfl
+  | [], _ :: _, _, _, h => by simp [bindParams] at h
+  | p :: ps, [], kw, bound, h => by
+    simp only [bindParams] at h
+    split at h
+    · rename_i r hr; simp at h; subst h; simp [bindParams_names ps [] kw r hr]
+    · simp at h
+  | p :: ps, a :: as, kw, bound, h => by
+    simp only [bindParams] at h
+    split at h
+    · simp at h
+    · split at h
+      · rename_i r hr; simp at h; subst h; simp [bindParams_names ps as kw r hr]
+      · simp at h
+
+/-! ### Parameter defaults
+
+The engine binds the parameters back to front (a default is evaluated when the parameters behind it
+are stored, the ones in front of it not yet), the reference semantics front to back.  A default that
+contains no call and reads no parameter (`wfDefault`) cannot tell: `evalExpr_coinc`. -/
+
+/-- `h` answers like `h1` for every name outside `N` -/
+def PD (N : List String) (h1 h : Heap) : Prop :=
+  ∀ (id : Nat) (x : String), x ∉ N → (h[id]?).bind (assocGet x) = (h1[id]?).bind (assocGet x)
+
+theorem PD.refl (N : List String) (h : Heap) : PD N h h := fun _ _ _ => rfl
+
+theorem heapSet_bind_other (h : Heap) (cell id : Nat) (p x : String) (v : Val) (hne : x ≠ p) :
+    ((heapSet h cell p v)[id]?).bind (assocGet x) = (h[id]?).bind (assocGet x) := by
+  by_cases hid : id = cell
+  · subst hid
+    cases hc : h[id]? with
+    | none => simp [heapSet, hc]
+    | some c => exact (heapSet_other h id p x v hne (lt_of_getElem?_some hc)).trans (by rw [hc])
+  · rw [heapSet_getElem?_ne h cell id p v hid]
+
+theorem PD.heapSet {N : List String} {h1 h : Heap} (hp : PD N h1 h) (cell : Nat) {p : String} (hpN : p ∈ N) (v : Val) :
+    PD N h1 (heapSet h cell p v) := by
+  intro id x hx
+  rw [heapSet_bind_other h cell id p x v (fun e => hx (e ▸ hpN))]
+  exact hp id x hx
+
+theorem PD.lookup {N : List String} {h1 h : Heap} (hp : PD N h1 h) (ctx : Scope) (x : String) (hx : x ∉ N) :
+    ∀ (st : List Nat), MJ.Eval.lookup ctx h st x = MJ.Eval.lookup ctx h1 st x
+  | [] => rfl
+  | id :: rest => by
+    have ih := PD.lookup hp ctx x hx rest
+    simp only [MJ.Eval.lookup, lookupIn, hp id x hx] at ih ⊢
+    cases (h1[id]?).bind (assocGet x) with
+    | some v => rfl
+    | none => exact ih
+
+/-- what a parameter holds when the body starts: the value that was passed, or the value of the default
+(evaluated in `heap`) -/
+def DefVal (n : Nat) (ctx : Scope) (heap : Heap) (st : List Nat) (od : Option Expr) (v u : Val) : Prop :=
+  match slotOf v od with
+  | .passed w => u = w
+  | .dflt d => ∃ k, k < n ∧ evalExpr k ctx heap st d = .ok u
+
+theorem DefVal.mono {m n : Nat} {ctx : Scope} {heap : Heap} {st : List Nat} {od : Option Expr} {v u : Val}
+    (h : DefVal m ctx heap st od v u) (hle : m ≤ n) : DefVal n ctx heap st od v u := by
+  unfold DefVal at h ⊢
+  cases hs : slotOf v od with
+  | passed w => rw [hs] at h; exact h
+  | dflt d => rw [hs] at h; obtain ⟨k, hk, he⟩ := h; exact ⟨k, by omega, he⟩
+
+/-- the defaults belong to the last parameters: the two ways to say it -/
+theorem defaultOf_mem {params : List String} {defaults : List Expr} {i : Nat} {d : Expr}
+    (h : defaultOf params defaults i = some d) : d ∈ defaults := by
+  unfold defaultOf at h
+  split at h
+  · exact List.mem_of_getElem? h
+  · cases h
+
+theorem zipIdx_map_defaultOf (params0 : List String) (defaults : List Expr) (hle : defaults.length ≤ params0.length) :
+    ∀ (l : List String) (k : Nat),
+      (l.zipIdx k).map (fun (x : String × Nat) => (x.1, if params0.length - defaults.length ≤ x.2 then defaults[x.2 - (params0.length - defaults.length)]? else none)) =
+      (l.zipIdx k).map (fun (x : String × Nat) => (x.1, defaultOf params0 defaults x.2))
+  | [], _ => rfl
+  | p :: rest, k => by
+    simp only [List.zipIdx_cons, List.map_cons]
+    rw [zipIdx_map_defaultOf params0 defaults hle rest (k + 1)]
+    congr 1
+    simp only [defaultOf]
+    by_cases hk : params0.length - defaults.length ≤ k
+    · have h2 : params0.length ≤ k + defaults.length := by omega
+      have h3 : k - (params0.length - defaults.length) = k + defaults.length - params0.length := by omega
+      simp [hk, h2, h3]
+    · have h2 : ¬ params0.length ≤ k + defaults.length := by omega
+      simp [hk, h2]
+
+theorem paramDefaults_eq (params : List String) (defaults : List Expr) (hle : defaults.length ≤ params.length) :
+    paramDefaults params defaults = (params.zipIdx 0).map fun x => (x.1, defaultOf params defaults x.2) := by
+  unfold paramDefaults
+  exact zipIdx_map_defaultOf params defaults hle params 0
+
+/-- the reference semantics binds the parameters front to back: `items` = (parameter, default, passed
+value, value it holds in the end) -/
+theorem bindDefaults_spec {ctx : Scope} {cell : Nat} {env : List Nat} {params : List String} {defaults : List Expr}
+    {F : List String} {h1 : Heap} (hF : ∀ x, x ∈ F → x ∉ params) (hwf : ∀ d, d ∈ defaults → readsIn F d = true) :
+    ∀ (n : Nat) (h : Heap) (i : Nat) (bound : List (String × Val)) (heap2 : Heap), PD params h1 h →
+      (∀ b, b ∈ bound → b.1 ∈ params) →
+      bindDefaults n ctx h (cell :: env) params defaults i bound = .ok heap2 →
+      ∃ items : List (String × Option Expr × Val × Val),
+        items.map (fun it => (it.1, it.2.2.1)) = bound ∧
+        items.map (fun it => (it.1, it.2.1)) =
+          ((bound.map (·.1)).zipIdx i).map (fun x => (x.1, defaultOf params defaults x.2)) ∧
+        heap2 = heapSetAll h cell (items.map fun it => (it.1, it.2.2.2)) ∧
+        ∀ it, it ∈ items → DefVal n ctx h1 (cell :: env) it.2.1 it.2.2.1 it.2.2.2 := by
+  intro n
+  induction n with
+  | zero => intro h i bound heap2 _ _ hb; simp [bindDefaults] at hb
+  | succ m ih =>
+    intro h i bound heap2 hpd hnames hb
+    cases bound with
+    | nil =>
+      simp [bindDefaults] at hb; subst hb
+      exact ⟨[], rfl, rfl, rfl, fun it hit => by simp at hit⟩
+    | cons b rest =>
+      obtain ⟨p, v⟩ := b
+      have hpN : p ∈ params := hnames (p, v) (by simp)
+      simp only [bindDefaults, topCell] at hb
+      cases hs : slotOf v (defaultOf params defaults i) with
+      | passed w =>
+        rw [hs] at hb
+        simp only at hb
+        obtain ⟨items, hb1, hb2, hheap, hvals⟩ := ih _ (i + 1) rest heap2 (hpd.heapSet cell hpN w)
+          (fun b hb => hnames b (by simp [hb])) hb
+        refine ⟨(p, defaultOf params defaults i, v, w) :: items, by simp [hb1], by simp [hb2, List.zipIdx_cons],
+          by simp [heapSetAll, hheap], fun it hit => ?_⟩
+        rcases List.mem_cons.1 hit with rfl | hit
+        · simp only [DefVal, hs]
+        · exact (hvals it hit).mono (by omega)
+      | dflt d =>
+        rw [hs] at hb
+        simp only at hb
+        cases hd : evalExpr m ctx h (cell :: env) d with
+        | error e => rw [hd] at hb; simp at hb
+        | ok dv =>
+          rw [hd] at hb
+          simp only at hb
+          obtain ⟨items, hb1, hb2, hheap, hvals⟩ := ih _ (i + 1) rest heap2 (hpd.heapSet cell hpN dv)
+            (fun b hb => hnames b (by simp [hb])) hb
+          have hdm : d ∈ defaults := defaultOf_mem ((MJ.ArgBind.slotOf_dflt_iff _ _ _).1 hs).2
+          -- the default does not read a parameter: it has the same value in `h1`
+          have hd1 : evalExpr m ctx h1 (cell :: env) d = .ok dv := by
+            rw [← hd]
+            exact (evalExpr_coinc (fun x hx => hpd.lookup ctx x (hF x hx) (cell :: env)) m d (hwf d hdm)).symm
+          refine ⟨(p, defaultOf params defaults i, v, dv) :: items, by simp [hb1], by simp [hb2, List.zipIdx_cons],
+            by simp [heapSetAll, hheap], fun it hit => ?_⟩
+          rcases List.mem_cons.1 hit with rfl | hit
+          · simp only [DefVal, hs]
+            exact ⟨m, by omega, hd1⟩
+          · exact (hvals it hit).mono (by omega)
+
+theorem Stored.trans {X : SC} {loc : List Nat} {σ1 σ2 : State} {s : VmState} {st1 st2 : List Val} {pc1 pc2 : Nat}
+    (h1 : Stored X loc σ1 s st1 pc1)
+    (h2 : ∀ s1 G1, s1.pc = pc1 → s1.stack = st1 → Rel X.K G1 X.P X.clo σ1 loc X.env s1 → Stored X loc σ2 s1 st2 pc2) :
+    Stored X loc σ2 s st2 pc2 := by
+  obtain ⟨s1, G1, r1, hpc1, hst1, hrel1, hout1, htl1, hhd1, hcp1, hhc1⟩ := h1
+  obtain ⟨s2, G2, r2, hpc2, hst2, hrel2, hout2, htl2, hhd2, hcp2, hhc2⟩ := h2 s1 G1 hpc1 hst1 hrel1
+  exact ⟨s2, G2, r1.trans r2, hpc2, hst2, hrel2, hout2.trans hout1, htl2.trans htl1, hhd2.trans hhd1,
+    hcp1.trans hhc1 hcp2, hhc1.trans hcp1.1 hhc2⟩
+
+/-- code that only works on the operand stack (and calls macros), followed by a store -/
+theorem Stored.of_pushed {X : SC} {G : Ghost} {loc : List Nat} {A : List String} {σ σ' : State} {s : VmState}
+    {pc' : Nat} {st' st : List Val} {endPc : Nat} (hrel : Rel X.K G X.P X.clo σ loc X.env s)
+    (hp : Pushed (X.ectx G σ.heap loc A) s pc' st')
+    (h2 : ∀ s1, s1.pc = pc' → s1.stack = st' → Rel X.K G X.P X.clo σ loc X.env s1 → Stored X loc σ' s1 st endPc) :
+    Stored X loc σ' s st endPc := by
+  obtain ⟨c1, x1, r1⟩ := hp
+  obtain ⟨s2, G2, r2, hpc2, hst2, hrel2, hout2, htl2, hhd2, hcp2, hhc2⟩ :=
+    h2 { s with pc := pc', stack := st', closures := c1 } rfl rfl (hrel.ext _ rfl x1 rfl rfl)
+  have hcp1 : ClPres s { s with pc := pc', stack := st', closures := c1 } := ClPres.of_ext x1
+  have hhc1 : HeadClos s { s with pc := pc', stack := st', closures := c1 } := HeadClos.of_eq rfl
+  exact ⟨s2, G2, r1.trans r2, hpc2, hst2, hrel2, by rw [hout2], htl2, hhd2, hcp1.trans hhc1 hcp2, hhc1.trans hcp1.1 hhc2⟩
+
+theorem Stored.cast {X : SC} {loc : List Nat} {σ σ' : State} {s : VmState} {st : List Val} {p p' : Nat}
+    (h : Stored X loc σ s st p) (hσ : σ = σ') (hp : p = p') : Stored X loc σ' s st p' := by
+  subst hσ; subst hp; exact h
+
+/-- the prologue of a macro, against the final values `u` of the parameters (`DefVal`): `items` are
+(parameter, default, passed value, final value) in the order of the code — last parameter first -/
+theorem sim_prologue {n} (hE : ∀ k, k < n → SimExpr k) (X : SC) (h1 : Heap) (cell : Nat) (N F : List String)
+    (hFN : ∀ x, x ∈ F → x ∉ N) :
+    ∀ (items : List (String × Option Expr × Val × Val)),
+      (∀ it, it ∈ items → it.1 ∈ N ∧ ¬ it.1 ∈ X.K.M ∧ DefVal n X.K.ctx h1 (cell :: X.env) it.2.1 it.2.2.1 it.2.2.2 ∧ plain it.2.2.2 = true ∧
+        ∀ d, it.2.1 = some d → readsIn F d = true ∧ wfExpr X.K.M X.P [] d = true) →
+      ∀ (G : Ghost) (base : Nat) (a : Aux) (s : VmState) (st : List Val) (σ : State),
+        At X.K.C base (relPrologue (items.map fun it => (it.1, it.2.1)) base a).1 →
+        (relPrologue (items.map fun it => (it.1, it.2.1)) base a).2.oof = false → s.pc = base →
+        s.stack = items.map (fun it => it.2.2.1) ++ st → Rel X.K G X.P X.clo σ [cell] X.env s → PD N h1 σ.heap →
+        Stored X [cell] { σ with heap := heapSetAll σ.heap cell (items.map fun it => (it.1, it.2.2.2)) } s st
+          (base + (relPrologue (items.map fun it => (it.1, it.2.1)) base a).1.length)
+  | [], _, G, base, a, s, st, σ, _, _, hpc, hst, hrel, _ =>
+    ⟨s, G, Reach.refl _, by simp [relPrologue, hpc], by simpa using hst, by simpa [heapSetAll] using hrel, rfl, rfl, rfl,
+      ClPres.refl _, HeadClos.refl _⟩
+  | (p, od, v, u) :: rest, hit, G, base, a, s, st, σ, hAt, hoof, hpc, hst, hrel, hpd => by
+    obtain ⟨hpN, hpM, hdv, hpu, hdwf⟩ := hit (p, od, v, u) (by simp)
+    have hit' : ∀ it, it ∈ rest → it.1 ∈ N ∧ ¬ it.1 ∈ X.K.M ∧ DefVal n X.K.ctx h1 (cell :: X.env) it.2.1 it.2.2.1 it.2.2.2 ∧ plain it.2.2.2 = true ∧
+        ∀ d, it.2.1 = some d → readsIn F d = true ∧ wfExpr X.K.M X.P [] d = true := fun it h => hit it (by simp [h])
+    have hok : targetOk X.K.M (.var p) = true := by simpa [targetOk, targetNames] using hpM
+    simp only [List.map_cons, List.cons_append] at hst
+    cases od with
+    | none =>
+      simp only [List.map_cons, relPrologue] at hAt hoof ⊢
+      have hu : u = v := by simpa [DefVal, MJ.ArgBind.slotOf_no_default] using hdv
+      subst hu
+      have h1s := sim_target X (.var p) u [(p, u)] (by simp [bindTarget]) hok hpu G base s
+        (rest.map (fun it => it.2.2.1) ++ st) σ cell [] (by simpa [relTarget] using hAt.left) hpc hst hrel
+      have hrec : ∀ s1 G1, s1.pc = base + (relTarget (.var p)).length → s1.stack = rest.map (fun it => it.2.2.1) ++ st →
+          Rel X.K G1 X.P X.clo { σ with heap := heapSetAll σ.heap cell [(p, u)] } [cell] X.env s1 →
+          Stored X [cell] { heap := heapSetAll (heapSetAll σ.heap cell [(p, u)]) cell (rest.map fun it => (it.1, it.2.2.2)), out := σ.out } s1 st
+            (base + 1 + (relPrologue (rest.map fun it => (it.1, it.2.1)) (base + 1) a).1.length) :=
+        fun s1 G1 hpc1 hst1 hrel1 =>
+          sim_prologue hE X h1 cell N F hFN rest hit' G1 (base + 1) a s1 st { σ with heap := heapSetAll σ.heap cell [(p, u)] }
+            (by simpa [relTarget] using hAt.right) hoof (by simpa [relTarget] using hpc1) hst1 hrel1
+            (by simpa [heapSetAll] using hpd.heapSet cell hpN u)
+      exact (h1s.trans hrec).cast (by simp [heapSetAll]) (by simp; omega)
+    | some d =>
+      obtain ⟨hdr, hdw⟩ := hdwf d rfl
+      simp only [List.map_cons, relPrologue] at hAt hoof ⊢
+      obtain ⟨Rd, hRd⟩ : ∃ Rd, Rd = relExpr d (base + 4) a := ⟨_, rfl⟩
+      rw [← hRd] at hAt hoof ⊢
+      obtain ⟨Rr, hRr⟩ : ∃ Rr, Rr = relPrologue (rest.map fun it => (it.1, it.2.1)) (base + 4 + Rd.1.length + 1) Rd.2 := ⟨_, rfl⟩
+      rw [← hRr] at hAt hoof ⊢
+      have hoofd : Rd.2.oof = false := by
+        cases ho : Rd.2.oof with
+        | false => rfl
+        | true => rw [hRr, relPrologue_oof_mono _ _ _ ho] at hoof; cases hoof
+      have hA0 : ABound σ.heap [cell] [] := by intro x hx; simp at hx
+      let E := X.ectx G σ.heap [cell] []
+      have hAt1 : At X.K.C base ([.dupTop, .isUndefined, .jumpIfFalse (base + 4 + Rd.1.length), .discardTop] ++ Rd.1) :=
+        hAt.left.left
+      have hAtS : At X.K.C (base + 4 + Rd.1.length) (relTarget (.var p)) := by
+        have := hAt.left.right
+        refine At.cast this ?_
+        simp; omega
+      have i0 : X.K.C[base]? = some .dupTop := hAt1.left.head
+      have i1 : X.K.C[base + 1]? = some .isUndefined := hAt1.left.tail.head
+      have i2 : X.K.C[base + 2]? = some (.jumpIfFalse (base + 4 + Rd.1.length)) := by
+        have := hAt1.left.tail.tail.head; simpa [Nat.add_assoc] using this
+      have i3 : X.K.C[base + 3]? = some .discardTop := by
+        have := hAt1.left.tail.tail.tail.head; simpa [Nat.add_assoc] using this
+      have hAtR : At X.K.C (base + 4 + Rd.1.length + 1) Rr.1 := by
+        have := hAt.right
+        refine At.cast this ?_
+        simp; omega
+      -- the two paths to the store
+      have hpush : Pushed E s (base + 4 + Rd.1.length) (u :: rest.map (fun it => it.2.2.1) ++ st) := by
+        have p1 : Pushed E s (base + 1) (v :: v :: rest.map (fun it => it.2.2.1) ++ st) :=
+          Pushed.first (i := .dupTop) (by rw [hpc]; exact i0) (by simp [MJ.Vm.step, hst, hpc])
+        have p2 : Pushed E s (base + 2) (.bool (match v with | .undef => true | _ => false) :: v :: rest.map (fun it => it.2.2.1) ++ st) :=
+          p1.step (i := .isUndefined) i1 (fun c => by simp [MJ.Vm.step]; cases v <;> rfl)
+        by_cases hv : v = .undef
+        · subst hv
+          have hs : slotOf .undef (some d) = .dflt d := rfl
+          obtain ⟨k, hk, hev⟩ : ∃ k, k < n ∧ evalExpr k X.K.ctx h1 (cell :: X.env) d = .ok u := by
+            simpa [DefVal, hs] using hdv
+          have hev' : evalExpr k E.K.ctx E.heap (E.loc ++ E.env) d = .ok u := by
+            rw [← hev]
+            exact evalExpr_coinc (fun x hx => hpd.lookup X.K.ctx x (hFN x hx) (cell :: X.env)) k d hdr
+          have p3 : Pushed E s (base + 3) (.undef :: rest.map (fun it => it.2.2.1) ++ st) :=
+            p2.step (i := .jumpIfFalse (base + 4 + Rd.1.length)) i2 (fun c => by simp [MJ.Vm.step, truthy])
+          have p4 : Pushed E s (base + 4) (rest.map (fun it => it.2.2.1) ++ st) :=
+            p3.step (i := .discardTop) i3 (fun c => by simp [MJ.Vm.step])
+          refine p4.trans (fun c4 x4 => ?_)
+          have hok4 : E.ok { s with pc := base + 4, stack := rest.map (fun it => it.2.2.1) ++ st, closures := c4 } :=
+            (hrel.eok hA0 (by simp)).next x4 _ _
+          have := hE k hk E d u hev' hdw (base + 4) a _ (by rw [← hRd]; exact hAt1.right) (by rw [← hRd]; exact hoofd) rfl hok4
+          rw [← hRd] at this
+          exact this
+        · have hu : u = v := by simpa [DefVal, MJ.ArgBind.slotOf_passed_of_ne_undef v (some d) hv] using hdv
+          subst hu
+          cases u <;> first
+            | exact absurd rfl hv
+            | exact p2.step (i := .jumpIfFalse (base + 4 + Rd.1.length)) i2 (fun c => by simp [MJ.Vm.step, truthy])
+      have hrec : ∀ s2 G2, s2.pc = base + 4 + Rd.1.length + (relTarget (.var p)).length → s2.stack = rest.map (fun it => it.2.2.1) ++ st →
+          Rel X.K G2 X.P X.clo { σ with heap := heapSetAll σ.heap cell [(p, u)] } [cell] X.env s2 →
+          Stored X [cell] { heap := heapSetAll (heapSetAll σ.heap cell [(p, u)]) cell (rest.map fun it => (it.1, it.2.2.2)), out := σ.out } s2 st
+            (base + 4 + Rd.1.length + 1 + Rr.1.length) :=
+        fun s2 G2 hpc2 hst2 hrel2 => by
+          have := sim_prologue hE X h1 cell N F hFN rest hit' G2 (base + 4 + Rd.1.length + 1) Rd.2 s2 st
+            { σ with heap := heapSetAll σ.heap cell [(p, u)] }
+            (by rw [← hRr]; exact hAtR) (by rw [← hRr]; exact hoof) (by simpa [relTarget] using hpc2) hst2 hrel2
+            (by simpa [heapSetAll] using hpd.heapSet cell hpN u)
+          rw [← hRr] at this
+          exact this
+      have hst2 : Stored X [cell] { heap := heapSetAll (heapSetAll σ.heap cell [(p, u)]) cell (rest.map fun it => (it.1, it.2.2.2)), out := σ.out } s st
+          (base + 4 + Rd.1.length + 1 + Rr.1.length) :=
+        Stored.of_pushed hrel hpush (fun s1 hpc1 hst1 hrel1 =>
+          (sim_target X (.var p) u [(p, u)] (by simp [bindTarget]) hok hpu G (base + 4 + Rd.1.length) s1
+            (rest.map (fun it => it.2.2.1) ++ st) σ cell [] hAtS hpc1 (by simpa using hst1) hrel1).trans hrec)
+      exact hst2.cast (by simp [heapSetAll]) (by simp; omega)
+
+theorem slotOf_passed {v : Val} {od : Option Expr} {w : Val} (h : slotOf v od = .passed w) : w = v := by
+  cases v <;> cases od <;> simp [slotOf] at h <;> exact h.symm
+
+/-- the cell / the locals a macro call starts with: the `caller` it was given -/
+def callerCell (c : Option Val) : Scope :=
+  match c with
+  | some c => [("caller", c)]
+  | none => []
+
+theorem sim_call_step {m} (hE : ∀ k, k < m → SimExpr k) (ihB : SimBlock m) : SimCall (m + 1) := by
+  intro K G heap cls w u as args v hcall hmrel hargs hginv hplain
+  cases w <;> try (simp [callValue] at hcall; done)
+  · rename_i name params defaults body uc env
+    obtain ⟨off, clo, hu, ⟨ac, hcodeAt, hcodeOof⟩, hwfb, henvb, hclo, hkeys⟩ := hmrel
+    have hwf : ((((params.Nodup ∧ (∀ p ∈ params, ¬ p ∈ K.M ∧ ¬ p = "caller")) ∧ defaults.length ≤ params.length ∧
+        (∀ d ∈ defaults, wfDefault K.M (fvOf params defaults body) params d = true)) ∧
+        uc = (findMacroClosure params defaults body).contains "caller") ∧ (uc = false ∨ "caller" ∈ K.M)) ∧
+        wfBlock K.M (some (fvOf params defaults body)) (macroBound params uc) false body = true := by
+      simpa [wfMacroBody] using hwfb
+    obtain ⟨⟨⟨⟨⟨hnd, hpM⟩, hdlen, hdwf⟩, _⟩, hucM⟩, hwfbody⟩ := hwf
+    have hpcal : "caller" ∉ params := fun h => (hpM _ h).2 rfl
+    simp only [callValue] at hcall
+    split at hcall
+    · simp at hcall
+    · rename_i bound caller hbind
+      have hcaller : caller = if uc then some ((assocGet "caller" (callArgs as).2).getD .undef) else none := by
+        simp only [bindArgs] at hbind
+        split at hbind
+        · simp at hbind
+        · split at hbind
+          · simp at hbind
+          · simp at hbind; exact hbind.2.symm
+      split at hcall
+      · simp at hcall
+      · rename_i heap2 hdefs
+        split at hcall
+        · simp at hcall
+        · rename_i σ2 hbody
+          simp at hcall; subst hcall
+          -- the VM binds the arguments alike
+          obtain ⟨callerV, hprep, hcrel, hbplain⟩ := prepareArgs_rel params uc hpcal hargs hbind
+          have hnames : bound.map (·.1) = params := by
+            simp only [bindArgs] at hbind
+            split at hbind
+            · simp at hbind
+            · rename_i b hb
+              split at hbind
+              · simp at hbind
+              · simp at hbind; rw [← hbind.1]; exact bindParams_names _ _ _ _ hb
+          -- the context of the call: one cell / frame, holding `caller`
+          let X : SC := { K := K, P := some (fvOf params defaults body), clo := clo, env := env }
+          let cellE : Scope := callerCell caller
+          let fM : Frame := { closureCtx := clo, locals := callerCell callerV }
+          let s0 : VmState := calleeState off clo callerV (bound.map (·.2)) cls
+          have hdefs' : bindDefaults m K.ctx (heap ++ [cellE]) (heap.length :: env) params defaults 0 bound = .ok heap2 := by
+            cases caller <;> exact hdefs
+          have hs0f : s0.frames = [fM, {}] := by cases callerV <;> rfl
+          have hcM : caller ≠ none → "caller" ∈ K.M := by
+            intro hne
+            rcases hucM with h | h
+            · rw [hcaller, h] at hne; simp at hne
+            · exact h
+          have hcellAgree : ∀ x, OptAgree K G cls (heap.length + 1) x (assocGet x cellE) (frameLocal fM x) := by
+            intro x
+            rcases hcrel with ⟨h1, h2⟩ | ⟨cw, cu, h1, h2, hmr⟩
+            · simp only [cellE, fM, h1, h2, callerCell, assocGet, frameLocal]; exact OptAgree.none _ _ _ _ _
+            · have hM : "caller" ∈ K.M := hcM (by rw [h1]; simp)
+              by_cases hx : x = "caller"
+              · subst hx
+                simp only [cellE, fM, h1, h2, callerCell, assocGet, frameLocal, if_true]
+                unfold OptAgree
+                rw [if_pos hM]
+                exact ⟨rfl, fun w u hw hu => by
+                  cases hw; cases hu
+                  exact hmr.mono (GhostLe.refl G) (KeysMono.refl _) (Nat.le_succ _)⟩
+              · have hx' : ¬ "caller" = x := fun e => hx e.symm
+                simp only [cellE, fM, h1, h2, callerCell, assocGet, frameLocal, if_neg hx']; exact OptAgree.none _ _ _ _ _
+          have hplE : PlainSt K.M K.ctx (heap ++ [cellE]) := by
+            refine hplain.push cellE (fun x v hx hg => ?_)
+            cases hc : caller with
+            | none => simp [cellE, hc, callerCell, assocGet] at hg
+            | some cw =>
+              simp only [cellE, hc, callerCell, assocGet] at hg
+              split at hg
+              · rename_i e
+                have hM : "caller" ∈ K.M := hcM (by rw [hc]; simp)
+                rw [e] at hM; exact absurd hM hx
+              · cases hg
+          have hrel0 : Rel K G X.P clo { heap := heap ++ [cellE], out := "" } [heap.length] env s0 :=
+            ⟨HRel.callee hginv.1 hginv.2 (fvOf params defaults body) env clo hclo hkeys henvb cellE fM hcellAgree rfl rfl hplE
+              s0 hs0f rfl, ⟨[], rfl⟩⟩
+          -- the reference semantics: what the parameters hold in the end
+          let F : List String := (fvOf params defaults body).filter fun x => !params.contains x
+          have hFN : ∀ x, x ∈ F → x ∉ params := by
+            intro x hx; simp [F] at hx; exact hx.2
+          obtain ⟨itemsF, hb1, hb2, hheap2, hvals⟩ :=
+            bindDefaults_spec (F := F) (h1 := heap ++ [cellE]) hFN
+              (fun d hd => by have := hdwf d hd; simp only [wfDefault, Bool.and_eq_true] at this; exact this.1)
+              m (heap ++ [cellE]) 0 bound heap2 (PD.refl _ _)
+              (fun b hb => by rw [← hnames]; exact List.mem_map.2 ⟨b, hb, rfl⟩) hdefs'
+          -- the prologue, last parameter first
+          have hpds : (paramDefaults params defaults).reverse = (itemsF.reverse).map fun it => (it.1, it.2.1) := by
+            rw [List.map_reverse, hb2, hnames, paramDefaults_eq params defaults hdlen]
+          rw [hpds] at hcodeAt hcodeOof
+          have hitems : ∀ it, it ∈ itemsF.reverse → it.1 ∈ params ∧ ¬ it.1 ∈ X.K.M ∧
+              DefVal m X.K.ctx (heap ++ [cellE]) (heap.length :: X.env) it.2.1 it.2.2.1 it.2.2.2 ∧ plain it.2.2.2 = true ∧
+              ∀ d, it.2.1 = some d → readsIn F d = true ∧ wfExpr X.K.M X.P [] d = true := by
+            intro it hit
+            have hit' : it ∈ itemsF := List.mem_reverse.1 hit
+            have hp : it.1 ∈ params := by
+              rw [← hnames, ← hb1]
+              simp only [List.map_map]
+              exact List.mem_map.2 ⟨it, hit', rfl⟩
+            have hdw : ∀ d, it.2.1 = some d → readsIn F d = true ∧ wfExpr X.K.M X.P [] d = true := by
+              intro d hd
+              have hmem : (it.1, it.2.1) ∈ ((bound.map (·.1)).zipIdx 0).map (fun x => (x.1, defaultOf params defaults x.2)) := by
+                rw [← hb2]; exact List.mem_map.2 ⟨it, hit', rfl⟩
+              obtain ⟨x, _, hx⟩ := List.mem_map.1 hmem
+              have hdo : defaultOf params defaults x.2 = some d := by
+                have := congrArg Prod.snd hx; simp only at this; rw [this, hd]
+              have := hdwf d (defaultOf_mem hdo)
+              simp only [wfDefault, Bool.and_eq_true] at this
+              exact this
+            refine ⟨hp, (hpM it.1 hp).1, hvals it hit', ?_, hdw⟩
+            have hdv := hvals it hit'
+            unfold DefVal at hdv
+            cases hs : slotOf it.2.2.1 it.2.1 with
+            | passed w =>
+              rw [hs] at hdv
+              rw [hdv, slotOf_passed hs]
+              exact hbplain (it.1, it.2.2.1) (by rw [← hb1]; exact List.mem_map.2 ⟨it, hit', rfl⟩)
+            | dflt d =>
+              rw [hs] at hdv
+              obtain ⟨k, _, hev⟩ := hdv
+              exact evalExpr_plain hplE k d _ (hdw d ((MJ.ArgBind.slotOf_dflt_iff _ _ _).1 hs).2).2 hev
+          have hstk : s0.stack = (itemsF.reverse).map (fun it => it.2.2.1) ++ [] := by
+            simp only [s0, calleeState, List.append_nil, List.map_reverse]
+            rw [← hb1]; simp [List.map_map]
+          obtain ⟨s1, G1, r1, hpc1, hst1, hrel1, hout1, htl1, hhd1, hcp1, hhc1⟩ :=
+            sim_prologue hE X (heap ++ [cellE]) heap.length params F hFN itemsF.reverse hitems G off ac s0 []
+              { heap := heap ++ [cellE], out := "" } hcodeAt.left.left (by
+                cases ho : (relPrologue (itemsF.reverse.map fun it => (it.1, it.2.1)) off ac).2.oof with
+                | false => rfl
+                | true => rw [relBlock_oof_mono body _ _ none ho] at hcodeOof; cases hcodeOof)
+              rfl hstk hrel0 (PD.refl _ _)
+          -- … which is the cell of the reference semantics, up to the order of the bindings
+          have hnmU : (itemsF.map fun it => (it.1, it.2.2.2)).map (·.1) = params := by
+            rw [← hnames, ← hb1]; simp [List.map_map]
+          have hrel2 : Rel K G1 X.P clo { heap := heap2, out := "" } [heap.length] env s1 := by
+            refine ⟨?_, hrel1.2⟩
+            rw [hheap2]
+            have he := heapEq_setAll_reverse (heap ++ [cellE]) heap.length cellE (by simp)
+              (itemsF.map fun it => (it.1, it.2.2.2)) (by rw [hnmU]; exact hnd)
+            rw [← List.map_reverse] at he
+            exact hrel1.1.heapEq he
+          -- the parameters (and `caller`) are bound
+          have hA : ABound heap2 [heap.length] (macroBound params uc) := by
+            rw [hheap2]
+            refine ABound.of_cell (fun x hx => ?_)
+            simp only [macroBound, List.mem_append] at hx
+            rcases hx with hx | hx
+            · have hx' : x ∈ (itemsF.map fun it => (it.1, it.2.2.2)).map (·.1) := by rw [hnmU]; exact hx
+              exact heapSetAll_bound _ (heap ++ [cellE]) heap.length (by simp) x hx'
+            · cases huc : uc with
+              | false => rw [huc] at hx; simp at hx
+              | true =>
+                rw [huc] at hx; simp at hx; subst hx
+                refine HeapLe.heapSetAll _ (heap ++ [cellE]) heap.length heap.length "caller" ⟨cellE, by simp, ?_⟩
+                show (assocGet "caller" (callerCell caller)).isSome = true
+                rw [hcaller, huc]; simp [callerCell, assocGet]
+          -- the body
+          obtain ⟨Rp, hRp⟩ : ∃ Rp, Rp = relPrologue (itemsF.reverse.map fun it => (it.1, it.2.1)) off ac := ⟨_, rfl⟩
+          rw [← hRp] at hcodeAt hcodeOof hpc1
+          have p2 := ihB X body G1 { heap := heap2, out := "" } [heap.length] σ2 .normal hbody (macroBound params uc) none
+            hwfbody hA (by simp) (off + Rp.1.length) Rp.2 s1 hcodeAt.left.right hcodeOof hpc1 hrel2 (by intro l hl; cases hl)
+          simp only [Post, if_true] at p2
+          obtain ⟨s3, G3, r3, hpc3, hst3, hrel3, hout3, htl3, hhd3, hcp3, hhc3⟩ := p2
+          have hret : K.C[s3.pc]? = some .return_ := by
+            have := hcodeAt.right.head
+            rw [hpc3]
+            refine Eq.trans (congrArg (fun k => K.C[k]?) ?_) this
+            simp only [List.length_append]; omega
+          -- the output of the callee
+          have houts : s3.outs = [σ2.out] := by
+            obtain ⟨r3o, hr3o⟩ := hrel3.2
+            have h1 : s3.outs.tail = [] := by rw [hout3, hout1]; simp [s0, calleeState]
+            rw [hr3o] at h1 ⊢
+            simp at h1; rw [h1]
+          have hx03 : Ext s0.closures s3.closures :=
+            (hcp1.trans hhc1 hcp3).ext_of_none (by simp [s0, calleeState, topClosure])
+          exact ⟨name, params, off, clo, uc, bound.map (·.2), callerV, s3, hu, hprep, r1.trans r3, hret, by simp [houts],
+            by simpa [s0, calleeState] using hx03⟩
+        · simp at hcall
+
+/-! ## Call blocks -/
+
+theorem splitArgs_append_kw (as : List (Option String × Val)) (k : String) (v : Val) :
+    splitArgs (as ++ [(some k, v)]) = ((splitArgs as).1, (splitArgs as).2 ++ [(k, v)]) := by
+  simp [splitArgs, List.filterMap_append]
+
+theorem flat_append (a b : List (Val × Val)) : flat (a ++ b) = flat a ++ flat b := by
+  induction a with
+  | nil => rfl
+  | cons p rest ih => obtain ⟨k, v⟩ := p; simp [flat, ih]
+
+theorem flatKw_snoc (kw : List (String × Val)) (k : String) (v : Val) :
+    flatKw (kw ++ [(k, v)]) = flatKw kw ++ [.str k, v] := by
+  unfold flatKw; rw [List.map_append, flat_append]; rfl
+
+theorem assocGet_snoc_other {α : Type} (l : List (String × α)) (k k' : String) (v : α) (h : k' ≠ k) :
+    assocGet k' (l ++ [(k, v)]) = assocGet k' l := by
+  rw [MJ.ArgBind.assocGet_append]
+  cases assocGet k' l with
+  | some _ => rfl
+  | none => simp [assocGet, Ne.symm h]
+
+theorem assocGet_snoc_same {α : Type} (l : List (String × α)) (k : String) (v : α) (h : assocGet k l = none) :
+    assocGet k (l ++ [(k, v)]) = some v := by
+  rw [MJ.ArgBind.assocGet_append, h]; simp [assocGet]
+
+/-- `{% call(params) x(args) %}body{% endcall %}`: the arguments of the call, the `caller` macro made of
+the body, the keyword bundle with the hidden `caller` entry, the call, `Emit` -/
+theorem sim_callBlock {n} (ihPA : SimPosArgs n) (ihKA : SimKwArgs n) (ihCall : SimCall n) (X : SC) (x : String)
+    (args : Args) (params : List String) (defaults : List Expr) (body : List Stmt) (uc : Bool) :
+    StmtGoal (n + 1) X (.callBlock (.var x) args params defaults body uc) := by
+  intro G σ loc σ' fl hev A lc hs hA hne base a s hAt hoof hpc hrel hcap
+  obtain ⟨⟨hxM, hxa, hnd, hnc, hwa⟩, hcM, hfvall, hwfb⟩ := wfStmt_callBlock hs
+  have hxM' : x ∈ X.K.M := by simpa using hxM
+  have hcM' : "caller" ∈ X.K.M := by simpa using hcM
+  cases loc with
+  | nil => exact absurd rfl hne
+  | cons T locR =>
+    simp only [exec, bind, Except.bind] at hev
+    cases hw' : MJ.Eval.lookup X.K.ctx σ.heap (T :: locR ++ X.env) x with
+    | none => rw [hw'] at hev; simp at hev
+    | some w =>
+      rw [hw'] at hev
+      simp only at hev
+      split at hev
+      · simp at hev
+      · rename_i as has
+        split at hev
+        · simp at hev
+        · rename_i v hcall
+          simp at hev
+          obtain ⟨rfl, rfl⟩ := hev
+          obtain ⟨hkeys, hplen, hklen⟩ := evalArgs_keysOf args as has
+          -- the code
+          simp only [relStmt] at hAt hoof ⊢
+          obtain ⟨Ra, hRa⟩ : ∃ Ra, Ra = relPosArgs args base a := ⟨_, rfl⟩
+          rw [← hRa] at hAt hoof ⊢
+          obtain ⟨Rk, hRk⟩ : ∃ Rk, Rk = relKwArgs args (base + Ra.1.length) Ra.2 := ⟨_, rfl⟩
+          rw [← hRk] at hAt hoof ⊢
+          obtain ⟨Rp, hRp⟩ : ∃ Rp, Rp = relPrologue (paramDefaults params defaults).reverse
+              (base + Ra.1.length + Rk.1.length + 1 + 1) Rk.2 := ⟨_, rfl⟩
+          rw [← hRp] at hAt hoof ⊢
+          obtain ⟨Rb, hRb⟩ : ∃ Rb, Rb = relBlock body (base + Ra.1.length + Rk.1.length + 1 + 1 + Rp.1.length) Rp.2 none := ⟨_, rfl⟩
+          rw [← hRb] at hAt hoof ⊢
+          have hoofP : Rp.2.oof = false := by
+            cases ho : Rp.2.oof with
+            | false => rfl
+            | true => rw [hRb, relBlock_oof_mono body _ _ none ho] at hoof; cases hoof
+          have hoofK : Rk.2.oof = false := by
+            cases ho : Rk.2.oof with
+            | false => rfl
+            | true => rw [hRp, relPrologue_oof_mono _ _ _ ho] at hoofP; cases hoofP
+          have hoofA : Ra.2.oof = false := by rw [hRk] at hoofK; exact oof_false_of_relKwArgs hoofK
+          let j : Nat := base + Ra.1.length + Rk.1.length + 1
+          obtain ⟨MD, hMD⟩ : ∃ MD, MD = macroDeclCode "caller" params (findMacroClosure params defaults body) j Rp.1 Rb.1.1 := ⟨_, rfl⟩
+          have hAt' : At X.K.C base ((((Ra.1 ++ Rk.1) ++ [Instr.loadConst (.str "caller")]) ++ MD) ++
+              [.buildKwargs ((kwArgs args).length + 1), .callFunction x ((posArgs args).length + 1), .emit]) := by
+            rw [hMD]; exact hAt
+          -- the arguments
+          let E := X.ectx G σ.heap (T :: locR) A
+          have hok : E.ok s := hrel.eok hA (by simp)
+          have hplA : ∀ v, v ∈ as.map (·.2) → plain v = true := evalArgs_plain hrel.1.plain n args as hwa has
+          have p1 := ihPA E args as has hwa base a s (by rw [← hRa]; exact hAt'.left.left.left.left) (by rw [← hRa]; exact hoofA) hpc hok
+          rw [← hRa] at p1
+          have p2 : Pushed E s (base + Ra.1.length + Rk.1.length)
+              ((flatKw (splitArgs as).2).reverse ++ ((splitArgs as).1.reverse ++ s.stack)) := by
+            refine p1.trans (fun c1 x1 => ?_)
+            have := ihKA E args as has hwa (base + Ra.1.length) Ra.2
+              { s with pc := base + Ra.1.length, stack := (splitArgs as).1.reverse ++ s.stack, closures := c1 }
+              (by rw [← hRk]; exact hAt'.left.left.left.right) (by rw [← hRk]; exact hoofK) rfl (hok.next x1 _ _)
+            rw [← hRk] at this
+            exact this
+          have hi3 : X.K.C[base + Ra.1.length + Rk.1.length]? = some (.loadConst (.str "caller")) := by
+            have := hAt'.left.left.right.head; simpa [Nat.add_assoc] using this
+          have p3 : Pushed E s j (.str "caller" :: ((flatKw (splitArgs as).2).reverse ++ ((splitArgs as).1.reverse ++ s.stack))) :=
+            p2.step (i := .loadConst (.str "caller")) hi3 (fun cls1 => by simp [MJ.Vm.step, j])
+          obtain ⟨c3, x3, r3⟩ := p3
+          let s3 : VmState := { s with pc := j, stack := .str "caller" :: ((flatKw (splitArgs as).2).reverse ++ ((splitArgs as).1.reverse ++ s.stack)),
+                                       closures := c3 }
+          have hrel3 : Rel X.K G X.P X.clo σ (T :: locR) X.env s3 := hrel.ext _ rfl x3 rfl rfl
+          -- the `caller` macro
+          have hAtM : At X.K.C j MD := by
+            refine At.cast hAt'.left.right ?_
+            simp only [j, List.length_append, List.length_cons, List.length_nil]; omega
+          obtain ⟨s5, G2, vm, r5, hpc5, hst5, hrel5, hmrel, hout5, htl5, hhd5, hcp5, hhc5⟩ :=
+            sim_macro_expr X "caller" params defaults body uc hfvall hwfb hA Rp hRp Rb hRb (by rw [← hMD]; exact hAtM) hoof rfl hrel3
+          rw [← hMD] at hpc5
+          -- BuildKwargs
+          let wc : Val := .macro "caller" params defaults body uc (T :: (locR ++ X.env))
+          have hndk : (((splitArgs as).2 ++ [("caller", vm)]).map (·.1)).Nodup := by
+            rw [List.map_append, hkeys]
+            refine List.nodup_append.2 ⟨hnd, by simp, ?_⟩
+            intro k hk k' hk' e
+            simp at hk'; subst hk'; subst e; exact hnc hk
+          obtain ⟨m', hm', hget⟩ := insertPairs_kw ((splitArgs as).2 ++ [("caller", vm)]) [] hndk (fun k _ => by simp [assocGet])
+          have hcnone : assocGet "caller" (splitArgs as).2 = none :=
+            assocGet_none_of_not_mem (by rw [hkeys]; exact hnc)
+          let s6 : VmState := { s5 with pc := s5.pc + 1, stack := .kwargs m' :: ((splitArgs as).1.reverse ++ s.stack) }
+          have hi6 : X.K.C[s5.pc]? = some (.buildKwargs ((kwArgs args).length + 1)) := by
+            have := hAt'.right.head
+            rw [hpc5]
+            refine Eq.trans (congrArg (fun k => X.K.C[k]?) ?_) this
+            simp only [j, List.length_append, List.length_cons, List.length_nil]; omega
+          have r6 : Reach X.K.ctx X.K.C s5 s6 := by
+            refine Reach.one (i := .buildKwargs ((kwArgs args).length + 1)) hi6 ?_
+            have hpop : popN (2 * ((kwArgs args).length + 1)) s5.stack =
+                some (flatKw ((splitArgs as).2 ++ [("caller", vm)]), (splitArgs as).1.reverse ++ s.stack) := by
+              have hl : 2 * ((kwArgs args).length + 1) = (flatKw ((splitArgs as).2 ++ [("caller", vm)])).length := by
+                rw [flatKw_length]; simp [hklen]
+              rw [hl, hst5]
+              have := popN_append (flatKw ((splitArgs as).2 ++ [("caller", vm)])) ((splitArgs as).1.reverse ++ s.stack)
+              rw [flatKw_snoc] at this ⊢
+              simpa [s3] using this
+            simp only [MJ.Vm.step, hpop, pairUp_flatKw, hm', Except.map, s6]
+          have hrel6 : Rel X.K G2 X.P X.clo σ (T :: locR) X.env s6 := hrel5.same s6 rfl rfl rfl
+          -- the arguments as the callee sees them
+          have hargsR : ArgsRel X.K G2 s6.closures σ.heap.length (as ++ [(some "caller", wc)])
+              ((splitArgs as).1 ++ [.kwargs m']) := by
+            rw [ArgsRel, splitArgs_append_kw]
+            refine ⟨fun v hv => hplA v (mem_splitArgs_pos hv), Or.inr ⟨by simp, m', ⟨fun k hk => ?_, Or.inr ?_⟩, rfl⟩⟩
+            · rw [hget k, assocGet_snoc_other _ _ _ _ hk, assocGet_snoc_other _ _ _ _ hk]
+              refine ⟨by cases assocGet k (splitArgs as).2 <;> simp [assocGet], fun v hv => hplA v (mem_splitArgs_kw (assocGet_mem' hv))⟩
+            · refine ⟨wc, vm, assocGet_snoc_same _ _ _ hcnone, ?_, hmrel⟩
+              rw [hget "caller", assocGet_snoc_same _ _ _ hcnone]
+          -- CallFunction
+          have hok6 : (X.ectx G2 σ.heap (T :: locR) A).ok s6 := hrel6.eok hA (by simp)
+          have hag : ValAgree X.K G2 s6.closures σ.heap.length x ((MJ.Eval.lookup X.K.ctx σ.heap (T :: locR ++ X.env) x).getD .undef)
+              (lookupFrames X.K.ctx s6.closures x s6.frames) := hok6.lookup (x := x) hxa
+          rw [hw'] at hag
+          simp only [Option.getD_some, ValAgree, if_pos hxM'] at hag
+          obtain ⟨nm, spec, off, clo, cref, vals, callerV, sR, hu, hprep, hreachC, hret, hv, hext⟩ :=
+            ihCall X.K G2 σ.heap s6.closures w _ (as ++ [(some "caller", wc)]) ((splitArgs as).1 ++ [.kwargs m']) v hcall hag hargsR
+              hok6.1.ginv hok6.1.plain
+          let s7 : VmState := { s6 with pc := s6.pc + 1, stack := v :: s.stack, closures := sR.closures }
+          have hi7 : X.K.C[s6.pc]? = some (.callFunction x ((splitArgs as).1 ++ [Val.kwargs m']).length) := by
+            have := hAt'.right.tail.head
+            simp only [s6, hpc5, List.length_append, List.length_cons, List.length_nil, hplen]
+            refine Eq.trans (congrArg (fun k => X.K.C[k]?) ?_) this
+            simp only [j, List.length_append, List.length_cons, List.length_nil]; omega
+          have r7 : Reach X.K.ctx X.K.C s6 s7 := by
+            refine Reach.call (name := x) (args := (splitArgs as).1 ++ [.kwargs m']) (rest := s.stack) hi7
+              (by have := popN_append ((splitArgs as).1 ++ [.kwargs m']) s.stack; simpa [s6] using this) hu hprep hreachC hret ?_
+            subst hv
+            exact Reach.refl _
+          have hrel7 : Rel X.K G2 X.P X.clo σ (T :: locR) X.env s7 := hrel6.ext s7 rfl hext rfl rfl
+          -- Emit
+          let s8 : VmState := { s7 with pc := s7.pc + 1, stack := s.stack, outs := MJ.Vm.appendOut (render v) s7.outs }
+          have hi8 : X.K.C[s7.pc]? = some .emit := by
+            have := hAt'.right.tail.tail.head
+            simp only [s7, s6, hpc5]
+            refine Eq.trans (congrArg (fun k => X.K.C[k]?) ?_) this
+            simp only [j, List.length_append, List.length_cons, List.length_nil]; omega
+          have r8 : Reach X.K.ctx X.K.C s7 s8 := Reach.one (i := .emit) hi8 (by simp [MJ.Vm.step, s7, s8])
+          have hr8 := hrel7.appendOut (render v) s8 rfl rfl rfl
+          -- together
+          have hcp03 : ClPres s s3 := ClPres.of_ext x3
+          have hhc03 : HeadClos s s3 := HeadClos.of_eq rfl
+          have hcp56 : ClPres s5 s6 := ClPres.of_eq rfl
+          have hhc56 : HeadClos s5 s6 := HeadClos.of_eq rfl
+          have hcp67 : ClPres s6 s7 := ClPres.of_ext hext
+          have hhc67 : HeadClos s6 s7 := HeadClos.of_eq rfl
+          have hcp78 : ClPres s7 s8 := ClPres.of_eq rfl
+          have hhc78 : HeadClos s7 s8 := HeadClos.of_eq rfl
+          have hcp05 : ClPres s s5 := hcp03.trans hhc03 hcp5
+          have hhc05 : HeadClos s s5 := hhc03.trans hcp03.1 hhc5
+          have hcp58 : ClPres s5 s8 := hcp56.trans hhc56 (hcp67.trans hhc67 hcp78)
+          have hhc58 : HeadClos s5 s8 := hhc56.trans hcp56.1 (hhc67.trans hcp67.1 hhc78)
+          simp only [Post, if_true]
+          refine ⟨s8, G2, (r3.trans r5).trans (r6.trans (r7.trans r8)), ?_, rfl, hr8.1, ?_, ?_, ?_,
+            hcp05.trans hhc05 hcp58, hhc05.trans hcp05.1 hhc58⟩
+          · simp only [s8, s7, s6, hpc5, ← hMD, j, List.length_append, List.length_cons, List.length_nil]; omega
+          · rw [hr8.2]; simp [s7, s6, hout5, s3]
+          · simp only [s8, s7, s6, htl5]; rfl
+          · simp only [s8, s7, s6, hhd5]; rfl
+
+/-! ## Putting the pieces together -/
+
+theorem sim_stmt_step {n} (ihEs : SimExprs n) (ihC : SimCall n) (hE : ∀ m, m ≤ n → SimExpr m) (ihB : SimBlock n) (ihW : SimBinds n)
+    (ihI : SimIters n) (ihF : SimFilters n) : SimStmt (n + 1) := by
+  intro X st
+  cases st with
+  | text t => exact sim_text X t
+  | emit e => exact sim_emit ihEs.1 X e
+  | set t e => exact sim_set ihEs.1 X t e
+  | ifS c t f => exact sim_if ihEs.1 ihB X c t f
+  | withS binds body => exact sim_with ihB ihW X binds body
+  | forS t iter flt body els => exact sim_for hE ihB ihI X t iter flt body els
+  | setBlock x fs body => exact sim_setBlock ihB ihF X x fs body
+  | filterBlock fs body => exact sim_filterBlock ihB ihF X fs body
+  | macroS name params defaults body uc => exact sim_macro X name params defaults body uc
+  | callBlock callee args params defaults body uc =>
+    cases callee with
+    | var x => exact sim_callBlock ihEs.2.2.2.2.2.1 ihEs.2.2.2.2.2.2 ihC X x args params defaults body uc
+    | _ =>
+      intro G σ loc σ' fl hev A lc hs
+      simp [wfStmt] at hs
+  | breakS => exact sim_break X
+  | continueS => exact sim_continue X
+
+/-- everything at fuel `n` -/
+def AllSim (n : Nat) : Prop :=
+  SimExprs n ∧ SimCall n ∧ SimStmt n ∧ SimBlock n ∧ SimBinds n ∧ SimIters n ∧ SimFilters n
+
+theorem all_sim_zero : AllSim 0 := by
+  refine ⟨sim_exprs_zero, ?_, ?_, ?_, ?_, ?_, ?_⟩
+  · intro K G heap cls w u as args v h; simp [callValue] at h
+  · intro X st G σ loc σ' fl h; simp [exec] at h
+  · intro X ss G σ loc σ' fl h; simp [execBlock] at h
+  · intro X binds G heap loc heap' out h; simp [bindWith] at h
+  · intro X G σ loc σ' t body xs len idx prev h; simp [execIters] at h
+  · intro E fs v v' h; simp [applyFilters] at h
+
+theorem all_sim : ∀ n, ∀ m, m ≤ n → AllSim m := by
+  intro n
+  induction n with
+  | zero => intro m hm; have : m = 0 := by omega
+            subst this; exact all_sim_zero
   | succ n ih =>
-    obtain ⟨hS, hB, hW, hI, hF⟩ := ih
-    exact ⟨sim_stmt_step hB hW hI hF, sim_block_step hS hB, sim_binds_step hW, sim_iters_step hB hI, sim_filters_step hF⟩
+    intro m hm
+    by_cases hle : m ≤ n
+    · exact ih m hle
+    · have : m = n + 1 := by omega
+      subst this
+      obtain ⟨hEs, hC, hS, hB, hW, hI, hF⟩ := ih n (Nat.le_refl n)
+      exact ⟨sim_exprs_step hEs hC, sim_call_step (fun k hk => (ih k (by omega)).1.1) hB,
+        sim_stmt_step hEs hC (fun k hk => (ih k hk).1.1) hB hW hI hF, sim_block_step hS hB,
+        sim_binds_step hEs.1 hW, sim_iters_step hB hI, sim_filters_step hEs.2.2.1 hF⟩
 
-/-- the fragment of stage 3: text, `{{ e }}`, `set` (incl. unpacking), set-blocks and filter-blocks
-with filter chains, `if`/`elif`/`else`, `with`, `for … if … else` with unpacking targets and loop
-filter, `break` and `continue` (inside loops) over every expression form except calls and keyword
-arguments -/
-def Fragment (prog : List Stmt) : Prop := simpleBlock false prog = true
+/-- the render context holds plain data: `undefined`, `none`, booleans, integers, strings, lists and maps
+of these (no macro or other engine object: they cannot come from a template) -/
+def CtxPlain (ctx : Scope) : Prop := ∀ x v, assocGet x ctx = some v → plain v = true
 
-/-- **`vm_refines_eval_partial`**: for every template of the fragment and every context, if the
-reference semantics renders it to `out`, then the model VM, run on the code the model code
-generator emits for it, renders `out` as well (for every sufficiently large step budget). -/
-theorem vm_refines_eval_partial (prog : List Stmt) (hfrag : Fragment prog) (ctx : Scope) (code : List Instr)
-    (hcode : compileTemplate prog = some code) (fuel : Nat) (out : String)
+theorem plain_not_macro {v : Val} (h : plain v = true) : ∀ n p d b u e, v ≠ .macro n p d b u e := by
+  intro n p d b u e hv; subst hv; simp [plain] at h
+
+/-- the relation at the start of a render -/
+theorem rel_init (K : Cfg) (hctx : CtxPlain K.ctx) :
+    Rel K (fun _ => none) none none { heap := [[]], out := "" } [0] [] ({} : VmState) := by
+  refine ⟨⟨⟨[{}], [], rfl, ⟨⟨[], by simp, fun x => by simp only [assocGet, frameLocal]; exact OptAgree.none _ _ _ _ _⟩, rfl, trivial⟩,
+    by simp, ?_, ?_⟩, ?_, ?_, ?_, by simp, by simp, by simp, by simp, ?_⟩, ⟨[], rfl⟩⟩
+  · intro k f c hk hcl
+    cases k with
+    | zero => simp at hk; subst hk; cases hcl
+    | succ j => simp at hk
+  · intro c env' h; cases h
+  · intro x _
+    have : tailLookup K.ctx ([] : List Scope) none x = (MJ.Eval.lookup K.ctx [[]] [] x).getD .undef := by
+      simp [tailLookup, MJ.Eval.lookup, lookupIn]
+    show ValAgree K _ _ _ x _ (tailLookup K.ctx ([] : List Scope) none x)
+    rw [this]
+    unfold ValAgree
+    split
+    · cases hl : MJ.Eval.lookup K.ctx [[]] [] x with
+      | none => exact MacroRel_of_data (by intro n p d b u e h; cases h)
+      | some w =>
+        simp only [Option.getD_some]
+        have hw : assocGet x K.ctx = some w := by simpa [MJ.Eval.lookup, lookupIn] using hl
+        exact MacroRel_of_data (plain_not_macro (hctx x w hw))
+    · rfl
+  · intro c env' h; cases h
+  · intro c env' h; cases h
+  · refine ⟨hctx, fun id cell x v hc _ hg => ?_⟩
+    cases id with
+    | zero => simp at hc; subst hc; simp [assocGet] at hg
+    | succ k => simp at hc
+
+/-- **`vm_refines_eval`**: for every template of the core fragment (`CoreFragment`: expressions, `if`,
+`for` with filter / else / unpacking / `loop`, `set`, set-blocks, `with`, filter-blocks, `break` /
+`continue`, macro declarations with closures and parameter defaults, macro calls with positional and
+keyword arguments, call blocks and `caller`) and every render context of plain data, if the reference
+semantics renders it to `out`, then the model VM, run on the code the model code generator emits for it,
+renders `out` as well (for every sufficiently large step budget). -/
+theorem vm_refines_eval (prog : List Stmt) (hfrag : CoreFragment prog) (ctx : Scope) (hctx : CtxPlain ctx)
+    (code : List Instr) (hcode : compileTemplate prog = some code) (fuel : Nat) (out : String)
     (hev : renderTemplate fuel ctx prog = .ok out) :
     ∃ k, ∀ j, renderCode (k + j) ctx code = .ok out := by
+  have hcore : coreBlock false prog = true := wf_coreBlock _ _ _ _ _ hfrag
   have heq : cBlock prog {} = ({} : CG).extend (relBlock prog 0 {} none).1 := by
-    have h := cBlock_eq_rel prog {} none hfrag trivial
+    have h := cBlock_eq_core prog {} none hcore trivial
     rw [h, CG.withBreaks_eq]
     simp [foldl_addBreakJump_nil, CG.extend, CG.next, setExit]
   simp only [compileTemplate] at hcode
@@ -1648,13 +3422,14 @@ theorem vm_refines_eval_partial (prog : List Stmt) (hfrag : Fragment prog) (ctx 
     split at hev
     · rename_i σ fl hexec
       simp at hev; subst hev
-      have hAt : At code 0 (relBlock prog 0 {} none).1.1 := by
+      let K : Cfg := { ctx := ctx, M := macroNames prog, C := code }
+      let X : SC := { K := K, P := none, clo := none, env := [] }
+      have hAt : At K.C 0 (relBlock prog 0 {} none).1.1 := by
+        show At code 0 _
         rw [hc]; intro k _; simp
-      have hrel0 : Rel { heap := [[]], out := "" } [0] ({} : VmState) := by
-        refine ⟨?_, ⟨[], rfl⟩, by simp, by simp, ⟨0, [], rfl⟩⟩
-        exact ⟨⟨[], by simp, by intro x; simp [assocGet, frameLookup]⟩, trivial⟩
-      have p := (sim_stmt_all fuel).2.1 prog ctx [0] _ σ fl hexec none hfrag code 0 {} {} hAt hoof rfl hrel0
-        (by intro l hl; cases hl)
+      have hrel0 : Rel K (fun _ => none) none none { heap := [[]], out := "" } [0] [] ({} : VmState) := rel_init K hctx
+      have p := (all_sim fuel fuel (Nat.le_refl _)).2.2.2.1 X prog (fun _ => none) _ [0] σ fl hexec [] none hfrag
+        (by intro x hx; simp at hx) (by simp) 0 {} {} hAt hoof rfl hrel0 (by intro l hl; cases hl)
       have hfl : fl = .normal := by
         cases fl with
         | normal => rfl
@@ -1662,16 +3437,32 @@ theorem vm_refines_eval_partial (prog : List Stmt) (hfrag : Fragment prog) (ctx 
         | cont => simp [Post] at p
       subst hfl
       simp only [Post, if_true] at p
-      obtain ⟨s', hreach, hpc, _, hrel', hout, _, _⟩ := p
-      have hend : code[s'.pc]? = none := by
-        rw [hpc, hc]; simp
+      obtain ⟨s', G', hreach, hpc, _, hrel', hout, _, _, _, _⟩ := p
+      have hend : Halted code s' := by
+        left; rw [hpc, hc]; simp
       obtain ⟨k, hk⟩ := hreach.toRun hend
       refine ⟨k, fun j => ?_⟩
-      obtain ⟨rest, hr⟩ := hrel'.out
+      obtain ⟨rest, hr⟩ := hrel'.2
       have : rest = [] := by
         have := hout; rw [hr] at this; simpa using this
       subst this
-      simp [renderCode, hk j, hr]
+      have hrun : run ctx code (k + j) {} = .ok s' := hk j
+      simp [renderCode, hrun, hr]
     · simp at hev
+
+/-- expressions, for the back-patching generator `cExpr` of `MJ.Compile`: the code it appends for `e`
+makes the VM push the value of `e` (constant folding, short-circuit `and` / `or`, `if` expressions,
+filters, tests, macro calls with positional and keyword arguments, …) -/
+theorem compileExpr_correct {n e v} (E : ECtx) (hev : evalExpr n E.K.ctx E.heap (E.loc ++ E.env) e = .ok v)
+    (hwf : wfExpr E.K.M E.P E.A e = true) (g : CG) (post : List Instr) (hC : E.K.C = (cExpr e g).code ++ post)
+    (hoof : (cExpr e g).oof = false) {s : VmState} (hpc : s.pc = g.next) (hok : E.ok s) :
+    Pushed E s (cExpr e g).next (v :: s.stack) := by
+  have hcore := wf_core _ _ _ e hwf
+  rw [cExpr_eq_core e g hcore] at hoof hC ⊢
+  have hAt : At E.K.C g.next (relExpr e g.next g.aux).1 := by
+    rw [hC]
+    exact At.of_append g.code _ post
+  have := (all_sim n n (Nat.le_refl _)).1.1 E e v hev hwf g.next g.aux s hAt (by simpa [CG.oof, CG.extend] using hoof) hpc hok
+  simpa [CG.extend, CG.next] using this
 
 end MJ.Vm
